@@ -36,6 +36,9 @@ RunningStates == {"Running", "AwokenWhileRunning", "WaitingForPoll", "WaitingFor
 Body(op) == OpTab[op].body
 Aw(op)   == OpTab[op].aw
 
+GateOfOp(op) == IF K(op) \in {"resume", "drop_resumer"} THEN OpTab[OpTab[op].f].g ELSE OpTab[op].g
+FutKinds == {"fdesync", "after"}
+
 (* --algorithm Desync {
 variables
   qstate = [q \in Objs |-> "Idle"],
@@ -69,11 +72,14 @@ variables
   ready = [op \in Ops |-> FALSE],
   cwait = [op \in Ops |-> FALSE],
   cnotif = [op \in Ops |-> FALSE],
+  cvHeld = [op \in Ops |-> FALSE],
   sdres = [op \in Ops |-> FALSE],
+  jpanic = [op \in Ops |-> FALSE],
   parkTok = [t \in Procs |-> FALSE],
   rv = [t \in Procs |-> 0],
   rwb = [t \in Procs |-> << >>],
   rneed = [t \in Procs |-> FALSE],
+  dsl = [t \in Procs |-> << >>],
   h = InitH;
 
 define {
@@ -91,22 +97,14 @@ define {
                           ELSE IF ~busy[p] THEN [kind |-> "take", p |-> p, i |-> i]
                           ELSE FirstDormant(i + 1)
 
-  \* a suspended future job whose awaited gate has not fired returns Pending without reaching a scheduling point
-  ImmPending(j) == jkind[j] = "fut" /\ jaw[j] > 0 /\ Aw(j)[jaw[j]] \notin gfired
   NeedsFinish(j) == jkind[j] \in {"fut", "syncbg"}
   Unpark(tok, ts) == [t \in Procs |-> tok[t] \/ t \in ts]
   TaskOf(w) == IF w.k = "TASK" THEN {w.t} ELSE {}
   SeqSet(sq) == {sq[i] : i \in 1..Len(sq)}
   Claimable(q) == qstate[q] \in {"Pending", "Idle"}
-}
-
-\* The part of job.run() that precedes its first scheduling point
-macro JobEnter(j, wk) {
-  if (jkind[j] = "fut" /\ jaw[j] > 0) {
-    if (Aw(j)[jaw[j]] \notin gfired) { gwaker[Aw(j)[jaw[j]]] := wk; rv[self] := 5; }
-  } else {
-    h := ObsStart(h, self, j);
-  }
+  \* the condition variable of a blocked sync caller is alive while the caller (or a notifier that upgraded its weak reference) holds it
+  CvAlive(c) == cvHeld[c] \/ \E t \in Procs : c \in SeqSet(rwb[t])
+  LiveWaiters(q) == SelectSeq(wakeBlocked[q], CvAlive)
 }
 
 \* ---- core.schedule_thread
@@ -145,12 +143,13 @@ st_spawn:    \* [threads] spawn_thread_if_less_than_maximum
 \* ---- core.reschedule_queue
 procedure Reschedule(rq) {
 rq_core:     \* [core]
-  if (FixD3) { rwb[self] := wakeBlocked[rq]; }
-  else { cnotif := [c \in Ops |-> cnotif[c] \/ (c \in SeqSet(wakeBlocked[rq]) /\ cwait[c])]; };
+  if (FixD3) { rwb[self] := LiveWaiters(rq); }
+  else { cnotif := [c \in Ops |-> cnotif[c] \/ (c \in SeqSet(LiveWaiters(rq)) /\ cwait[c])]; };
+  wakeBlocked[rq] := LiveWaiters(rq);
   if (qstate[rq] = "Idle" /\ jobs[rq] # << >>) { qstate[rq] := "Pending"; rneed[self] := TRUE; }
   else if (qstate[rq] = "WaitingForPoll") { rneed[self] := TRUE; }
   else { rneed[self] := FALSE; };
-  if (FixD3 /\ wakeBlocked[rq] # << >>) { goto rq_notify; }
+  if (FixD3 /\ LiveWaiters(rq) # << >>) { goto rq_notify; }
   else if (rneed[self]) { goto rq_sched; }
   else { return; };
 rq_notify:   \* [ready] each blocked sync caller is notified with its 'ready' lock held
@@ -233,7 +232,7 @@ rb_step:     \* [begin] / [body] / [ret] / [resumed]
     bi := bi + 1;
   };
 z_finish:
-  \* end of the nested operations: block, awaits, end
+  \* end of the nested operations: block, awaits, panic, end
   if (bown = 0) { return; }
   else if (OpTab[bown].block # 0 /\ OpTab[bown].block \notin gfired) {
     gthreads[OpTab[bown].block] := gthreads[OpTab[bown].block] \cup {self};
@@ -245,6 +244,12 @@ z_finish:
       if (Aw(bown)[k] \in gfired) { bi := Len(rsq) + 1; goto rb_step; }
       else { gwaker[Aw(bown)[k]] := bwk; rv[self] := 5; return; }
     }
+  }
+  else if (OpTab[bown].panic) {
+    h := ObsPanic(h, self, bown);
+    jpanic[bown] := TRUE;
+    rv[self] := 9;
+    return;
   }
   else {
     h := ObsEnd(h, self, bown);
@@ -258,32 +263,91 @@ rb_block:    \* [park] body blocks its thread until the gate fires
   goto z_finish;
 z_dispatch:
   if (K(bcur) = "desync") { jkind[bcur] := "plain"; call ScheduleJob(O(bcur), bcur); goto rb_step; }
-  else if (K(bcur) = "sync") { call Sync(O(bcur), bcur); goto rb_step; }
+  else if (K(bcur) \in {"sync", "drop_obj"}) { call Sync(O(bcur), bcur); goto rb_step; }
   else if (K(bcur) = "try_sync") { call TrySync(O(bcur), bcur); goto rb_step; }
-  else if (K(bcur) = "fdesync") { jkind[bcur] := "fut"; call ScheduleJob(O(bcur), bcur); goto z_then; }
-  else if (K(bcur) = "fire") {
-    h := ObsFire(h, OpTab[bcur].g);
-    gfired := gfired \cup {OpTab[bcur].g};
-    bw := gwaker[OpTab[bcur].g];
-    parkTok := Unpark(parkTok, gthreads[OpTab[bcur].g] \cup TaskOf(gwaker[OpTab[bcur].g]));
-    gwaker[OpTab[bcur].g] := NoW;
+  else if (K(bcur) \in {"fdesync", "after"}) { jkind[bcur] := "fut"; call ScheduleJob(O(bcur), bcur); goto z_then; }
+  else if (K(bcur) = "suspend") { jkind[bcur] := "susp"; call ScheduleJob(O(bcur), bcur); goto z_then; }
+  else if (K(bcur) \in {"fire", "resume", "drop_resumer"}) {
+    h := IF K(bcur) = "fire" THEN ObsFire(h, GateOfOp(bcur)) ELSE ObsResume(h, self, OpTab[bcur].f);
+    gfired := gfired \cup {GateOfOp(bcur)};
+    bw := gwaker[GateOfOp(bcur)];
+    parkTok := Unpark(parkTok, gthreads[GateOfOp(bcur)] \cup TaskOf(gwaker[GateOfOp(bcur)]));
+    gwaker[GateOfOp(bcur)] := NoW;
     rv[self] := 0;
     if (IsLocking(bw)) { call Wake(bw); goto rb_step; }
     else { goto rb_step; }
   }
   else if (K(bcur) = "await") { call Await(OpTab[bcur].f); goto rb_step; }
+  else if (K(bcur) = "poll") { call PollFuture(OpTab[bcur].f, NoW); goto z_polled; }
+  else if (K(bcur) = "wait_sync") { call WaitSync(OpTab[bcur].f, bcur); goto rb_step; }
+  else if (K(bcur) = "set_max") { goto mx_set; }
+  else if (K(bcur) = "despawn") { call Despawn(); goto rb_step; }
   else { rv[self] := 0; goto rb_step; };
 z_then:
-  if (OpTab[bcur].then = "await") { call Await(bcur); goto rb_step; }
-  else { goto rb_step; }
+  if (rv[self] = 0 /\ OpTab[bcur].then = "await") { call Await(bcur); goto rb_step; }
+  else { goto rb_step; };
+z_polled:
+  if (rv[self] \in {0, 3, 4}) { h := ObsResolved(h, self, OpTab[bcur].f, rv[self]); };
+  goto rb_step;
+mx_set:      \* [maxt] verif_set_max_threads
+  maxThreads := OpTab[bcur].n;
+  h := ObsSetMax(h, OpTab[bcur].n);
+  rv[self] := 0;
+  goto rb_step;
 }
 
-\* ---- things a finished job does before its runner takes its next lock
+\* ---- ScheduledJob::run of job jj of queue jq with waker jwk; rv: 0 = Ready, 5 = Pending, 9 = panicked
+procedure RunJob(jq, jj, jwk) {
+z_rj:
+  if (K(jj) \in {"desync", "sync", "try_sync"}) { h := ObsStart(h, self, jj); call RunOps(Body(jj), jj, jwk); goto z_rj_ret; }
+  else if (K(jj) = "fdesync") {
+    if (jaw[jj] = 0) { h := ObsStart(h, self, jj); call RunOps(Body(jj), jj, jwk); goto z_rj_ret; }
+    else if (Aw(jj)[jaw[jj]] \in gfired) { call RunOps(Body(jj), jj, jwk); goto z_rj_ret; }
+    else { gwaker[Aw(jj)[jaw[jj]]] := jwk; rv[self] := 5; return; }
+  }
+  else if (K(jj) = "after") {
+    if (OpTab[jj].g \in gfired) { h := ObsStart(h, self, jj); call RunOps(Body(jj), jj, jwk); goto z_rj_ret; }
+    else { gwaker[OpTab[jj].g] := jwk; rv[self] := 5; return; }
+  }
+  else if (K(jj) = "drop_obj") {
+    h := ObsFreed(h, O(jj));
+    if (jkind[jj] = "syncdrain") { sdres[jj] := TRUE; };
+    rv[self] := 0; return;
+  }
+  else if (K(jj) = "wait_sync") { goto ws_take; }
+  else {
+    \* suspend
+    if (jaw[jj] = 0) { goto sus_signal; }
+    else if (OpTab[jj].g \in gfired) { goto sus_inner; }
+    else { gwaker[OpTab[jj].g] := jwk; rv[self] := 5; return; }
+  };
+z_rj_ret:
+  return;
+sus_signal:  \* [fres] the suspend job signals the future returned by suspend()
+  with (w = fwaker[jj]) {
+    fres[jj] := "some"; fwaker[jj] := NoW;
+    if (IsLocking(w)) { call Wake(w); }
+    else { parkTok := Unpark(parkTok, TaskOf(w)); }
+  };
+sus_sigdrop: \* [fres]
+  jaw[jj] := 1;
+  if (OpTab[jj].g \notin gfired) { gwaker[OpTab[jj].g] := jwk; rv[self] := 5; return; };
+sus_inner:   \* [fres] the (detached) future of the suspend job itself is signalled
+  skip;
+sus_innerdrop: \* [fres]
+  rv[self] := 0;
+  return;
+ws_take:     \* [fres] the closure of SchedulerFuture::sync takes the result
+  if (fres[OpTab[jj].f] = "some") { fres[OpTab[jj].f] := "taken"; sdres[jj] := TRUE; rv[self] := 0; return; }
+  else { sdres[jj] := TRUE; rv[self] := 0; return; }
+}
+
+\* ---- things a finished (or panicked) job does when it is dropped, before its runner takes its next lock
 procedure FinishJob(fj) {
-fj_lock:     \* [fres] SchedulerFutureSignaller::signal, [ready] UnsafeJob::drop
+fj_lock:     \* [fres] SchedulerFutureSignaller::signal (or its drop, cancelling), [ready] UnsafeJob::drop
   if (jkind[fj] = "fut") {
     with (w = fwaker[fj]) {
-      fres[fj] := "some"; fwaker[fj] := NoW;
+      fres[fj] := IF jpanic[fj] THEN "cancelled" ELSE "some"; fwaker[fj] := NoW;
       if (IsLocking(w)) { call Wake(w); }
       else { parkTok := Unpark(parkTok, TaskOf(w)); }
     }
@@ -292,6 +356,8 @@ fj_lock:     \* [fres] SchedulerFutureSignaller::signal, [ready] UnsafeJob::drop
     cnotif[fj] := cwait[fj];
     return;
   };
+z_fj_chk:
+  if (jpanic[fj]) { return; };
 fj_sigdrop:  \* [fres] the signaller is dropped after signalling: the result is already set
   return;
 }
@@ -303,24 +369,27 @@ pd_deq:      \* [core] dequeue
   if (qstate[dq] \in Waiting \/ jobs[dq] = << >>) { goto pd_end; }
   else {
     dj := Head(jobs[dq]); jobs[dq] := Tail(jobs[dq]);
-    JobEnter(dj, WQ(dq));
-    if (ImmPending(dj)) { goto pd_requeue; }
-    else { call RunOps(Body(dj), dj, WQ(dq)); }
+    call RunJob(dq, dj, WQ(dq));
   };
 z_pd_after:
   if (rv[self] = 5) { goto pd_requeue; }
+  else if (rv[self] = 9) { if (NeedsFinish(dj)) { call FinishJob(dj); goto pd_panic; } else { goto pd_panic; } }
   else if (NeedsFinish(dj)) { call FinishJob(dj); goto pd_deq; }
   else { goto pd_deq; };
 pd_requeue:  \* [core]
   jobs[dq] := << dj >> \o jobs[dq];
 pd_park:     \* [core]
-  if (qstate[dq] = "Running") { qstate[dq] := "WaitingForWake"; return; }
+  if (qstate[dq] = "Running") { qstate[dq] := "WaitingForWake"; rv[self] := 0; return; }
   else if (qstate[dq] = "AwokenWhileRunning") { qstate[dq] := "Running"; goto pd_deq; }
   else { goto pd_deq; };
 pd_end:      \* [core]
-  if (jobs[dq] = << >>) { if (qstate[dq] \in RunningStates) { qstate[dq] := "Idle"; }; return; }
-  else if (qstate[dq] = "Pending") { return; }
-  else { goto pd_deq; }
+  if (jobs[dq] = << >>) { if (qstate[dq] \in RunningStates) { qstate[dq] := "Idle"; }; rv[self] := 0; return; }
+  else if (qstate[dq] = "Pending") { rv[self] := 0; return; }
+  else { goto pd_deq; };
+pd_panic:    \* [core] ActiveQueue::drop while panicking
+  qstate[dq] := "Panicked";
+  rv[self] := 9;
+  return;
 }
 
 \* ---- JobQueue::run_one_job_now, looping as its callers do (sync_drain: until the result is there; sync_background: one job)
@@ -328,33 +397,33 @@ procedure RunOne(oq, oop, omode)
   variables oj = 0; {
 ro_deq:      \* [core] dequeue
   if (qstate[oq] \in Waiting \/ jobs[oq] = << >>) {
-    if (omode = "sd") { goto ro_deq; } else { return; }
+    if (omode = "sd") { goto ro_deq; } else { rv[self] := 0; return; }
   } else {
     oj := Head(jobs[oq]); jobs[oq] := Tail(jobs[oq]);
-    JobEnter(oj, WT(oq, self));
-    if (ImmPending(oj)) { goto ro_park; }
-    else { call RunOps(Body(oj), oj, WT(oq, self)); }
+    call RunJob(oq, oj, WT(oq, self));
   };
 z_ro_after:
   if (rv[self] = 5) { goto ro_park; }
+  else if (rv[self] = 9) { if (NeedsFinish(oj)) { call FinishJob(oj); goto z_ro_panic; } else { goto z_ro_panic; } }
   else if (NeedsFinish(oj)) { call FinishJob(oj); };
 z_ro_done:
-  if (omode = "sd" /\ ~sdres[oop]) { goto ro_deq; } else { return; };
+  if (omode = "sd" /\ ~sdres[oop]) { goto ro_deq; } else { rv[self] := 0; return; };
+z_ro_panic:
+  rv[self] := 9;
+  return;
 ro_park:     \* [core]
   if (qstate[oq] = "AwokenWhileRunning") {
     qstate[oq] := "Running";
-    JobEnter(oj, WT(oq, self));
-    if (ImmPending(oj)) { goto ro_park; }
-    else { call RunOps(Body(oj), oj, WT(oq, self)); goto z_ro_after; }
+    call RunJob(oq, oj, WT(oq, self));
+    goto z_ro_after;
   } else {
     assert qstate[oq] = "Running";
     qstate[oq] := "WaitingForUnpark";
   };
 ro_check:    \* [core]
   if (qstate[oq] \in {"Running", "AwokenWhileRunning"}) {
-    JobEnter(oj, WT(oq, self));
-    if (ImmPending(oj)) { goto ro_park; }
-    else { call RunOps(Body(oj), oj, WT(oq, self)); goto z_ro_after; }
+    call RunJob(oq, oj, WT(oq, self));
+    goto z_ro_after;
   } else { assert qstate[oq] = "WaitingForUnpark"; };
 ro_parked:   \* [park]
   await parkTok[self];
@@ -363,7 +432,7 @@ ro_parked:   \* [park]
   goto ro_check;
 }
 
-\* ---- sync
+\* ---- sync (also Desync::drop, whose closure frees the value)
 procedure Sync(yq, yop) {
 sy_decide:   \* [core]
   if (qstate[yq] \in {"Running", "WaitingForWake", "WaitingForUnpark", "WaitingForPoll", "AwokenWhileRunning"}) { goto sb_reg; }
@@ -371,9 +440,11 @@ sy_decide:   \* [core]
   else if (qstate[yq] = "Pending") { qstate[yq] := "Running"; goto sd_push; }
   else {
     qstate[yq] := "Running";
-    if (jobs[yq] = << >>) { jkind[yop] := "imm"; h := ObsStart(h, self, yop); call RunOps(Body(yop), yop, NoW); }
+    if (jobs[yq] = << >>) { jkind[yop] := "imm"; call RunJob(yq, yop, NoW); }
     else { goto sd_push; }
   };
+z_si_chk:
+  if (rv[self] = 9) { goto sy_panic; };
 si_idle:     \* [core]
   qstate[yq] := "Idle";
   call Reschedule(yq);
@@ -384,12 +455,15 @@ sd_push:     \* [core]
   jkind[yop] := "syncdrain";
   jobs[yq] := Append(jobs[yq], yop);
   call RunOne(yq, yop, "sd");
+z_sd_chk:
+  if (rv[self] = 9) { goto sy_panic; };
 sd_idle:     \* [core]
   qstate[yq] := "Idle";
   call Reschedule(yq);
   goto z_si_ret;
 sb_reg:      \* [core]
   wakeBlocked[yq] := Append(wakeBlocked[yq], yop);
+  cvHeld[yop] := TRUE;
 sb_push:     \* [core]
   jkind[yop] := "syncbg";
   jobs[yq] := Append(jobs[yq], yop);
@@ -409,11 +483,14 @@ sb_claim:    \* [sched] claim_pending_queue
     schedule := SelectSeq(schedule, LAMBDA x : x # yq);
   } else { goto sb_lock; };
 sb_chk:      \* [ready]
-  if (~ready[yop]) { call RunOne(yq, yop, "sb"); goto sb_chk; };
+  if (~ready[yop]) { call RunOne(yq, yop, "sb"); goto z_sb_chk; };
 sb_idle:     \* [core]
   qstate[yq] := "Idle";
   call Reschedule(yq);
   goto sb_lock;
+z_sb_chk:
+  if (rv[self] = 9) { cvHeld[yop] := (yop \in SeqSet(jobs[yq])); if (FixD6) { goto sy_panic; } else { rv[self] := 2; return; } }
+  else { goto sb_chk; };
 sb_wait:     \* [wait]
   await cnotif[yop];
   h := ObsBlocked(h, self);
@@ -427,8 +504,13 @@ sb_wait:     \* [wait]
   }
   else { cnotif[yop] := FALSE; goto sb_wait; };
 sb_fin:      \* [core]
-  wakeBlocked[yq] := SelectSeq(wakeBlocked[yq], LAMBDA x : x # yop);
+  cvHeld[yop] := FALSE;
+  wakeBlocked[yq] := SelectSeq(wakeBlocked[yq], LAMBDA x : (x # yop /\ CvAlive(x)) \/ (x = yop /\ \E t \in Procs : yop \in SeqSet(rwb[t])));
   rv[self] := 0;
+  return;
+sy_panic:    \* [core] ActiveQueue::drop while panicking
+  qstate[yq] := "Panicked";
+  rv[self] := 2;
   return;
 }
 
@@ -440,17 +522,23 @@ ts_decide:   \* [core]
       if (~FixD1) { qstate[tq] := "Running"; };
       rv[self] := 1; return;
     } else {
-      qstate[tq] := "Running"; jkind[top] := "imm"; h := ObsStart(h, self, top);
-      call RunOps(Body(top), top, NoW);
+      qstate[tq] := "Running"; jkind[top] := "imm";
+      call RunJob(tq, top, NoW);
     }
   }
   else if (qstate[tq] = "Panicked") { rv[self] := 2; return; }
   else { rv[self] := 1; return; };
+z_ts_chk:
+  if (rv[self] = 9) { goto ts_panic; };
 ts_idle:     \* [core]
   qstate[tq] := "Idle";
   call Reschedule(tq);
 z_ts_ret:
   rv[self] := 0;
+  return;
+ts_panic:    \* [core]
+  qstate[tq] := "Panicked";
+  rv[self] := 2;
   return;
 }
 
@@ -467,11 +555,40 @@ aw_park:     \* [park]
   goto z_aw_poll;
 }
 
+\* ---- SchedulerFuture::sync of the future of op wf (the calling op is wop)
+procedure WaitSync(wf, wop) {
+fs_take:     \* [fres]
+  if (fres[wf] = "some") { fres[wf] := "taken"; h := ObsResolved(h, self, wf, 0); rv[self] := 0; return; }
+  else if (fres[wf] = "cancelled") { fres[wf] := "taken"; h := ObsResolved(h, self, wf, 4); rv[self] := 4; return; }
+  else { call Sync(O(wf), wop); };
+z_fs_after:
+  if (rv[self] = 0) { h := ObsResolved(h, self, wf, 0); };
+  return;
+}
+
+\* ---- despawn_threads_if_overloaded
+procedure Despawn() {
+ds_max:      \* [maxt]
+  skip;
+ds_pop:      \* [threads]
+  await thrHeld = "";
+  dsl[self] := [i \in 1..(IF Len(pthreads) > maxThreads THEN Len(pthreads) - maxThreads ELSE 0) |-> pthreads[Len(pthreads) + 1 - i]];
+  chanOpen := [p \in PoolSet |-> chanOpen[p] /\ ~(\E i \in (maxThreads + 1)..Len(pthreads) : pthreads[i] = p)];
+  pthreads := SubSeq(pthreads, 1, IF Len(pthreads) > maxThreads THEN maxThreads ELSE Len(pthreads));
+  if (dsl[self] = << >>) { rv[self] := 0; return; };
+ds_join:     \* [join]
+  await pfin[Head(dsl[self])];
+  h := ObsBlocked(h, self);
+  dsl[self] := Tail(dsl[self]);
+  if (Len(dsl[self]) > 0) { goto ds_join; } else { rv[self] := 0; return; };
+}
+
 \* ---- SchedulerFuture::poll + drain_queue
 procedure PollFuture(pf, pctx)
   variables pq = 0, pj = 0, pd = 0; {
 pf_decide:   \* [fres] (queue core nested)
   if (fres[pf] = "some") { fres[pf] := "taken"; rv[self] := 0; return; }
+  else if (fres[pf] = "cancelled") { fres[pf] := "taken"; rv[self] := 4; return; }
   else if (qstate[O(pf)] \in {"Running", "WaitingForWake", "WaitingForUnpark", "AwokenWhileRunning"}
            \/ (qstate[O(pf)] = "WaitingForPoll" /\ qpoll[O(pf)] # pf)) {
     fwaker[pf] := pctx; rv[self] := 5; return;
@@ -479,31 +596,32 @@ pf_decide:   \* [fres] (queue core nested)
   else if (qstate[O(pf)] = "Panicked") { fwaker[pf] := pctx; rv[self] := 2; return; }
   else { pq := O(pf); qstate[O(pf)] := "Running"; qpoll[O(pf)] := 0; };
 dq_res:      \* [fres]
-  if (fres[pf] = "some") { fres[pf] := "taken"; goto dq_idle; };
+  if (fres[pf] = "some") { fres[pf] := "taken"; rv[self] := 0; goto dq_idle; }
+  else if (fres[pf] = "cancelled") { fres[pf] := "taken"; rv[self] := 4; goto dq_idle; };
 dq_deq:      \* [core] dequeue
   if (qstate[pq] \in Waiting \/ jobs[pq] = << >>) { goto dq_empty_w; }
   else {
     pj := Head(jobs[pq]); jobs[pq] := Tail(jobs[pq]);
     pd := nextDW; nextDW := nextDW + 1;
-    JobEnter(pj, DW(pd));
-    if (ImmPending(pj)) { goto dq_requeue; }
-    else { call RunOps(Body(pj), pj, DW(pd)); }
+    call RunJob(pq, pj, DW(pd));
   };
 z_dq_after:
   if (rv[self] = 5) { goto dq_requeue; }
+  else if (rv[self] = 9) { if (NeedsFinish(pj)) { call FinishJob(pj); goto dq_panic; } else { goto dq_panic; } }
   else if (NeedsFinish(pj)) { call FinishJob(pj); goto dq_res; }
   else { goto dq_res; };
 dq_requeue:  \* [core]
   jobs[pq] := << pj >> \o jobs[pq];
 dq_res2:     \* [fres]
-  if (fres[pf] = "some") { fres[pf] := "taken"; } else { goto dq_setwaker; };
+  if (fres[pf] = "some") { fres[pf] := "taken"; rv[self] := 0; }
+  else if (fres[pf] = "cancelled") { fres[pf] := "taken"; rv[self] := 4; }
+  else { goto dq_setwaker; };
 dq_waitwake: \* [core]
   qstate[pq] := "WaitingForWake";
 dq_ww1:      \* [dw] wake_with(WakeQueue)
   if (dwSt[pd] = "Woken") { call Wake(WQ(pq)); }
   else { dwSt[pd] := "Will"; dwW[pd] := WQ(pq); };
 z_dq_ready:
-  rv[self] := 0;
   return;
 dq_setwaker: \* [fres]
   fwaker[pf] := pctx;
@@ -526,6 +644,10 @@ dq_idle:     \* [core]
   qstate[pq] := "Idle";
   call Reschedule(pq);
   goto z_dq_ready;
+dq_panic:    \* [core] ActiveQueue::drop while panicking
+  qstate[pq] := "Panicked";
+  rv[self] := 2;
+  return;
 }
 
 process (caller \in Threads) {
@@ -540,7 +662,7 @@ process (pool \in PoolSet)
 pt_recv:     \* [recv]
   await palive[self] /\ (inbox[self] > 0 \/ ~chanOpen[self]);
   if (inbox[self] > 0) { inbox[self] := inbox[self] - 1; }
-  else { pfin[self] := TRUE; h := ObsExit(h, self, 1, 0); goto pt_done; };
+  else { pfin[self] := TRUE; h := ObsExit(h, self, 1, 0); goto z_pt_done; };
 pt_next:     \* [busy] lock the busy flag, next_to_run
   with (r = NTR(schedule)) {
     busyLocked[self] := TRUE;
@@ -550,8 +672,11 @@ pt_next:     \* [busy] lock the busy flag, next_to_run
 pt_after:    \* [unlock] the schedule has been examined; the busy flag is released
   busyLocked[self] := FALSE;
   if (nq = 0) { busy[self] := FALSE; goto pt_recv; }
-  else { call PoolDrain(nq); goto pt_next; };
-pt_done:
+  else { call PoolDrain(nq); };
+z_pt_chk:
+  if (rv[self] = 9) { pfin[self] := TRUE; h := ObsExit(h, self, 1, 1); goto z_pt_done; }
+  else { goto pt_next; };
+z_pt_done:
   skip;
 }
 } *)
@@ -561,7 +686,7 @@ VARIABLES pc, qstate, qpoll, jobs, wakeBlocked, schedule, pthreads, nspawned,
           palive, busy, busyLocked, inbox, chanOpen, pfin, thrHeld, 
           maxThreads, jkind, jaw, fres, fwaker, gfired, gwaker, gthreads, 
           dwSt, dwW, dblTaken, dblW1, dblW2, nextDW, ready, cwait, cnotif, 
-          sdres, parkTok, rv, rwb, rneed, h, stack
+          cvHeld, sdres, jpanic, parkTok, rv, rwb, rneed, dsl, h, stack
 
 (* define statement *)
 RECURSIVE NTR(_)
@@ -578,24 +703,27 @@ FirstDormant(i) == IF i > Len(pthreads) THEN [kind |-> "none", p |-> "", i |-> i
                         ELSE IF ~busy[p] THEN [kind |-> "take", p |-> p, i |-> i]
                         ELSE FirstDormant(i + 1)
 
-
-ImmPending(j) == jkind[j] = "fut" /\ jaw[j] > 0 /\ Aw(j)[jaw[j]] \notin gfired
 NeedsFinish(j) == jkind[j] \in {"fut", "syncbg"}
 Unpark(tok, ts) == [t \in Procs |-> tok[t] \/ t \in ts]
 TaskOf(w) == IF w.k = "TASK" THEN {w.t} ELSE {}
 SeqSet(sq) == {sq[i] : i \in 1..Len(sq)}
 Claimable(q) == qstate[q] \in {"Pending", "Idle"}
 
-VARIABLES dead, sti, rq, sq, sj, ww, rsq, bown, bwk, bi, bcur, bw, fj, dq, dj, 
-          oq, oop, omode, oj, yq, yop, tq, top, af, pf, pctx, pq, pj, pd, nq
+CvAlive(c) == cvHeld[c] \/ \E t \in Procs : c \in SeqSet(rwb[t])
+LiveWaiters(q) == SelectSeq(wakeBlocked[q], CvAlive)
+
+VARIABLES dead, sti, rq, sq, sj, ww, rsq, bown, bwk, bi, bcur, bw, jq, jj, 
+          jwk, fj, dq, dj, oq, oop, omode, oj, yq, yop, tq, top, af, wf, wop, 
+          pf, pctx, pq, pj, pd, nq
 
 vars == << pc, qstate, qpoll, jobs, wakeBlocked, schedule, pthreads, nspawned, 
            palive, busy, busyLocked, inbox, chanOpen, pfin, thrHeld, 
            maxThreads, jkind, jaw, fres, fwaker, gfired, gwaker, gthreads, 
            dwSt, dwW, dblTaken, dblW1, dblW2, nextDW, ready, cwait, cnotif, 
-           sdres, parkTok, rv, rwb, rneed, h, stack, dead, sti, rq, sq, sj, 
-           ww, rsq, bown, bwk, bi, bcur, bw, fj, dq, dj, oq, oop, omode, oj, 
-           yq, yop, tq, top, af, pf, pctx, pq, pj, pd, nq >>
+           cvHeld, sdres, jpanic, parkTok, rv, rwb, rneed, dsl, h, stack, 
+           dead, sti, rq, sq, sj, ww, rsq, bown, bwk, bi, bcur, bw, jq, jj, 
+           jwk, fj, dq, dj, oq, oop, omode, oj, yq, yop, tq, top, af, wf, wop, 
+           pf, pctx, pq, pj, pd, nq >>
 
 ProcSet == (Threads) \cup (PoolSet)
 
@@ -631,11 +759,14 @@ Init == (* Global variables *)
         /\ ready = [op \in Ops |-> FALSE]
         /\ cwait = [op \in Ops |-> FALSE]
         /\ cnotif = [op \in Ops |-> FALSE]
+        /\ cvHeld = [op \in Ops |-> FALSE]
         /\ sdres = [op \in Ops |-> FALSE]
+        /\ jpanic = [op \in Ops |-> FALSE]
         /\ parkTok = [t \in Procs |-> FALSE]
         /\ rv = [t \in Procs |-> 0]
         /\ rwb = [t \in Procs |-> << >>]
         /\ rneed = [t \in Procs |-> FALSE]
+        /\ dsl = [t \in Procs |-> << >>]
         /\ h = InitH
         (* Procedure ScheduleThread *)
         /\ dead = [ self \in ProcSet |-> << >>]
@@ -654,6 +785,10 @@ Init == (* Global variables *)
         /\ bi = [ self \in ProcSet |-> 0]
         /\ bcur = [ self \in ProcSet |-> 0]
         /\ bw = [ self \in ProcSet |-> NoW]
+        (* Procedure RunJob *)
+        /\ jq = [ self \in ProcSet |-> defaultInitValue]
+        /\ jj = [ self \in ProcSet |-> defaultInitValue]
+        /\ jwk = [ self \in ProcSet |-> defaultInitValue]
         (* Procedure FinishJob *)
         /\ fj = [ self \in ProcSet |-> defaultInitValue]
         (* Procedure PoolDrain *)
@@ -672,6 +807,9 @@ Init == (* Global variables *)
         /\ top = [ self \in ProcSet |-> defaultInitValue]
         (* Procedure Await *)
         /\ af = [ self \in ProcSet |-> defaultInitValue]
+        (* Procedure WaitSync *)
+        /\ wf = [ self \in ProcSet |-> defaultInitValue]
+        /\ wop = [ self \in ProcSet |-> defaultInitValue]
         (* Procedure PollFuture *)
         /\ pf = [ self \in ProcSet |-> defaultInitValue]
         /\ pctx = [ self \in ProcSet |-> defaultInitValue]
@@ -696,10 +834,11 @@ st_reap(self) == /\ pc[self] = "st_reap"
                                  chanOpen, pfin, thrHeld, maxThreads, jkind, 
                                  jaw, fres, fwaker, gfired, gwaker, gthreads, 
                                  dwSt, dwW, dblTaken, dblW1, dblW2, nextDW, 
-                                 ready, cwait, cnotif, sdres, parkTok, rv, rwb, 
-                                 rneed, h, stack, sti, rq, sq, sj, ww, rsq, 
-                                 bown, bwk, bi, bcur, bw, fj, dq, dj, oq, oop, 
-                                 omode, oj, yq, yop, tq, top, af, pf, pctx, pq, 
+                                 ready, cwait, cnotif, cvHeld, sdres, jpanic, 
+                                 parkTok, rv, rwb, rneed, dsl, h, stack, sti, 
+                                 rq, sq, sj, ww, rsq, bown, bwk, bi, bcur, bw, 
+                                 jq, jj, jwk, fj, dq, dj, oq, oop, omode, oj, 
+                                 yq, yop, tq, top, af, wf, wop, pf, pctx, pq, 
                                  pj, pd, nq >>
 
 st_join(self) == /\ pc[self] = "st_join"
@@ -713,11 +852,12 @@ st_join(self) == /\ pc[self] = "st_join"
                                  inbox, chanOpen, pfin, thrHeld, maxThreads, 
                                  jkind, jaw, fres, fwaker, gfired, gwaker, 
                                  gthreads, dwSt, dwW, dblTaken, dblW1, dblW2, 
-                                 nextDW, ready, cwait, cnotif, sdres, parkTok, 
-                                 rv, rwb, rneed, stack, sti, rq, sq, sj, ww, 
-                                 rsq, bown, bwk, bi, bcur, bw, fj, dq, dj, oq, 
-                                 oop, omode, oj, yq, yop, tq, top, af, pf, 
-                                 pctx, pq, pj, pd, nq >>
+                                 nextDW, ready, cwait, cnotif, cvHeld, sdres, 
+                                 jpanic, parkTok, rv, rwb, rneed, dsl, stack, 
+                                 sti, rq, sq, sj, ww, rsq, bown, bwk, bi, bcur, 
+                                 bw, jq, jj, jwk, fj, dq, dj, oq, oop, omode, 
+                                 oj, yq, yop, tq, top, af, wf, wop, pf, pctx, 
+                                 pq, pj, pd, nq >>
 
 st_dormant(self) == /\ pc[self] = "st_dormant"
                     /\ (thrHeld = "" \/ thrHeld = self) /\ (thrHeld = self => ~busyLocked[pthreads[sti[self]]])
@@ -743,11 +883,12 @@ st_dormant(self) == /\ pc[self] = "st_dormant"
                                     chanOpen, pfin, maxThreads, jkind, jaw, 
                                     fres, fwaker, gfired, gwaker, gthreads, 
                                     dwSt, dwW, dblTaken, dblW1, dblW2, nextDW, 
-                                    ready, cwait, cnotif, sdres, parkTok, rv, 
-                                    rwb, rneed, h, rq, sq, sj, ww, rsq, bown, 
-                                    bwk, bi, bcur, bw, fj, dq, dj, oq, oop, 
-                                    omode, oj, yq, yop, tq, top, af, pf, pctx, 
-                                    pq, pj, pd, nq >>
+                                    ready, cwait, cnotif, cvHeld, sdres, 
+                                    jpanic, parkTok, rv, rwb, rneed, dsl, h, 
+                                    rq, sq, sj, ww, rsq, bown, bwk, bi, bcur, 
+                                    bw, jq, jj, jwk, fj, dq, dj, oq, oop, 
+                                    omode, oj, yq, yop, tq, top, af, wf, wop, 
+                                    pf, pctx, pq, pj, pd, nq >>
 
 st_max(self) == /\ pc[self] = "st_max"
                 /\ TRUE
@@ -757,11 +898,12 @@ st_max(self) == /\ pc[self] = "st_max"
                                 inbox, chanOpen, pfin, thrHeld, maxThreads, 
                                 jkind, jaw, fres, fwaker, gfired, gwaker, 
                                 gthreads, dwSt, dwW, dblTaken, dblW1, dblW2, 
-                                nextDW, ready, cwait, cnotif, sdres, parkTok, 
-                                rv, rwb, rneed, h, stack, dead, sti, rq, sq, 
-                                sj, ww, rsq, bown, bwk, bi, bcur, bw, fj, dq, 
-                                dj, oq, oop, omode, oj, yq, yop, tq, top, af, 
-                                pf, pctx, pq, pj, pd, nq >>
+                                nextDW, ready, cwait, cnotif, cvHeld, sdres, 
+                                jpanic, parkTok, rv, rwb, rneed, dsl, h, stack, 
+                                dead, sti, rq, sq, sj, ww, rsq, bown, bwk, bi, 
+                                bcur, bw, jq, jj, jwk, fj, dq, dj, oq, oop, 
+                                omode, oj, yq, yop, tq, top, af, wf, wop, pf, 
+                                pctx, pq, pj, pd, nq >>
 
 st_spawn(self) == /\ pc[self] = "st_spawn"
                   /\ thrHeld = ""
@@ -783,21 +925,23 @@ st_spawn(self) == /\ pc[self] = "st_spawn"
                                   busy, busyLocked, inbox, pfin, thrHeld, 
                                   maxThreads, jkind, jaw, fres, fwaker, gfired, 
                                   gwaker, gthreads, dwSt, dwW, dblTaken, dblW1, 
-                                  dblW2, nextDW, ready, cwait, cnotif, sdres, 
-                                  parkTok, rv, rwb, rneed, rq, sq, sj, ww, rsq, 
-                                  bown, bwk, bi, bcur, bw, fj, dq, dj, oq, oop, 
-                                  omode, oj, yq, yop, tq, top, af, pf, pctx, 
-                                  pq, pj, pd, nq >>
+                                  dblW2, nextDW, ready, cwait, cnotif, cvHeld, 
+                                  sdres, jpanic, parkTok, rv, rwb, rneed, dsl, 
+                                  rq, sq, sj, ww, rsq, bown, bwk, bi, bcur, bw, 
+                                  jq, jj, jwk, fj, dq, dj, oq, oop, omode, oj, 
+                                  yq, yop, tq, top, af, wf, wop, pf, pctx, pq, 
+                                  pj, pd, nq >>
 
 ScheduleThread(self) == st_reap(self) \/ st_join(self) \/ st_dormant(self)
                            \/ st_max(self) \/ st_spawn(self)
 
 rq_core(self) == /\ pc[self] = "rq_core"
                  /\ IF FixD3
-                       THEN /\ rwb' = [rwb EXCEPT ![self] = wakeBlocked[rq[self]]]
+                       THEN /\ rwb' = [rwb EXCEPT ![self] = LiveWaiters(rq[self])]
                             /\ UNCHANGED cnotif
-                       ELSE /\ cnotif' = [c \in Ops |-> cnotif[c] \/ (c \in SeqSet(wakeBlocked[rq[self]]) /\ cwait[c])]
+                       ELSE /\ cnotif' = [c \in Ops |-> cnotif[c] \/ (c \in SeqSet(LiveWaiters(rq[self])) /\ cwait[c])]
                             /\ rwb' = rwb
+                 /\ wakeBlocked' = [wakeBlocked EXCEPT ![rq[self]] = LiveWaiters(rq[self])]
                  /\ IF qstate[rq[self]] = "Idle" /\ jobs[rq[self]] # << >>
                        THEN /\ qstate' = [qstate EXCEPT ![rq[self]] = "Pending"]
                             /\ rneed' = [rneed EXCEPT ![self] = TRUE]
@@ -805,7 +949,7 @@ rq_core(self) == /\ pc[self] = "rq_core"
                                   THEN /\ rneed' = [rneed EXCEPT ![self] = TRUE]
                                   ELSE /\ rneed' = [rneed EXCEPT ![self] = FALSE]
                             /\ UNCHANGED qstate
-                 /\ IF FixD3 /\ wakeBlocked[rq[self]] # << >>
+                 /\ IF FixD3 /\ LiveWaiters(rq[self]) # << >>
                        THEN /\ pc' = [pc EXCEPT ![self] = "rq_notify"]
                             /\ UNCHANGED << stack, rq >>
                        ELSE /\ IF rneed'[self]
@@ -814,15 +958,16 @@ rq_core(self) == /\ pc[self] = "rq_core"
                                   ELSE /\ pc' = [pc EXCEPT ![self] = Head(stack[self]).pc]
                                        /\ rq' = [rq EXCEPT ![self] = Head(stack[self]).rq]
                                        /\ stack' = [stack EXCEPT ![self] = Tail(stack[self])]
-                 /\ UNCHANGED << qpoll, jobs, wakeBlocked, schedule, pthreads, 
-                                 nspawned, palive, busy, busyLocked, inbox, 
-                                 chanOpen, pfin, thrHeld, maxThreads, jkind, 
-                                 jaw, fres, fwaker, gfired, gwaker, gthreads, 
-                                 dwSt, dwW, dblTaken, dblW1, dblW2, nextDW, 
-                                 ready, cwait, sdres, parkTok, rv, h, dead, 
-                                 sti, sq, sj, ww, rsq, bown, bwk, bi, bcur, bw, 
-                                 fj, dq, dj, oq, oop, omode, oj, yq, yop, tq, 
-                                 top, af, pf, pctx, pq, pj, pd, nq >>
+                 /\ UNCHANGED << qpoll, jobs, schedule, pthreads, nspawned, 
+                                 palive, busy, busyLocked, inbox, chanOpen, 
+                                 pfin, thrHeld, maxThreads, jkind, jaw, fres, 
+                                 fwaker, gfired, gwaker, gthreads, dwSt, dwW, 
+                                 dblTaken, dblW1, dblW2, nextDW, ready, cwait, 
+                                 cvHeld, sdres, jpanic, parkTok, rv, dsl, h, 
+                                 dead, sti, sq, sj, ww, rsq, bown, bwk, bi, 
+                                 bcur, bw, jq, jj, jwk, fj, dq, dj, oq, oop, 
+                                 omode, oj, yq, yop, tq, top, af, wf, wop, pf, 
+                                 pctx, pq, pj, pd, nq >>
 
 rq_notify(self) == /\ pc[self] = "rq_notify"
                    /\ cnotif' = [cnotif EXCEPT ![Head(rwb[self])] = cwait[Head(rwb[self])]]
@@ -842,10 +987,11 @@ rq_notify(self) == /\ pc[self] = "rq_notify"
                                    maxThreads, jkind, jaw, fres, fwaker, 
                                    gfired, gwaker, gthreads, dwSt, dwW, 
                                    dblTaken, dblW1, dblW2, nextDW, ready, 
-                                   cwait, sdres, parkTok, rv, rneed, h, dead, 
-                                   sti, sq, sj, ww, rsq, bown, bwk, bi, bcur, 
-                                   bw, fj, dq, dj, oq, oop, omode, oj, yq, yop, 
-                                   tq, top, af, pf, pctx, pq, pj, pd, nq >>
+                                   cwait, cvHeld, sdres, jpanic, parkTok, rv, 
+                                   rneed, dsl, h, dead, sti, sq, sj, ww, rsq, 
+                                   bown, bwk, bi, bcur, bw, jq, jj, jwk, fj, 
+                                   dq, dj, oq, oop, omode, oj, yq, yop, tq, 
+                                   top, af, wf, wop, pf, pctx, pq, pj, pd, nq >>
 
 rq_sched(self) == /\ pc[self] = "rq_sched"
                   /\ schedule' = Append(schedule, rq[self])
@@ -862,11 +1008,12 @@ rq_sched(self) == /\ pc[self] = "rq_sched"
                                   chanOpen, pfin, thrHeld, maxThreads, jkind, 
                                   jaw, fres, fwaker, gfired, gwaker, gthreads, 
                                   dwSt, dwW, dblTaken, dblW1, dblW2, nextDW, 
-                                  ready, cwait, cnotif, sdres, parkTok, rv, 
-                                  rwb, rneed, h, rq, sq, sj, ww, rsq, bown, 
-                                  bwk, bi, bcur, bw, fj, dq, dj, oq, oop, 
-                                  omode, oj, yq, yop, tq, top, af, pf, pctx, 
-                                  pq, pj, pd, nq >>
+                                  ready, cwait, cnotif, cvHeld, sdres, jpanic, 
+                                  parkTok, rv, rwb, rneed, dsl, h, rq, sq, sj, 
+                                  ww, rsq, bown, bwk, bi, bcur, bw, jq, jj, 
+                                  jwk, fj, dq, dj, oq, oop, omode, oj, yq, yop, 
+                                  tq, top, af, wf, wop, pf, pctx, pq, pj, pd, 
+                                  nq >>
 
 Reschedule(self) == rq_core(self) \/ rq_notify(self) \/ rq_sched(self)
 
@@ -893,11 +1040,11 @@ sj_push(self) == /\ pc[self] = "sj_push"
                                  chanOpen, pfin, thrHeld, maxThreads, jkind, 
                                  jaw, fres, fwaker, gfired, gwaker, gthreads, 
                                  dwSt, dwW, dblTaken, dblW1, dblW2, nextDW, 
-                                 ready, cwait, cnotif, sdres, parkTok, rwb, 
-                                 rneed, h, dead, sti, rq, ww, rsq, bown, bwk, 
-                                 bi, bcur, bw, fj, dq, dj, oq, oop, omode, oj, 
-                                 yq, yop, tq, top, af, pf, pctx, pq, pj, pd, 
-                                 nq >>
+                                 ready, cwait, cnotif, cvHeld, sdres, jpanic, 
+                                 parkTok, rwb, rneed, dsl, h, dead, sti, rq, 
+                                 ww, rsq, bown, bwk, bi, bcur, bw, jq, jj, jwk, 
+                                 fj, dq, dj, oq, oop, omode, oj, yq, yop, tq, 
+                                 top, af, wf, wop, pf, pctx, pq, pj, pd, nq >>
 
 sj_sched(self) == /\ pc[self] = "sj_sched"
                   /\ schedule' = Append(schedule, sq[self])
@@ -914,11 +1061,12 @@ sj_sched(self) == /\ pc[self] = "sj_sched"
                                   chanOpen, pfin, thrHeld, maxThreads, jkind, 
                                   jaw, fres, fwaker, gfired, gwaker, gthreads, 
                                   dwSt, dwW, dblTaken, dblW1, dblW2, nextDW, 
-                                  ready, cwait, cnotif, sdres, parkTok, rv, 
-                                  rwb, rneed, h, rq, sq, sj, ww, rsq, bown, 
-                                  bwk, bi, bcur, bw, fj, dq, dj, oq, oop, 
-                                  omode, oj, yq, yop, tq, top, af, pf, pctx, 
-                                  pq, pj, pd, nq >>
+                                  ready, cwait, cnotif, cvHeld, sdres, jpanic, 
+                                  parkTok, rv, rwb, rneed, dsl, h, rq, sq, sj, 
+                                  ww, rsq, bown, bwk, bi, bcur, bw, jq, jj, 
+                                  jwk, fj, dq, dj, oq, oop, omode, oj, yq, yop, 
+                                  tq, top, af, wf, wop, pf, pctx, pq, pj, pd, 
+                                  nq >>
 
 z_sj_ret(self) == /\ pc[self] = "z_sj_ret"
                   /\ rv' = [rv EXCEPT ![self] = 0]
@@ -931,11 +1079,12 @@ z_sj_ret(self) == /\ pc[self] = "z_sj_ret"
                                   inbox, chanOpen, pfin, thrHeld, maxThreads, 
                                   jkind, jaw, fres, fwaker, gfired, gwaker, 
                                   gthreads, dwSt, dwW, dblTaken, dblW1, dblW2, 
-                                  nextDW, ready, cwait, cnotif, sdres, parkTok, 
-                                  rwb, rneed, h, dead, sti, rq, ww, rsq, bown, 
-                                  bwk, bi, bcur, bw, fj, dq, dj, oq, oop, 
-                                  omode, oj, yq, yop, tq, top, af, pf, pctx, 
-                                  pq, pj, pd, nq >>
+                                  nextDW, ready, cwait, cnotif, cvHeld, sdres, 
+                                  jpanic, parkTok, rwb, rneed, dsl, h, dead, 
+                                  sti, rq, ww, rsq, bown, bwk, bi, bcur, bw, 
+                                  jq, jj, jwk, fj, dq, dj, oq, oop, omode, oj, 
+                                  yq, yop, tq, top, af, wf, wop, pf, pctx, pq, 
+                                  pj, pd, nq >>
 
 ScheduleJob(self) == sj_push(self) \/ sj_sched(self) \/ z_sj_ret(self)
 
@@ -1016,10 +1165,11 @@ wk_lock(self) == /\ pc[self] = "wk_lock"
                                  chanOpen, pfin, thrHeld, maxThreads, jkind, 
                                  jaw, fres, fwaker, gfired, gwaker, gthreads, 
                                  dblW1, dblW2, nextDW, ready, cwait, cnotif, 
-                                 sdres, rv, rwb, rneed, h, dead, sti, sq, sj, 
-                                 rsq, bown, bwk, bi, bcur, bw, fj, dq, dj, oq, 
-                                 oop, omode, oj, yq, yop, tq, top, af, pf, 
-                                 pctx, pq, pj, pd, nq >>
+                                 cvHeld, sdres, jpanic, rv, rwb, rneed, dsl, h, 
+                                 dead, sti, sq, sj, rsq, bown, bwk, bi, bcur, 
+                                 bw, jq, jj, jwk, fj, dq, dj, oq, oop, omode, 
+                                 oj, yq, yop, tq, top, af, wf, wop, pf, pctx, 
+                                 pq, pj, pd, nq >>
 
 z_wk_second(self) == /\ pc[self] = "z_wk_second"
                      /\ IF IsLocking(dblW2[ww[self].d])
@@ -1036,10 +1186,11 @@ z_wk_second(self) == /\ pc[self] = "z_wk_second"
                                      thrHeld, maxThreads, jkind, jaw, fres, 
                                      fwaker, gfired, gwaker, gthreads, dwSt, 
                                      dwW, dblTaken, dblW1, dblW2, nextDW, 
-                                     ready, cwait, cnotif, sdres, rv, rwb, 
-                                     rneed, h, dead, sti, rq, sq, sj, rsq, 
-                                     bown, bwk, bi, bcur, bw, fj, dq, dj, oq, 
-                                     oop, omode, oj, yq, yop, tq, top, af, pf, 
+                                     ready, cwait, cnotif, cvHeld, sdres, 
+                                     jpanic, rv, rwb, rneed, dsl, h, dead, sti, 
+                                     rq, sq, sj, rsq, bown, bwk, bi, bcur, bw, 
+                                     jq, jj, jwk, fj, dq, dj, oq, oop, omode, 
+                                     oj, yq, yop, tq, top, af, wf, wop, pf, 
                                      pctx, pq, pj, pd, nq >>
 
 z_wk_ret(self) == /\ pc[self] = "z_wk_ret"
@@ -1051,10 +1202,11 @@ z_wk_ret(self) == /\ pc[self] = "z_wk_ret"
                                   inbox, chanOpen, pfin, thrHeld, maxThreads, 
                                   jkind, jaw, fres, fwaker, gfired, gwaker, 
                                   gthreads, dwSt, dwW, dblTaken, dblW1, dblW2, 
-                                  nextDW, ready, cwait, cnotif, sdres, parkTok, 
-                                  rv, rwb, rneed, h, dead, sti, rq, sq, sj, 
-                                  rsq, bown, bwk, bi, bcur, bw, fj, dq, dj, oq, 
-                                  oop, omode, oj, yq, yop, tq, top, af, pf, 
+                                  nextDW, ready, cwait, cnotif, cvHeld, sdres, 
+                                  jpanic, parkTok, rv, rwb, rneed, dsl, h, 
+                                  dead, sti, rq, sq, sj, rsq, bown, bwk, bi, 
+                                  bcur, bw, jq, jj, jwk, fj, dq, dj, oq, oop, 
+                                  omode, oj, yq, yop, tq, top, af, wf, wop, pf, 
                                   pctx, pq, pj, pd, nq >>
 
 Wake(self) == wk_lock(self) \/ z_wk_second(self) \/ z_wk_ret(self)
@@ -1081,10 +1233,11 @@ rb_step(self) == /\ pc[self] = "rb_step"
                                  inbox, chanOpen, pfin, thrHeld, maxThreads, 
                                  jkind, jaw, fres, fwaker, gfired, gwaker, 
                                  gthreads, dwSt, dwW, dblTaken, dblW1, dblW2, 
-                                 nextDW, ready, cwait, cnotif, sdres, parkTok, 
-                                 rv, rwb, rneed, stack, dead, sti, rq, sq, sj, 
-                                 ww, rsq, bown, bwk, bw, fj, dq, dj, oq, oop, 
-                                 omode, oj, yq, yop, tq, top, af, pf, pctx, pq, 
+                                 nextDW, ready, cwait, cnotif, cvHeld, sdres, 
+                                 jpanic, parkTok, rv, rwb, rneed, dsl, stack, 
+                                 dead, sti, rq, sq, sj, ww, rsq, bown, bwk, bw, 
+                                 jq, jj, jwk, fj, dq, dj, oq, oop, omode, oj, 
+                                 yq, yop, tq, top, af, wf, wop, pf, pctx, pq, 
                                  pj, pd, nq >>
 
 z_finish(self) == /\ pc[self] = "z_finish"
@@ -1097,14 +1250,15 @@ z_finish(self) == /\ pc[self] = "z_finish"
                              /\ bown' = [bown EXCEPT ![self] = Head(stack[self]).bown]
                              /\ bwk' = [bwk EXCEPT ![self] = Head(stack[self]).bwk]
                              /\ stack' = [stack EXCEPT ![self] = Tail(stack[self])]
-                             /\ UNCHANGED << jaw, gwaker, gthreads, sdres, rv, 
-                                             h >>
+                             /\ UNCHANGED << jaw, gwaker, gthreads, sdres, 
+                                             jpanic, rv, h >>
                         ELSE /\ IF OpTab[bown[self]].block # 0 /\ OpTab[bown[self]].block \notin gfired
                                    THEN /\ gthreads' = [gthreads EXCEPT ![OpTab[bown[self]].block] = gthreads[OpTab[bown[self]].block] \cup {self}]
                                         /\ pc' = [pc EXCEPT ![self] = "rb_block"]
-                                        /\ UNCHANGED << jaw, gwaker, sdres, rv, 
-                                                        h, stack, rsq, bown, 
-                                                        bwk, bi, bcur, bw >>
+                                        /\ UNCHANGED << jaw, gwaker, sdres, 
+                                                        jpanic, rv, h, stack, 
+                                                        rsq, bown, bwk, bi, 
+                                                        bcur, bw >>
                                    ELSE /\ IF jaw[bown[self]] < Len(Aw(bown[self]))
                                               THEN /\ LET k == jaw[bown[self]] + 1 IN
                                                         /\ jaw' = [jaw EXCEPT ![bown[self]] = k]
@@ -1129,21 +1283,36 @@ z_finish(self) == /\ pc[self] = "z_finish"
                                                                    /\ bown' = [bown EXCEPT ![self] = Head(stack[self]).bown]
                                                                    /\ bwk' = [bwk EXCEPT ![self] = Head(stack[self]).bwk]
                                                                    /\ stack' = [stack EXCEPT ![self] = Tail(stack[self])]
-                                                   /\ UNCHANGED << sdres, h >>
-                                              ELSE /\ h' = ObsEnd(h, self, bown[self])
-                                                   /\ IF jkind[bown[self]] = "syncdrain"
-                                                         THEN /\ sdres' = [sdres EXCEPT ![bown[self]] = TRUE]
-                                                         ELSE /\ TRUE
+                                                   /\ UNCHANGED << sdres, 
+                                                                   jpanic, h >>
+                                              ELSE /\ IF OpTab[bown[self]].panic
+                                                         THEN /\ h' = ObsPanic(h, self, bown[self])
+                                                              /\ jpanic' = [jpanic EXCEPT ![bown[self]] = TRUE]
+                                                              /\ rv' = [rv EXCEPT ![self] = 9]
+                                                              /\ pc' = [pc EXCEPT ![self] = Head(stack[self]).pc]
+                                                              /\ bi' = [bi EXCEPT ![self] = Head(stack[self]).bi]
+                                                              /\ bcur' = [bcur EXCEPT ![self] = Head(stack[self]).bcur]
+                                                              /\ bw' = [bw EXCEPT ![self] = Head(stack[self]).bw]
+                                                              /\ rsq' = [rsq EXCEPT ![self] = Head(stack[self]).rsq]
+                                                              /\ bown' = [bown EXCEPT ![self] = Head(stack[self]).bown]
+                                                              /\ bwk' = [bwk EXCEPT ![self] = Head(stack[self]).bwk]
+                                                              /\ stack' = [stack EXCEPT ![self] = Tail(stack[self])]
                                                               /\ sdres' = sdres
-                                                   /\ rv' = [rv EXCEPT ![self] = 0]
-                                                   /\ pc' = [pc EXCEPT ![self] = Head(stack[self]).pc]
-                                                   /\ bi' = [bi EXCEPT ![self] = Head(stack[self]).bi]
-                                                   /\ bcur' = [bcur EXCEPT ![self] = Head(stack[self]).bcur]
-                                                   /\ bw' = [bw EXCEPT ![self] = Head(stack[self]).bw]
-                                                   /\ rsq' = [rsq EXCEPT ![self] = Head(stack[self]).rsq]
-                                                   /\ bown' = [bown EXCEPT ![self] = Head(stack[self]).bown]
-                                                   /\ bwk' = [bwk EXCEPT ![self] = Head(stack[self]).bwk]
-                                                   /\ stack' = [stack EXCEPT ![self] = Tail(stack[self])]
+                                                         ELSE /\ h' = ObsEnd(h, self, bown[self])
+                                                              /\ IF jkind[bown[self]] = "syncdrain"
+                                                                    THEN /\ sdres' = [sdres EXCEPT ![bown[self]] = TRUE]
+                                                                    ELSE /\ TRUE
+                                                                         /\ sdres' = sdres
+                                                              /\ rv' = [rv EXCEPT ![self] = 0]
+                                                              /\ pc' = [pc EXCEPT ![self] = Head(stack[self]).pc]
+                                                              /\ bi' = [bi EXCEPT ![self] = Head(stack[self]).bi]
+                                                              /\ bcur' = [bcur EXCEPT ![self] = Head(stack[self]).bcur]
+                                                              /\ bw' = [bw EXCEPT ![self] = Head(stack[self]).bw]
+                                                              /\ rsq' = [rsq EXCEPT ![self] = Head(stack[self]).rsq]
+                                                              /\ bown' = [bown EXCEPT ![self] = Head(stack[self]).bown]
+                                                              /\ bwk' = [bwk EXCEPT ![self] = Head(stack[self]).bwk]
+                                                              /\ stack' = [stack EXCEPT ![self] = Tail(stack[self])]
+                                                              /\ UNCHANGED jpanic
                                                    /\ UNCHANGED << jaw, gwaker >>
                                         /\ UNCHANGED gthreads
                   /\ UNCHANGED << qstate, qpoll, jobs, wakeBlocked, schedule, 
@@ -1151,10 +1320,10 @@ z_finish(self) == /\ pc[self] = "z_finish"
                                   inbox, chanOpen, pfin, thrHeld, maxThreads, 
                                   jkind, fres, fwaker, gfired, dwSt, dwW, 
                                   dblTaken, dblW1, dblW2, nextDW, ready, cwait, 
-                                  cnotif, parkTok, rwb, rneed, dead, sti, rq, 
-                                  sq, sj, ww, fj, dq, dj, oq, oop, omode, oj, 
-                                  yq, yop, tq, top, af, pf, pctx, pq, pj, pd, 
-                                  nq >>
+                                  cnotif, cvHeld, parkTok, rwb, rneed, dsl, 
+                                  dead, sti, rq, sq, sj, ww, jq, jj, jwk, fj, 
+                                  dq, dj, oq, oop, omode, oj, yq, yop, tq, top, 
+                                  af, wf, wop, pf, pctx, pq, pj, pd, nq >>
 
 rb_block(self) == /\ pc[self] = "rb_block"
                   /\ parkTok[self]
@@ -1165,10 +1334,11 @@ rb_block(self) == /\ pc[self] = "rb_block"
                                   inbox, chanOpen, pfin, thrHeld, maxThreads, 
                                   jkind, jaw, fres, fwaker, gfired, gwaker, 
                                   gthreads, dwSt, dwW, dblTaken, dblW1, dblW2, 
-                                  nextDW, ready, cwait, cnotif, sdres, rv, rwb, 
-                                  rneed, h, stack, dead, sti, rq, sq, sj, ww, 
-                                  rsq, bown, bwk, bi, bcur, bw, fj, dq, dj, oq, 
-                                  oop, omode, oj, yq, yop, tq, top, af, pf, 
+                                  nextDW, ready, cwait, cnotif, cvHeld, sdres, 
+                                  jpanic, rv, rwb, rneed, dsl, h, stack, dead, 
+                                  sti, rq, sq, sj, ww, rsq, bown, bwk, bi, 
+                                  bcur, bw, jq, jj, jwk, fj, dq, dj, oq, oop, 
+                                  omode, oj, yq, yop, tq, top, af, wf, wop, pf, 
                                   pctx, pq, pj, pd, nq >>
 
 z_dispatch(self) == /\ pc[self] = "z_dispatch"
@@ -1183,8 +1353,9 @@ z_dispatch(self) == /\ pc[self] = "z_dispatch"
                                                                        \o stack[self]]
                                /\ pc' = [pc EXCEPT ![self] = "sj_push"]
                                /\ UNCHANGED << gfired, gwaker, parkTok, rv, h, 
-                                               ww, bw, yq, yop, tq, top, af >>
-                          ELSE /\ IF K(bcur[self]) = "sync"
+                                               ww, bw, yq, yop, tq, top, af, 
+                                               wf, wop, pf, pctx, pq, pj, pd >>
+                          ELSE /\ IF K(bcur[self]) \in {"sync", "drop_obj"}
                                      THEN /\ /\ stack' = [stack EXCEPT ![self] = << [ procedure |->  "Sync",
                                                                                       pc        |->  "rb_step",
                                                                                       yq        |->  yq[self],
@@ -1196,7 +1367,8 @@ z_dispatch(self) == /\ pc[self] = "z_dispatch"
                                           /\ UNCHANGED << jkind, gfired, 
                                                           gwaker, parkTok, rv, 
                                                           h, sq, sj, ww, bw, 
-                                                          tq, top, af >>
+                                                          tq, top, af, wf, wop, 
+                                                          pf, pctx, pq, pj, pd >>
                                      ELSE /\ IF K(bcur[self]) = "try_sync"
                                                 THEN /\ /\ stack' = [stack EXCEPT ![self] = << [ procedure |->  "TrySync",
                                                                                                  pc        |->  "rb_step",
@@ -1212,8 +1384,12 @@ z_dispatch(self) == /\ pc[self] = "z_dispatch"
                                                                      parkTok, 
                                                                      rv, h, sq, 
                                                                      sj, ww, 
-                                                                     bw, af >>
-                                                ELSE /\ IF K(bcur[self]) = "fdesync"
+                                                                     bw, af, 
+                                                                     wf, wop, 
+                                                                     pf, pctx, 
+                                                                     pq, pj, 
+                                                                     pd >>
+                                                ELSE /\ IF K(bcur[self]) \in {"fdesync", "after"}
                                                            THEN /\ jkind' = [jkind EXCEPT ![bcur[self]] = "fut"]
                                                                 /\ /\ sj' = [sj EXCEPT ![self] = bcur[self]]
                                                                    /\ sq' = [sq EXCEPT ![self] = O(bcur[self])]
@@ -1230,46 +1406,137 @@ z_dispatch(self) == /\ pc[self] = "z_dispatch"
                                                                                 h, 
                                                                                 ww, 
                                                                                 bw, 
-                                                                                af >>
-                                                           ELSE /\ IF K(bcur[self]) = "fire"
-                                                                      THEN /\ h' = ObsFire(h, OpTab[bcur[self]].g)
-                                                                           /\ gfired' = (gfired \cup {OpTab[bcur[self]].g})
-                                                                           /\ bw' = [bw EXCEPT ![self] = gwaker[OpTab[bcur[self]].g]]
-                                                                           /\ parkTok' = Unpark(parkTok, gthreads[OpTab[bcur[self]].g] \cup TaskOf(gwaker[OpTab[bcur[self]].g]))
-                                                                           /\ gwaker' = [gwaker EXCEPT ![OpTab[bcur[self]].g] = NoW]
-                                                                           /\ rv' = [rv EXCEPT ![self] = 0]
-                                                                           /\ IF IsLocking(bw'[self])
-                                                                                 THEN /\ /\ stack' = [stack EXCEPT ![self] = << [ procedure |->  "Wake",
-                                                                                                                                  pc        |->  "rb_step",
-                                                                                                                                  ww        |->  ww[self] ] >>
-                                                                                                                              \o stack[self]]
-                                                                                         /\ ww' = [ww EXCEPT ![self] = bw'[self]]
-                                                                                      /\ pc' = [pc EXCEPT ![self] = "wk_lock"]
-                                                                                 ELSE /\ pc' = [pc EXCEPT ![self] = "rb_step"]
-                                                                                      /\ UNCHANGED << stack, 
-                                                                                                      ww >>
-                                                                           /\ af' = af
-                                                                      ELSE /\ IF K(bcur[self]) = "await"
-                                                                                 THEN /\ /\ af' = [af EXCEPT ![self] = OpTab[bcur[self]].f]
-                                                                                         /\ stack' = [stack EXCEPT ![self] = << [ procedure |->  "Await",
-                                                                                                                                  pc        |->  "rb_step",
-                                                                                                                                  af        |->  af[self] ] >>
-                                                                                                                              \o stack[self]]
-                                                                                      /\ pc' = [pc EXCEPT ![self] = "z_aw_poll"]
-                                                                                      /\ rv' = rv
-                                                                                 ELSE /\ rv' = [rv EXCEPT ![self] = 0]
-                                                                                      /\ pc' = [pc EXCEPT ![self] = "rb_step"]
-                                                                                      /\ UNCHANGED << stack, 
-                                                                                                      af >>
+                                                                                af, 
+                                                                                wf, 
+                                                                                wop, 
+                                                                                pf, 
+                                                                                pctx, 
+                                                                                pq, 
+                                                                                pj, 
+                                                                                pd >>
+                                                           ELSE /\ IF K(bcur[self]) = "suspend"
+                                                                      THEN /\ jkind' = [jkind EXCEPT ![bcur[self]] = "susp"]
+                                                                           /\ /\ sj' = [sj EXCEPT ![self] = bcur[self]]
+                                                                              /\ sq' = [sq EXCEPT ![self] = O(bcur[self])]
+                                                                              /\ stack' = [stack EXCEPT ![self] = << [ procedure |->  "ScheduleJob",
+                                                                                                                       pc        |->  "z_then",
+                                                                                                                       sq        |->  sq[self],
+                                                                                                                       sj        |->  sj[self] ] >>
+                                                                                                                   \o stack[self]]
+                                                                           /\ pc' = [pc EXCEPT ![self] = "sj_push"]
                                                                            /\ UNCHANGED << gfired, 
                                                                                            gwaker, 
                                                                                            parkTok, 
+                                                                                           rv, 
                                                                                            h, 
                                                                                            ww, 
-                                                                                           bw >>
-                                                                /\ UNCHANGED << jkind, 
-                                                                                sq, 
-                                                                                sj >>
+                                                                                           bw, 
+                                                                                           af, 
+                                                                                           wf, 
+                                                                                           wop, 
+                                                                                           pf, 
+                                                                                           pctx, 
+                                                                                           pq, 
+                                                                                           pj, 
+                                                                                           pd >>
+                                                                      ELSE /\ IF K(bcur[self]) \in {"fire", "resume", "drop_resumer"}
+                                                                                 THEN /\ h' = (IF K(bcur[self]) = "fire" THEN ObsFire(h, GateOfOp(bcur[self])) ELSE ObsResume(h, self, OpTab[bcur[self]].f))
+                                                                                      /\ gfired' = (gfired \cup {GateOfOp(bcur[self])})
+                                                                                      /\ bw' = [bw EXCEPT ![self] = gwaker[GateOfOp(bcur[self])]]
+                                                                                      /\ parkTok' = Unpark(parkTok, gthreads[GateOfOp(bcur[self])] \cup TaskOf(gwaker[GateOfOp(bcur[self])]))
+                                                                                      /\ gwaker' = [gwaker EXCEPT ![GateOfOp(bcur[self])] = NoW]
+                                                                                      /\ rv' = [rv EXCEPT ![self] = 0]
+                                                                                      /\ IF IsLocking(bw'[self])
+                                                                                            THEN /\ /\ stack' = [stack EXCEPT ![self] = << [ procedure |->  "Wake",
+                                                                                                                                             pc        |->  "rb_step",
+                                                                                                                                             ww        |->  ww[self] ] >>
+                                                                                                                                         \o stack[self]]
+                                                                                                    /\ ww' = [ww EXCEPT ![self] = bw'[self]]
+                                                                                                 /\ pc' = [pc EXCEPT ![self] = "wk_lock"]
+                                                                                            ELSE /\ pc' = [pc EXCEPT ![self] = "rb_step"]
+                                                                                                 /\ UNCHANGED << stack, 
+                                                                                                                 ww >>
+                                                                                      /\ UNCHANGED << af, 
+                                                                                                      wf, 
+                                                                                                      wop, 
+                                                                                                      pf, 
+                                                                                                      pctx, 
+                                                                                                      pq, 
+                                                                                                      pj, 
+                                                                                                      pd >>
+                                                                                 ELSE /\ IF K(bcur[self]) = "await"
+                                                                                            THEN /\ /\ af' = [af EXCEPT ![self] = OpTab[bcur[self]].f]
+                                                                                                    /\ stack' = [stack EXCEPT ![self] = << [ procedure |->  "Await",
+                                                                                                                                             pc        |->  "rb_step",
+                                                                                                                                             af        |->  af[self] ] >>
+                                                                                                                                         \o stack[self]]
+                                                                                                 /\ pc' = [pc EXCEPT ![self] = "z_aw_poll"]
+                                                                                                 /\ UNCHANGED << rv, 
+                                                                                                                 wf, 
+                                                                                                                 wop, 
+                                                                                                                 pf, 
+                                                                                                                 pctx, 
+                                                                                                                 pq, 
+                                                                                                                 pj, 
+                                                                                                                 pd >>
+                                                                                            ELSE /\ IF K(bcur[self]) = "poll"
+                                                                                                       THEN /\ /\ pctx' = [pctx EXCEPT ![self] = NoW]
+                                                                                                               /\ pf' = [pf EXCEPT ![self] = OpTab[bcur[self]].f]
+                                                                                                               /\ stack' = [stack EXCEPT ![self] = << [ procedure |->  "PollFuture",
+                                                                                                                                                        pc        |->  "z_polled",
+                                                                                                                                                        pq        |->  pq[self],
+                                                                                                                                                        pj        |->  pj[self],
+                                                                                                                                                        pd        |->  pd[self],
+                                                                                                                                                        pf        |->  pf[self],
+                                                                                                                                                        pctx      |->  pctx[self] ] >>
+                                                                                                                                                    \o stack[self]]
+                                                                                                            /\ pq' = [pq EXCEPT ![self] = 0]
+                                                                                                            /\ pj' = [pj EXCEPT ![self] = 0]
+                                                                                                            /\ pd' = [pd EXCEPT ![self] = 0]
+                                                                                                            /\ pc' = [pc EXCEPT ![self] = "pf_decide"]
+                                                                                                            /\ UNCHANGED << rv, 
+                                                                                                                            wf, 
+                                                                                                                            wop >>
+                                                                                                       ELSE /\ IF K(bcur[self]) = "wait_sync"
+                                                                                                                  THEN /\ /\ stack' = [stack EXCEPT ![self] = << [ procedure |->  "WaitSync",
+                                                                                                                                                                   pc        |->  "rb_step",
+                                                                                                                                                                   wf        |->  wf[self],
+                                                                                                                                                                   wop       |->  wop[self] ] >>
+                                                                                                                                                               \o stack[self]]
+                                                                                                                          /\ wf' = [wf EXCEPT ![self] = OpTab[bcur[self]].f]
+                                                                                                                          /\ wop' = [wop EXCEPT ![self] = bcur[self]]
+                                                                                                                       /\ pc' = [pc EXCEPT ![self] = "fs_take"]
+                                                                                                                       /\ rv' = rv
+                                                                                                                  ELSE /\ IF K(bcur[self]) = "set_max"
+                                                                                                                             THEN /\ pc' = [pc EXCEPT ![self] = "mx_set"]
+                                                                                                                                  /\ UNCHANGED << rv, 
+                                                                                                                                                  stack >>
+                                                                                                                             ELSE /\ IF K(bcur[self]) = "despawn"
+                                                                                                                                        THEN /\ stack' = [stack EXCEPT ![self] = << [ procedure |->  "Despawn",
+                                                                                                                                                                                      pc        |->  "rb_step" ] >>
+                                                                                                                                                                                  \o stack[self]]
+                                                                                                                                             /\ pc' = [pc EXCEPT ![self] = "ds_max"]
+                                                                                                                                             /\ rv' = rv
+                                                                                                                                        ELSE /\ rv' = [rv EXCEPT ![self] = 0]
+                                                                                                                                             /\ pc' = [pc EXCEPT ![self] = "rb_step"]
+                                                                                                                                             /\ stack' = stack
+                                                                                                                       /\ UNCHANGED << wf, 
+                                                                                                                                       wop >>
+                                                                                                            /\ UNCHANGED << pf, 
+                                                                                                                            pctx, 
+                                                                                                                            pq, 
+                                                                                                                            pj, 
+                                                                                                                            pd >>
+                                                                                                 /\ af' = af
+                                                                                      /\ UNCHANGED << gfired, 
+                                                                                                      gwaker, 
+                                                                                                      parkTok, 
+                                                                                                      h, 
+                                                                                                      ww, 
+                                                                                                      bw >>
+                                                                           /\ UNCHANGED << jkind, 
+                                                                                           sq, 
+                                                                                           sj >>
                                                      /\ UNCHANGED << tq, top >>
                                           /\ UNCHANGED << yq, yop >>
                     /\ UNCHANGED << qstate, qpoll, jobs, wakeBlocked, schedule, 
@@ -1277,13 +1544,13 @@ z_dispatch(self) == /\ pc[self] = "z_dispatch"
                                     busyLocked, inbox, chanOpen, pfin, thrHeld, 
                                     maxThreads, jaw, fres, fwaker, gthreads, 
                                     dwSt, dwW, dblTaken, dblW1, dblW2, nextDW, 
-                                    ready, cwait, cnotif, sdres, rwb, rneed, 
-                                    dead, sti, rq, rsq, bown, bwk, bi, bcur, 
-                                    fj, dq, dj, oq, oop, omode, oj, pf, pctx, 
-                                    pq, pj, pd, nq >>
+                                    ready, cwait, cnotif, cvHeld, sdres, 
+                                    jpanic, rwb, rneed, dsl, dead, sti, rq, 
+                                    rsq, bown, bwk, bi, bcur, jq, jj, jwk, fj, 
+                                    dq, dj, oq, oop, omode, oj, nq >>
 
 z_then(self) == /\ pc[self] = "z_then"
-                /\ IF OpTab[bcur[self]].then = "await"
+                /\ IF rv[self] = 0 /\ OpTab[bcur[self]].then = "await"
                       THEN /\ /\ af' = [af EXCEPT ![self] = bcur[self]]
                               /\ stack' = [stack EXCEPT ![self] = << [ procedure |->  "Await",
                                                                        pc        |->  "rb_step",
@@ -1297,30 +1564,379 @@ z_then(self) == /\ pc[self] = "z_then"
                                 inbox, chanOpen, pfin, thrHeld, maxThreads, 
                                 jkind, jaw, fres, fwaker, gfired, gwaker, 
                                 gthreads, dwSt, dwW, dblTaken, dblW1, dblW2, 
-                                nextDW, ready, cwait, cnotif, sdres, parkTok, 
-                                rv, rwb, rneed, h, dead, sti, rq, sq, sj, ww, 
-                                rsq, bown, bwk, bi, bcur, bw, fj, dq, dj, oq, 
-                                oop, omode, oj, yq, yop, tq, top, pf, pctx, pq, 
+                                nextDW, ready, cwait, cnotif, cvHeld, sdres, 
+                                jpanic, parkTok, rv, rwb, rneed, dsl, h, dead, 
+                                sti, rq, sq, sj, ww, rsq, bown, bwk, bi, bcur, 
+                                bw, jq, jj, jwk, fj, dq, dj, oq, oop, omode, 
+                                oj, yq, yop, tq, top, wf, wop, pf, pctx, pq, 
                                 pj, pd, nq >>
 
+z_polled(self) == /\ pc[self] = "z_polled"
+                  /\ IF rv[self] \in {0, 3, 4}
+                        THEN /\ h' = ObsResolved(h, self, OpTab[bcur[self]].f, rv[self])
+                        ELSE /\ TRUE
+                             /\ h' = h
+                  /\ pc' = [pc EXCEPT ![self] = "rb_step"]
+                  /\ UNCHANGED << qstate, qpoll, jobs, wakeBlocked, schedule, 
+                                  pthreads, nspawned, palive, busy, busyLocked, 
+                                  inbox, chanOpen, pfin, thrHeld, maxThreads, 
+                                  jkind, jaw, fres, fwaker, gfired, gwaker, 
+                                  gthreads, dwSt, dwW, dblTaken, dblW1, dblW2, 
+                                  nextDW, ready, cwait, cnotif, cvHeld, sdres, 
+                                  jpanic, parkTok, rv, rwb, rneed, dsl, stack, 
+                                  dead, sti, rq, sq, sj, ww, rsq, bown, bwk, 
+                                  bi, bcur, bw, jq, jj, jwk, fj, dq, dj, oq, 
+                                  oop, omode, oj, yq, yop, tq, top, af, wf, 
+                                  wop, pf, pctx, pq, pj, pd, nq >>
+
+mx_set(self) == /\ pc[self] = "mx_set"
+                /\ maxThreads' = OpTab[bcur[self]].n
+                /\ h' = ObsSetMax(h, OpTab[bcur[self]].n)
+                /\ rv' = [rv EXCEPT ![self] = 0]
+                /\ pc' = [pc EXCEPT ![self] = "rb_step"]
+                /\ UNCHANGED << qstate, qpoll, jobs, wakeBlocked, schedule, 
+                                pthreads, nspawned, palive, busy, busyLocked, 
+                                inbox, chanOpen, pfin, thrHeld, jkind, jaw, 
+                                fres, fwaker, gfired, gwaker, gthreads, dwSt, 
+                                dwW, dblTaken, dblW1, dblW2, nextDW, ready, 
+                                cwait, cnotif, cvHeld, sdres, jpanic, parkTok, 
+                                rwb, rneed, dsl, stack, dead, sti, rq, sq, sj, 
+                                ww, rsq, bown, bwk, bi, bcur, bw, jq, jj, jwk, 
+                                fj, dq, dj, oq, oop, omode, oj, yq, yop, tq, 
+                                top, af, wf, wop, pf, pctx, pq, pj, pd, nq >>
+
 RunOps(self) == rb_step(self) \/ z_finish(self) \/ rb_block(self)
-                   \/ z_dispatch(self) \/ z_then(self)
+                   \/ z_dispatch(self) \/ z_then(self) \/ z_polled(self)
+                   \/ mx_set(self)
+
+z_rj(self) == /\ pc[self] = "z_rj"
+              /\ IF K(jj[self]) \in {"desync", "sync", "try_sync"}
+                    THEN /\ h' = ObsStart(h, self, jj[self])
+                         /\ /\ bown' = [bown EXCEPT ![self] = jj[self]]
+                            /\ bwk' = [bwk EXCEPT ![self] = jwk[self]]
+                            /\ rsq' = [rsq EXCEPT ![self] = Body(jj[self])]
+                            /\ stack' = [stack EXCEPT ![self] = << [ procedure |->  "RunOps",
+                                                                     pc        |->  "z_rj_ret",
+                                                                     bi        |->  bi[self],
+                                                                     bcur      |->  bcur[self],
+                                                                     bw        |->  bw[self],
+                                                                     rsq       |->  rsq[self],
+                                                                     bown      |->  bown[self],
+                                                                     bwk       |->  bwk[self] ] >>
+                                                                 \o stack[self]]
+                         /\ bi' = [bi EXCEPT ![self] = 0]
+                         /\ bcur' = [bcur EXCEPT ![self] = 0]
+                         /\ bw' = [bw EXCEPT ![self] = NoW]
+                         /\ pc' = [pc EXCEPT ![self] = "rb_step"]
+                         /\ UNCHANGED << gwaker, sdres, rv, jq, jj, jwk >>
+                    ELSE /\ IF K(jj[self]) = "fdesync"
+                               THEN /\ IF jaw[jj[self]] = 0
+                                          THEN /\ h' = ObsStart(h, self, jj[self])
+                                               /\ /\ bown' = [bown EXCEPT ![self] = jj[self]]
+                                                  /\ bwk' = [bwk EXCEPT ![self] = jwk[self]]
+                                                  /\ rsq' = [rsq EXCEPT ![self] = Body(jj[self])]
+                                                  /\ stack' = [stack EXCEPT ![self] = << [ procedure |->  "RunOps",
+                                                                                           pc        |->  "z_rj_ret",
+                                                                                           bi        |->  bi[self],
+                                                                                           bcur      |->  bcur[self],
+                                                                                           bw        |->  bw[self],
+                                                                                           rsq       |->  rsq[self],
+                                                                                           bown      |->  bown[self],
+                                                                                           bwk       |->  bwk[self] ] >>
+                                                                                       \o stack[self]]
+                                               /\ bi' = [bi EXCEPT ![self] = 0]
+                                               /\ bcur' = [bcur EXCEPT ![self] = 0]
+                                               /\ bw' = [bw EXCEPT ![self] = NoW]
+                                               /\ pc' = [pc EXCEPT ![self] = "rb_step"]
+                                               /\ UNCHANGED << gwaker, rv, jq, 
+                                                               jj, jwk >>
+                                          ELSE /\ IF Aw(jj[self])[jaw[jj[self]]] \in gfired
+                                                     THEN /\ /\ bown' = [bown EXCEPT ![self] = jj[self]]
+                                                             /\ bwk' = [bwk EXCEPT ![self] = jwk[self]]
+                                                             /\ rsq' = [rsq EXCEPT ![self] = Body(jj[self])]
+                                                             /\ stack' = [stack EXCEPT ![self] = << [ procedure |->  "RunOps",
+                                                                                                      pc        |->  "z_rj_ret",
+                                                                                                      bi        |->  bi[self],
+                                                                                                      bcur      |->  bcur[self],
+                                                                                                      bw        |->  bw[self],
+                                                                                                      rsq       |->  rsq[self],
+                                                                                                      bown      |->  bown[self],
+                                                                                                      bwk       |->  bwk[self] ] >>
+                                                                                                  \o stack[self]]
+                                                          /\ bi' = [bi EXCEPT ![self] = 0]
+                                                          /\ bcur' = [bcur EXCEPT ![self] = 0]
+                                                          /\ bw' = [bw EXCEPT ![self] = NoW]
+                                                          /\ pc' = [pc EXCEPT ![self] = "rb_step"]
+                                                          /\ UNCHANGED << gwaker, 
+                                                                          rv, 
+                                                                          jq, 
+                                                                          jj, 
+                                                                          jwk >>
+                                                     ELSE /\ gwaker' = [gwaker EXCEPT ![Aw(jj[self])[jaw[jj[self]]]] = jwk[self]]
+                                                          /\ rv' = [rv EXCEPT ![self] = 5]
+                                                          /\ pc' = [pc EXCEPT ![self] = Head(stack[self]).pc]
+                                                          /\ jq' = [jq EXCEPT ![self] = Head(stack[self]).jq]
+                                                          /\ jj' = [jj EXCEPT ![self] = Head(stack[self]).jj]
+                                                          /\ jwk' = [jwk EXCEPT ![self] = Head(stack[self]).jwk]
+                                                          /\ stack' = [stack EXCEPT ![self] = Tail(stack[self])]
+                                                          /\ UNCHANGED << rsq, 
+                                                                          bown, 
+                                                                          bwk, 
+                                                                          bi, 
+                                                                          bcur, 
+                                                                          bw >>
+                                               /\ h' = h
+                                    /\ sdres' = sdres
+                               ELSE /\ IF K(jj[self]) = "after"
+                                          THEN /\ IF OpTab[jj[self]].g \in gfired
+                                                     THEN /\ h' = ObsStart(h, self, jj[self])
+                                                          /\ /\ bown' = [bown EXCEPT ![self] = jj[self]]
+                                                             /\ bwk' = [bwk EXCEPT ![self] = jwk[self]]
+                                                             /\ rsq' = [rsq EXCEPT ![self] = Body(jj[self])]
+                                                             /\ stack' = [stack EXCEPT ![self] = << [ procedure |->  "RunOps",
+                                                                                                      pc        |->  "z_rj_ret",
+                                                                                                      bi        |->  bi[self],
+                                                                                                      bcur      |->  bcur[self],
+                                                                                                      bw        |->  bw[self],
+                                                                                                      rsq       |->  rsq[self],
+                                                                                                      bown      |->  bown[self],
+                                                                                                      bwk       |->  bwk[self] ] >>
+                                                                                                  \o stack[self]]
+                                                          /\ bi' = [bi EXCEPT ![self] = 0]
+                                                          /\ bcur' = [bcur EXCEPT ![self] = 0]
+                                                          /\ bw' = [bw EXCEPT ![self] = NoW]
+                                                          /\ pc' = [pc EXCEPT ![self] = "rb_step"]
+                                                          /\ UNCHANGED << gwaker, 
+                                                                          rv, 
+                                                                          jq, 
+                                                                          jj, 
+                                                                          jwk >>
+                                                     ELSE /\ gwaker' = [gwaker EXCEPT ![OpTab[jj[self]].g] = jwk[self]]
+                                                          /\ rv' = [rv EXCEPT ![self] = 5]
+                                                          /\ pc' = [pc EXCEPT ![self] = Head(stack[self]).pc]
+                                                          /\ jq' = [jq EXCEPT ![self] = Head(stack[self]).jq]
+                                                          /\ jj' = [jj EXCEPT ![self] = Head(stack[self]).jj]
+                                                          /\ jwk' = [jwk EXCEPT ![self] = Head(stack[self]).jwk]
+                                                          /\ stack' = [stack EXCEPT ![self] = Tail(stack[self])]
+                                                          /\ UNCHANGED << h, 
+                                                                          rsq, 
+                                                                          bown, 
+                                                                          bwk, 
+                                                                          bi, 
+                                                                          bcur, 
+                                                                          bw >>
+                                               /\ sdres' = sdres
+                                          ELSE /\ IF K(jj[self]) = "drop_obj"
+                                                     THEN /\ h' = ObsFreed(h, O(jj[self]))
+                                                          /\ IF jkind[jj[self]] = "syncdrain"
+                                                                THEN /\ sdres' = [sdres EXCEPT ![jj[self]] = TRUE]
+                                                                ELSE /\ TRUE
+                                                                     /\ sdres' = sdres
+                                                          /\ rv' = [rv EXCEPT ![self] = 0]
+                                                          /\ pc' = [pc EXCEPT ![self] = Head(stack[self]).pc]
+                                                          /\ jq' = [jq EXCEPT ![self] = Head(stack[self]).jq]
+                                                          /\ jj' = [jj EXCEPT ![self] = Head(stack[self]).jj]
+                                                          /\ jwk' = [jwk EXCEPT ![self] = Head(stack[self]).jwk]
+                                                          /\ stack' = [stack EXCEPT ![self] = Tail(stack[self])]
+                                                          /\ UNCHANGED gwaker
+                                                     ELSE /\ IF K(jj[self]) = "wait_sync"
+                                                                THEN /\ pc' = [pc EXCEPT ![self] = "ws_take"]
+                                                                     /\ UNCHANGED << gwaker, 
+                                                                                     rv, 
+                                                                                     stack, 
+                                                                                     jq, 
+                                                                                     jj, 
+                                                                                     jwk >>
+                                                                ELSE /\ IF jaw[jj[self]] = 0
+                                                                           THEN /\ pc' = [pc EXCEPT ![self] = "sus_signal"]
+                                                                                /\ UNCHANGED << gwaker, 
+                                                                                                rv, 
+                                                                                                stack, 
+                                                                                                jq, 
+                                                                                                jj, 
+                                                                                                jwk >>
+                                                                           ELSE /\ IF OpTab[jj[self]].g \in gfired
+                                                                                      THEN /\ pc' = [pc EXCEPT ![self] = "sus_inner"]
+                                                                                           /\ UNCHANGED << gwaker, 
+                                                                                                           rv, 
+                                                                                                           stack, 
+                                                                                                           jq, 
+                                                                                                           jj, 
+                                                                                                           jwk >>
+                                                                                      ELSE /\ gwaker' = [gwaker EXCEPT ![OpTab[jj[self]].g] = jwk[self]]
+                                                                                           /\ rv' = [rv EXCEPT ![self] = 5]
+                                                                                           /\ pc' = [pc EXCEPT ![self] = Head(stack[self]).pc]
+                                                                                           /\ jq' = [jq EXCEPT ![self] = Head(stack[self]).jq]
+                                                                                           /\ jj' = [jj EXCEPT ![self] = Head(stack[self]).jj]
+                                                                                           /\ jwk' = [jwk EXCEPT ![self] = Head(stack[self]).jwk]
+                                                                                           /\ stack' = [stack EXCEPT ![self] = Tail(stack[self])]
+                                                          /\ UNCHANGED << sdres, 
+                                                                          h >>
+                                               /\ UNCHANGED << rsq, bown, bwk, 
+                                                               bi, bcur, bw >>
+              /\ UNCHANGED << qstate, qpoll, jobs, wakeBlocked, schedule, 
+                              pthreads, nspawned, palive, busy, busyLocked, 
+                              inbox, chanOpen, pfin, thrHeld, maxThreads, 
+                              jkind, jaw, fres, fwaker, gfired, gthreads, dwSt, 
+                              dwW, dblTaken, dblW1, dblW2, nextDW, ready, 
+                              cwait, cnotif, cvHeld, jpanic, parkTok, rwb, 
+                              rneed, dsl, dead, sti, rq, sq, sj, ww, fj, dq, 
+                              dj, oq, oop, omode, oj, yq, yop, tq, top, af, wf, 
+                              wop, pf, pctx, pq, pj, pd, nq >>
+
+z_rj_ret(self) == /\ pc[self] = "z_rj_ret"
+                  /\ pc' = [pc EXCEPT ![self] = Head(stack[self]).pc]
+                  /\ jq' = [jq EXCEPT ![self] = Head(stack[self]).jq]
+                  /\ jj' = [jj EXCEPT ![self] = Head(stack[self]).jj]
+                  /\ jwk' = [jwk EXCEPT ![self] = Head(stack[self]).jwk]
+                  /\ stack' = [stack EXCEPT ![self] = Tail(stack[self])]
+                  /\ UNCHANGED << qstate, qpoll, jobs, wakeBlocked, schedule, 
+                                  pthreads, nspawned, palive, busy, busyLocked, 
+                                  inbox, chanOpen, pfin, thrHeld, maxThreads, 
+                                  jkind, jaw, fres, fwaker, gfired, gwaker, 
+                                  gthreads, dwSt, dwW, dblTaken, dblW1, dblW2, 
+                                  nextDW, ready, cwait, cnotif, cvHeld, sdres, 
+                                  jpanic, parkTok, rv, rwb, rneed, dsl, h, 
+                                  dead, sti, rq, sq, sj, ww, rsq, bown, bwk, 
+                                  bi, bcur, bw, fj, dq, dj, oq, oop, omode, oj, 
+                                  yq, yop, tq, top, af, wf, wop, pf, pctx, pq, 
+                                  pj, pd, nq >>
+
+sus_signal(self) == /\ pc[self] = "sus_signal"
+                    /\ LET w == fwaker[jj[self]] IN
+                         /\ fres' = [fres EXCEPT ![jj[self]] = "some"]
+                         /\ fwaker' = [fwaker EXCEPT ![jj[self]] = NoW]
+                         /\ IF IsLocking(w)
+                               THEN /\ /\ stack' = [stack EXCEPT ![self] = << [ procedure |->  "Wake",
+                                                                                pc        |->  "sus_sigdrop",
+                                                                                ww        |->  ww[self] ] >>
+                                                                            \o stack[self]]
+                                       /\ ww' = [ww EXCEPT ![self] = w]
+                                    /\ pc' = [pc EXCEPT ![self] = "wk_lock"]
+                                    /\ UNCHANGED parkTok
+                               ELSE /\ parkTok' = Unpark(parkTok, TaskOf(w))
+                                    /\ pc' = [pc EXCEPT ![self] = "sus_sigdrop"]
+                                    /\ UNCHANGED << stack, ww >>
+                    /\ UNCHANGED << qstate, qpoll, jobs, wakeBlocked, schedule, 
+                                    pthreads, nspawned, palive, busy, 
+                                    busyLocked, inbox, chanOpen, pfin, thrHeld, 
+                                    maxThreads, jkind, jaw, gfired, gwaker, 
+                                    gthreads, dwSt, dwW, dblTaken, dblW1, 
+                                    dblW2, nextDW, ready, cwait, cnotif, 
+                                    cvHeld, sdres, jpanic, rv, rwb, rneed, dsl, 
+                                    h, dead, sti, rq, sq, sj, rsq, bown, bwk, 
+                                    bi, bcur, bw, jq, jj, jwk, fj, dq, dj, oq, 
+                                    oop, omode, oj, yq, yop, tq, top, af, wf, 
+                                    wop, pf, pctx, pq, pj, pd, nq >>
+
+sus_sigdrop(self) == /\ pc[self] = "sus_sigdrop"
+                     /\ jaw' = [jaw EXCEPT ![jj[self]] = 1]
+                     /\ IF OpTab[jj[self]].g \notin gfired
+                           THEN /\ gwaker' = [gwaker EXCEPT ![OpTab[jj[self]].g] = jwk[self]]
+                                /\ rv' = [rv EXCEPT ![self] = 5]
+                                /\ pc' = [pc EXCEPT ![self] = Head(stack[self]).pc]
+                                /\ jq' = [jq EXCEPT ![self] = Head(stack[self]).jq]
+                                /\ jj' = [jj EXCEPT ![self] = Head(stack[self]).jj]
+                                /\ jwk' = [jwk EXCEPT ![self] = Head(stack[self]).jwk]
+                                /\ stack' = [stack EXCEPT ![self] = Tail(stack[self])]
+                           ELSE /\ pc' = [pc EXCEPT ![self] = "sus_inner"]
+                                /\ UNCHANGED << gwaker, rv, stack, jq, jj, jwk >>
+                     /\ UNCHANGED << qstate, qpoll, jobs, wakeBlocked, 
+                                     schedule, pthreads, nspawned, palive, 
+                                     busy, busyLocked, inbox, chanOpen, pfin, 
+                                     thrHeld, maxThreads, jkind, fres, fwaker, 
+                                     gfired, gthreads, dwSt, dwW, dblTaken, 
+                                     dblW1, dblW2, nextDW, ready, cwait, 
+                                     cnotif, cvHeld, sdres, jpanic, parkTok, 
+                                     rwb, rneed, dsl, h, dead, sti, rq, sq, sj, 
+                                     ww, rsq, bown, bwk, bi, bcur, bw, fj, dq, 
+                                     dj, oq, oop, omode, oj, yq, yop, tq, top, 
+                                     af, wf, wop, pf, pctx, pq, pj, pd, nq >>
+
+sus_inner(self) == /\ pc[self] = "sus_inner"
+                   /\ TRUE
+                   /\ pc' = [pc EXCEPT ![self] = "sus_innerdrop"]
+                   /\ UNCHANGED << qstate, qpoll, jobs, wakeBlocked, schedule, 
+                                   pthreads, nspawned, palive, busy, 
+                                   busyLocked, inbox, chanOpen, pfin, thrHeld, 
+                                   maxThreads, jkind, jaw, fres, fwaker, 
+                                   gfired, gwaker, gthreads, dwSt, dwW, 
+                                   dblTaken, dblW1, dblW2, nextDW, ready, 
+                                   cwait, cnotif, cvHeld, sdres, jpanic, 
+                                   parkTok, rv, rwb, rneed, dsl, h, stack, 
+                                   dead, sti, rq, sq, sj, ww, rsq, bown, bwk, 
+                                   bi, bcur, bw, jq, jj, jwk, fj, dq, dj, oq, 
+                                   oop, omode, oj, yq, yop, tq, top, af, wf, 
+                                   wop, pf, pctx, pq, pj, pd, nq >>
+
+sus_innerdrop(self) == /\ pc[self] = "sus_innerdrop"
+                       /\ rv' = [rv EXCEPT ![self] = 0]
+                       /\ pc' = [pc EXCEPT ![self] = Head(stack[self]).pc]
+                       /\ jq' = [jq EXCEPT ![self] = Head(stack[self]).jq]
+                       /\ jj' = [jj EXCEPT ![self] = Head(stack[self]).jj]
+                       /\ jwk' = [jwk EXCEPT ![self] = Head(stack[self]).jwk]
+                       /\ stack' = [stack EXCEPT ![self] = Tail(stack[self])]
+                       /\ UNCHANGED << qstate, qpoll, jobs, wakeBlocked, 
+                                       schedule, pthreads, nspawned, palive, 
+                                       busy, busyLocked, inbox, chanOpen, pfin, 
+                                       thrHeld, maxThreads, jkind, jaw, fres, 
+                                       fwaker, gfired, gwaker, gthreads, dwSt, 
+                                       dwW, dblTaken, dblW1, dblW2, nextDW, 
+                                       ready, cwait, cnotif, cvHeld, sdres, 
+                                       jpanic, parkTok, rwb, rneed, dsl, h, 
+                                       dead, sti, rq, sq, sj, ww, rsq, bown, 
+                                       bwk, bi, bcur, bw, fj, dq, dj, oq, oop, 
+                                       omode, oj, yq, yop, tq, top, af, wf, 
+                                       wop, pf, pctx, pq, pj, pd, nq >>
+
+ws_take(self) == /\ pc[self] = "ws_take"
+                 /\ IF fres[OpTab[jj[self]].f] = "some"
+                       THEN /\ fres' = [fres EXCEPT ![OpTab[jj[self]].f] = "taken"]
+                            /\ sdres' = [sdres EXCEPT ![jj[self]] = TRUE]
+                            /\ rv' = [rv EXCEPT ![self] = 0]
+                            /\ pc' = [pc EXCEPT ![self] = Head(stack[self]).pc]
+                            /\ jq' = [jq EXCEPT ![self] = Head(stack[self]).jq]
+                            /\ jj' = [jj EXCEPT ![self] = Head(stack[self]).jj]
+                            /\ jwk' = [jwk EXCEPT ![self] = Head(stack[self]).jwk]
+                            /\ stack' = [stack EXCEPT ![self] = Tail(stack[self])]
+                       ELSE /\ sdres' = [sdres EXCEPT ![jj[self]] = TRUE]
+                            /\ rv' = [rv EXCEPT ![self] = 0]
+                            /\ pc' = [pc EXCEPT ![self] = Head(stack[self]).pc]
+                            /\ jq' = [jq EXCEPT ![self] = Head(stack[self]).jq]
+                            /\ jj' = [jj EXCEPT ![self] = Head(stack[self]).jj]
+                            /\ jwk' = [jwk EXCEPT ![self] = Head(stack[self]).jwk]
+                            /\ stack' = [stack EXCEPT ![self] = Tail(stack[self])]
+                            /\ fres' = fres
+                 /\ UNCHANGED << qstate, qpoll, jobs, wakeBlocked, schedule, 
+                                 pthreads, nspawned, palive, busy, busyLocked, 
+                                 inbox, chanOpen, pfin, thrHeld, maxThreads, 
+                                 jkind, jaw, fwaker, gfired, gwaker, gthreads, 
+                                 dwSt, dwW, dblTaken, dblW1, dblW2, nextDW, 
+                                 ready, cwait, cnotif, cvHeld, jpanic, parkTok, 
+                                 rwb, rneed, dsl, h, dead, sti, rq, sq, sj, ww, 
+                                 rsq, bown, bwk, bi, bcur, bw, fj, dq, dj, oq, 
+                                 oop, omode, oj, yq, yop, tq, top, af, wf, wop, 
+                                 pf, pctx, pq, pj, pd, nq >>
+
+RunJob(self) == z_rj(self) \/ z_rj_ret(self) \/ sus_signal(self)
+                   \/ sus_sigdrop(self) \/ sus_inner(self)
+                   \/ sus_innerdrop(self) \/ ws_take(self)
 
 fj_lock(self) == /\ pc[self] = "fj_lock"
                  /\ IF jkind[fj[self]] = "fut"
                        THEN /\ LET w == fwaker[fj[self]] IN
-                                 /\ fres' = [fres EXCEPT ![fj[self]] = "some"]
+                                 /\ fres' = [fres EXCEPT ![fj[self]] = IF jpanic[fj[self]] THEN "cancelled" ELSE "some"]
                                  /\ fwaker' = [fwaker EXCEPT ![fj[self]] = NoW]
                                  /\ IF IsLocking(w)
                                        THEN /\ /\ stack' = [stack EXCEPT ![self] = << [ procedure |->  "Wake",
-                                                                                        pc        |->  "fj_sigdrop",
+                                                                                        pc        |->  "z_fj_chk",
                                                                                         ww        |->  ww[self] ] >>
                                                                                     \o stack[self]]
                                                /\ ww' = [ww EXCEPT ![self] = w]
                                             /\ pc' = [pc EXCEPT ![self] = "wk_lock"]
                                             /\ UNCHANGED parkTok
                                        ELSE /\ parkTok' = Unpark(parkTok, TaskOf(w))
-                                            /\ pc' = [pc EXCEPT ![self] = "fj_sigdrop"]
+                                            /\ pc' = [pc EXCEPT ![self] = "z_fj_chk"]
                                             /\ UNCHANGED << stack, ww >>
                             /\ UNCHANGED << ready, cnotif, fj >>
                        ELSE /\ ready' = [ready EXCEPT ![fj[self]] = TRUE]
@@ -1334,10 +1950,30 @@ fj_lock(self) == /\ pc[self] = "fj_lock"
                                  inbox, chanOpen, pfin, thrHeld, maxThreads, 
                                  jkind, jaw, gfired, gwaker, gthreads, dwSt, 
                                  dwW, dblTaken, dblW1, dblW2, nextDW, cwait, 
-                                 sdres, rv, rwb, rneed, h, dead, sti, rq, sq, 
-                                 sj, rsq, bown, bwk, bi, bcur, bw, dq, dj, oq, 
-                                 oop, omode, oj, yq, yop, tq, top, af, pf, 
-                                 pctx, pq, pj, pd, nq >>
+                                 cvHeld, sdres, jpanic, rv, rwb, rneed, dsl, h, 
+                                 dead, sti, rq, sq, sj, rsq, bown, bwk, bi, 
+                                 bcur, bw, jq, jj, jwk, dq, dj, oq, oop, omode, 
+                                 oj, yq, yop, tq, top, af, wf, wop, pf, pctx, 
+                                 pq, pj, pd, nq >>
+
+z_fj_chk(self) == /\ pc[self] = "z_fj_chk"
+                  /\ IF jpanic[fj[self]]
+                        THEN /\ pc' = [pc EXCEPT ![self] = Head(stack[self]).pc]
+                             /\ fj' = [fj EXCEPT ![self] = Head(stack[self]).fj]
+                             /\ stack' = [stack EXCEPT ![self] = Tail(stack[self])]
+                        ELSE /\ pc' = [pc EXCEPT ![self] = "fj_sigdrop"]
+                             /\ UNCHANGED << stack, fj >>
+                  /\ UNCHANGED << qstate, qpoll, jobs, wakeBlocked, schedule, 
+                                  pthreads, nspawned, palive, busy, busyLocked, 
+                                  inbox, chanOpen, pfin, thrHeld, maxThreads, 
+                                  jkind, jaw, fres, fwaker, gfired, gwaker, 
+                                  gthreads, dwSt, dwW, dblTaken, dblW1, dblW2, 
+                                  nextDW, ready, cwait, cnotif, cvHeld, sdres, 
+                                  jpanic, parkTok, rv, rwb, rneed, dsl, h, 
+                                  dead, sti, rq, sq, sj, ww, rsq, bown, bwk, 
+                                  bi, bcur, bw, jq, jj, jwk, dq, dj, oq, oop, 
+                                  omode, oj, yq, yop, tq, top, af, wf, wop, pf, 
+                                  pctx, pq, pj, pd, nq >>
 
 fj_sigdrop(self) == /\ pc[self] = "fj_sigdrop"
                     /\ pc' = [pc EXCEPT ![self] = Head(stack[self]).pc]
@@ -1349,83 +1985,77 @@ fj_sigdrop(self) == /\ pc[self] = "fj_sigdrop"
                                     maxThreads, jkind, jaw, fres, fwaker, 
                                     gfired, gwaker, gthreads, dwSt, dwW, 
                                     dblTaken, dblW1, dblW2, nextDW, ready, 
-                                    cwait, cnotif, sdres, parkTok, rv, rwb, 
-                                    rneed, h, dead, sti, rq, sq, sj, ww, rsq, 
-                                    bown, bwk, bi, bcur, bw, dq, dj, oq, oop, 
-                                    omode, oj, yq, yop, tq, top, af, pf, pctx, 
-                                    pq, pj, pd, nq >>
+                                    cwait, cnotif, cvHeld, sdres, jpanic, 
+                                    parkTok, rv, rwb, rneed, dsl, h, dead, sti, 
+                                    rq, sq, sj, ww, rsq, bown, bwk, bi, bcur, 
+                                    bw, jq, jj, jwk, dq, dj, oq, oop, omode, 
+                                    oj, yq, yop, tq, top, af, wf, wop, pf, 
+                                    pctx, pq, pj, pd, nq >>
 
-FinishJob(self) == fj_lock(self) \/ fj_sigdrop(self)
+FinishJob(self) == fj_lock(self) \/ z_fj_chk(self) \/ fj_sigdrop(self)
 
 pd_deq(self) == /\ pc[self] = "pd_deq"
                 /\ IF qstate[dq[self]] \in Waiting \/ jobs[dq[self]] = << >>
                       THEN /\ pc' = [pc EXCEPT ![self] = "pd_end"]
-                           /\ UNCHANGED << jobs, gwaker, rv, h, stack, rsq, 
-                                           bown, bwk, bi, bcur, bw, dj >>
+                           /\ UNCHANGED << jobs, stack, jq, jj, jwk, dj >>
                       ELSE /\ dj' = [dj EXCEPT ![self] = Head(jobs[dq[self]])]
                            /\ jobs' = [jobs EXCEPT ![dq[self]] = Tail(jobs[dq[self]])]
-                           /\ IF jkind[dj'[self]] = "fut" /\ jaw[dj'[self]] > 0
-                                 THEN /\ IF Aw(dj'[self])[jaw[dj'[self]]] \notin gfired
-                                            THEN /\ gwaker' = [gwaker EXCEPT ![Aw(dj'[self])[jaw[dj'[self]]]] = WQ(dq[self])]
-                                                 /\ rv' = [rv EXCEPT ![self] = 5]
-                                            ELSE /\ TRUE
-                                                 /\ UNCHANGED << gwaker, rv >>
-                                      /\ h' = h
-                                 ELSE /\ h' = ObsStart(h, self, dj'[self])
-                                      /\ UNCHANGED << gwaker, rv >>
-                           /\ IF ImmPending(dj'[self])
-                                 THEN /\ pc' = [pc EXCEPT ![self] = "pd_requeue"]
-                                      /\ UNCHANGED << stack, rsq, bown, bwk, 
-                                                      bi, bcur, bw >>
-                                 ELSE /\ /\ bown' = [bown EXCEPT ![self] = dj'[self]]
-                                         /\ bwk' = [bwk EXCEPT ![self] = WQ(dq[self])]
-                                         /\ rsq' = [rsq EXCEPT ![self] = Body(dj'[self])]
-                                         /\ stack' = [stack EXCEPT ![self] = << [ procedure |->  "RunOps",
-                                                                                  pc        |->  "z_pd_after",
-                                                                                  bi        |->  bi[self],
-                                                                                  bcur      |->  bcur[self],
-                                                                                  bw        |->  bw[self],
-                                                                                  rsq       |->  rsq[self],
-                                                                                  bown      |->  bown[self],
-                                                                                  bwk       |->  bwk[self] ] >>
-                                                                              \o stack[self]]
-                                      /\ bi' = [bi EXCEPT ![self] = 0]
-                                      /\ bcur' = [bcur EXCEPT ![self] = 0]
-                                      /\ bw' = [bw EXCEPT ![self] = NoW]
-                                      /\ pc' = [pc EXCEPT ![self] = "rb_step"]
+                           /\ /\ jj' = [jj EXCEPT ![self] = dj'[self]]
+                              /\ jq' = [jq EXCEPT ![self] = dq[self]]
+                              /\ jwk' = [jwk EXCEPT ![self] = WQ(dq[self])]
+                              /\ stack' = [stack EXCEPT ![self] = << [ procedure |->  "RunJob",
+                                                                       pc        |->  "z_pd_after",
+                                                                       jq        |->  jq[self],
+                                                                       jj        |->  jj[self],
+                                                                       jwk       |->  jwk[self] ] >>
+                                                                   \o stack[self]]
+                           /\ pc' = [pc EXCEPT ![self] = "z_rj"]
                 /\ UNCHANGED << qstate, qpoll, wakeBlocked, schedule, pthreads, 
                                 nspawned, palive, busy, busyLocked, inbox, 
                                 chanOpen, pfin, thrHeld, maxThreads, jkind, 
-                                jaw, fres, fwaker, gfired, gthreads, dwSt, dwW, 
-                                dblTaken, dblW1, dblW2, nextDW, ready, cwait, 
-                                cnotif, sdres, parkTok, rwb, rneed, dead, sti, 
-                                rq, sq, sj, ww, fj, dq, oq, oop, omode, oj, yq, 
-                                yop, tq, top, af, pf, pctx, pq, pj, pd, nq >>
+                                jaw, fres, fwaker, gfired, gwaker, gthreads, 
+                                dwSt, dwW, dblTaken, dblW1, dblW2, nextDW, 
+                                ready, cwait, cnotif, cvHeld, sdres, jpanic, 
+                                parkTok, rv, rwb, rneed, dsl, h, dead, sti, rq, 
+                                sq, sj, ww, rsq, bown, bwk, bi, bcur, bw, fj, 
+                                dq, oq, oop, omode, oj, yq, yop, tq, top, af, 
+                                wf, wop, pf, pctx, pq, pj, pd, nq >>
 
 z_pd_after(self) == /\ pc[self] = "z_pd_after"
                     /\ IF rv[self] = 5
                           THEN /\ pc' = [pc EXCEPT ![self] = "pd_requeue"]
                                /\ UNCHANGED << stack, fj >>
-                          ELSE /\ IF NeedsFinish(dj[self])
-                                     THEN /\ /\ fj' = [fj EXCEPT ![self] = dj[self]]
-                                             /\ stack' = [stack EXCEPT ![self] = << [ procedure |->  "FinishJob",
-                                                                                      pc        |->  "pd_deq",
-                                                                                      fj        |->  fj[self] ] >>
-                                                                                  \o stack[self]]
-                                          /\ pc' = [pc EXCEPT ![self] = "fj_lock"]
-                                     ELSE /\ pc' = [pc EXCEPT ![self] = "pd_deq"]
-                                          /\ UNCHANGED << stack, fj >>
+                          ELSE /\ IF rv[self] = 9
+                                     THEN /\ IF NeedsFinish(dj[self])
+                                                THEN /\ /\ fj' = [fj EXCEPT ![self] = dj[self]]
+                                                        /\ stack' = [stack EXCEPT ![self] = << [ procedure |->  "FinishJob",
+                                                                                                 pc        |->  "pd_panic",
+                                                                                                 fj        |->  fj[self] ] >>
+                                                                                             \o stack[self]]
+                                                     /\ pc' = [pc EXCEPT ![self] = "fj_lock"]
+                                                ELSE /\ pc' = [pc EXCEPT ![self] = "pd_panic"]
+                                                     /\ UNCHANGED << stack, fj >>
+                                     ELSE /\ IF NeedsFinish(dj[self])
+                                                THEN /\ /\ fj' = [fj EXCEPT ![self] = dj[self]]
+                                                        /\ stack' = [stack EXCEPT ![self] = << [ procedure |->  "FinishJob",
+                                                                                                 pc        |->  "pd_deq",
+                                                                                                 fj        |->  fj[self] ] >>
+                                                                                             \o stack[self]]
+                                                     /\ pc' = [pc EXCEPT ![self] = "fj_lock"]
+                                                ELSE /\ pc' = [pc EXCEPT ![self] = "pd_deq"]
+                                                     /\ UNCHANGED << stack, fj >>
                     /\ UNCHANGED << qstate, qpoll, jobs, wakeBlocked, schedule, 
                                     pthreads, nspawned, palive, busy, 
                                     busyLocked, inbox, chanOpen, pfin, thrHeld, 
                                     maxThreads, jkind, jaw, fres, fwaker, 
                                     gfired, gwaker, gthreads, dwSt, dwW, 
                                     dblTaken, dblW1, dblW2, nextDW, ready, 
-                                    cwait, cnotif, sdres, parkTok, rv, rwb, 
-                                    rneed, h, dead, sti, rq, sq, sj, ww, rsq, 
-                                    bown, bwk, bi, bcur, bw, dq, dj, oq, oop, 
-                                    omode, oj, yq, yop, tq, top, af, pf, pctx, 
-                                    pq, pj, pd, nq >>
+                                    cwait, cnotif, cvHeld, sdres, jpanic, 
+                                    parkTok, rv, rwb, rneed, dsl, h, dead, sti, 
+                                    rq, sq, sj, ww, rsq, bown, bwk, bi, bcur, 
+                                    bw, jq, jj, jwk, dq, dj, oq, oop, omode, 
+                                    oj, yq, yop, tq, top, af, wf, wop, pf, 
+                                    pctx, pq, pj, pd, nq >>
 
 pd_requeue(self) == /\ pc[self] = "pd_requeue"
                     /\ jobs' = [jobs EXCEPT ![dq[self]] = << dj[self] >> \o jobs[dq[self]]]
@@ -1436,15 +2066,17 @@ pd_requeue(self) == /\ pc[self] = "pd_requeue"
                                     maxThreads, jkind, jaw, fres, fwaker, 
                                     gfired, gwaker, gthreads, dwSt, dwW, 
                                     dblTaken, dblW1, dblW2, nextDW, ready, 
-                                    cwait, cnotif, sdres, parkTok, rv, rwb, 
-                                    rneed, h, stack, dead, sti, rq, sq, sj, ww, 
-                                    rsq, bown, bwk, bi, bcur, bw, fj, dq, dj, 
-                                    oq, oop, omode, oj, yq, yop, tq, top, af, 
-                                    pf, pctx, pq, pj, pd, nq >>
+                                    cwait, cnotif, cvHeld, sdres, jpanic, 
+                                    parkTok, rv, rwb, rneed, dsl, h, stack, 
+                                    dead, sti, rq, sq, sj, ww, rsq, bown, bwk, 
+                                    bi, bcur, bw, jq, jj, jwk, fj, dq, dj, oq, 
+                                    oop, omode, oj, yq, yop, tq, top, af, wf, 
+                                    wop, pf, pctx, pq, pj, pd, nq >>
 
 pd_park(self) == /\ pc[self] = "pd_park"
                  /\ IF qstate[dq[self]] = "Running"
                        THEN /\ qstate' = [qstate EXCEPT ![dq[self]] = "WaitingForWake"]
+                            /\ rv' = [rv EXCEPT ![self] = 0]
                             /\ pc' = [pc EXCEPT ![self] = Head(stack[self]).pc]
                             /\ dj' = [dj EXCEPT ![self] = Head(stack[self]).dj]
                             /\ dq' = [dq EXCEPT ![self] = Head(stack[self]).dq]
@@ -1454,17 +2086,17 @@ pd_park(self) == /\ pc[self] = "pd_park"
                                        /\ pc' = [pc EXCEPT ![self] = "pd_deq"]
                                   ELSE /\ pc' = [pc EXCEPT ![self] = "pd_deq"]
                                        /\ UNCHANGED qstate
-                            /\ UNCHANGED << stack, dq, dj >>
+                            /\ UNCHANGED << rv, stack, dq, dj >>
                  /\ UNCHANGED << qpoll, jobs, wakeBlocked, schedule, pthreads, 
                                  nspawned, palive, busy, busyLocked, inbox, 
                                  chanOpen, pfin, thrHeld, maxThreads, jkind, 
                                  jaw, fres, fwaker, gfired, gwaker, gthreads, 
                                  dwSt, dwW, dblTaken, dblW1, dblW2, nextDW, 
-                                 ready, cwait, cnotif, sdres, parkTok, rv, rwb, 
-                                 rneed, h, dead, sti, rq, sq, sj, ww, rsq, 
-                                 bown, bwk, bi, bcur, bw, fj, oq, oop, omode, 
-                                 oj, yq, yop, tq, top, af, pf, pctx, pq, pj, 
-                                 pd, nq >>
+                                 ready, cwait, cnotif, cvHeld, sdres, jpanic, 
+                                 parkTok, rwb, rneed, dsl, h, dead, sti, rq, 
+                                 sq, sj, ww, rsq, bown, bwk, bi, bcur, bw, jq, 
+                                 jj, jwk, fj, oq, oop, omode, oj, yq, yop, tq, 
+                                 top, af, wf, wop, pf, pctx, pq, pj, pd, nq >>
 
 pd_end(self) == /\ pc[self] = "pd_end"
                 /\ IF jobs[dq[self]] = << >>
@@ -1472,116 +2104,132 @@ pd_end(self) == /\ pc[self] = "pd_end"
                                  THEN /\ qstate' = [qstate EXCEPT ![dq[self]] = "Idle"]
                                  ELSE /\ TRUE
                                       /\ UNCHANGED qstate
+                           /\ rv' = [rv EXCEPT ![self] = 0]
                            /\ pc' = [pc EXCEPT ![self] = Head(stack[self]).pc]
                            /\ dj' = [dj EXCEPT ![self] = Head(stack[self]).dj]
                            /\ dq' = [dq EXCEPT ![self] = Head(stack[self]).dq]
                            /\ stack' = [stack EXCEPT ![self] = Tail(stack[self])]
                       ELSE /\ IF qstate[dq[self]] = "Pending"
-                                 THEN /\ pc' = [pc EXCEPT ![self] = Head(stack[self]).pc]
+                                 THEN /\ rv' = [rv EXCEPT ![self] = 0]
+                                      /\ pc' = [pc EXCEPT ![self] = Head(stack[self]).pc]
                                       /\ dj' = [dj EXCEPT ![self] = Head(stack[self]).dj]
                                       /\ dq' = [dq EXCEPT ![self] = Head(stack[self]).dq]
                                       /\ stack' = [stack EXCEPT ![self] = Tail(stack[self])]
                                  ELSE /\ pc' = [pc EXCEPT ![self] = "pd_deq"]
-                                      /\ UNCHANGED << stack, dq, dj >>
+                                      /\ UNCHANGED << rv, stack, dq, dj >>
                            /\ UNCHANGED qstate
                 /\ UNCHANGED << qpoll, jobs, wakeBlocked, schedule, pthreads, 
                                 nspawned, palive, busy, busyLocked, inbox, 
                                 chanOpen, pfin, thrHeld, maxThreads, jkind, 
                                 jaw, fres, fwaker, gfired, gwaker, gthreads, 
                                 dwSt, dwW, dblTaken, dblW1, dblW2, nextDW, 
-                                ready, cwait, cnotif, sdres, parkTok, rv, rwb, 
-                                rneed, h, dead, sti, rq, sq, sj, ww, rsq, bown, 
-                                bwk, bi, bcur, bw, fj, oq, oop, omode, oj, yq, 
-                                yop, tq, top, af, pf, pctx, pq, pj, pd, nq >>
+                                ready, cwait, cnotif, cvHeld, sdres, jpanic, 
+                                parkTok, rwb, rneed, dsl, h, dead, sti, rq, sq, 
+                                sj, ww, rsq, bown, bwk, bi, bcur, bw, jq, jj, 
+                                jwk, fj, oq, oop, omode, oj, yq, yop, tq, top, 
+                                af, wf, wop, pf, pctx, pq, pj, pd, nq >>
+
+pd_panic(self) == /\ pc[self] = "pd_panic"
+                  /\ qstate' = [qstate EXCEPT ![dq[self]] = "Panicked"]
+                  /\ rv' = [rv EXCEPT ![self] = 9]
+                  /\ pc' = [pc EXCEPT ![self] = Head(stack[self]).pc]
+                  /\ dj' = [dj EXCEPT ![self] = Head(stack[self]).dj]
+                  /\ dq' = [dq EXCEPT ![self] = Head(stack[self]).dq]
+                  /\ stack' = [stack EXCEPT ![self] = Tail(stack[self])]
+                  /\ UNCHANGED << qpoll, jobs, wakeBlocked, schedule, pthreads, 
+                                  nspawned, palive, busy, busyLocked, inbox, 
+                                  chanOpen, pfin, thrHeld, maxThreads, jkind, 
+                                  jaw, fres, fwaker, gfired, gwaker, gthreads, 
+                                  dwSt, dwW, dblTaken, dblW1, dblW2, nextDW, 
+                                  ready, cwait, cnotif, cvHeld, sdres, jpanic, 
+                                  parkTok, rwb, rneed, dsl, h, dead, sti, rq, 
+                                  sq, sj, ww, rsq, bown, bwk, bi, bcur, bw, jq, 
+                                  jj, jwk, fj, oq, oop, omode, oj, yq, yop, tq, 
+                                  top, af, wf, wop, pf, pctx, pq, pj, pd, nq >>
 
 PoolDrain(self) == pd_deq(self) \/ z_pd_after(self) \/ pd_requeue(self)
-                      \/ pd_park(self) \/ pd_end(self)
+                      \/ pd_park(self) \/ pd_end(self) \/ pd_panic(self)
 
 ro_deq(self) == /\ pc[self] = "ro_deq"
                 /\ IF qstate[oq[self]] \in Waiting \/ jobs[oq[self]] = << >>
                       THEN /\ IF omode[self] = "sd"
                                  THEN /\ pc' = [pc EXCEPT ![self] = "ro_deq"]
-                                      /\ UNCHANGED << stack, oq, oop, omode, 
-                                                      oj >>
-                                 ELSE /\ pc' = [pc EXCEPT ![self] = Head(stack[self]).pc]
+                                      /\ UNCHANGED << rv, stack, oq, oop, 
+                                                      omode, oj >>
+                                 ELSE /\ rv' = [rv EXCEPT ![self] = 0]
+                                      /\ pc' = [pc EXCEPT ![self] = Head(stack[self]).pc]
                                       /\ oj' = [oj EXCEPT ![self] = Head(stack[self]).oj]
                                       /\ oq' = [oq EXCEPT ![self] = Head(stack[self]).oq]
                                       /\ oop' = [oop EXCEPT ![self] = Head(stack[self]).oop]
                                       /\ omode' = [omode EXCEPT ![self] = Head(stack[self]).omode]
                                       /\ stack' = [stack EXCEPT ![self] = Tail(stack[self])]
-                           /\ UNCHANGED << jobs, gwaker, rv, h, rsq, bown, bwk, 
-                                           bi, bcur, bw >>
+                           /\ UNCHANGED << jobs, jq, jj, jwk >>
                       ELSE /\ oj' = [oj EXCEPT ![self] = Head(jobs[oq[self]])]
                            /\ jobs' = [jobs EXCEPT ![oq[self]] = Tail(jobs[oq[self]])]
-                           /\ IF jkind[oj'[self]] = "fut" /\ jaw[oj'[self]] > 0
-                                 THEN /\ IF Aw(oj'[self])[jaw[oj'[self]]] \notin gfired
-                                            THEN /\ gwaker' = [gwaker EXCEPT ![Aw(oj'[self])[jaw[oj'[self]]]] = WT(oq[self], self)]
-                                                 /\ rv' = [rv EXCEPT ![self] = 5]
-                                            ELSE /\ TRUE
-                                                 /\ UNCHANGED << gwaker, rv >>
-                                      /\ h' = h
-                                 ELSE /\ h' = ObsStart(h, self, oj'[self])
-                                      /\ UNCHANGED << gwaker, rv >>
-                           /\ IF ImmPending(oj'[self])
-                                 THEN /\ pc' = [pc EXCEPT ![self] = "ro_park"]
-                                      /\ UNCHANGED << stack, rsq, bown, bwk, 
-                                                      bi, bcur, bw >>
-                                 ELSE /\ /\ bown' = [bown EXCEPT ![self] = oj'[self]]
-                                         /\ bwk' = [bwk EXCEPT ![self] = WT(oq[self], self)]
-                                         /\ rsq' = [rsq EXCEPT ![self] = Body(oj'[self])]
-                                         /\ stack' = [stack EXCEPT ![self] = << [ procedure |->  "RunOps",
-                                                                                  pc        |->  "z_ro_after",
-                                                                                  bi        |->  bi[self],
-                                                                                  bcur      |->  bcur[self],
-                                                                                  bw        |->  bw[self],
-                                                                                  rsq       |->  rsq[self],
-                                                                                  bown      |->  bown[self],
-                                                                                  bwk       |->  bwk[self] ] >>
-                                                                              \o stack[self]]
-                                      /\ bi' = [bi EXCEPT ![self] = 0]
-                                      /\ bcur' = [bcur EXCEPT ![self] = 0]
-                                      /\ bw' = [bw EXCEPT ![self] = NoW]
-                                      /\ pc' = [pc EXCEPT ![self] = "rb_step"]
-                           /\ UNCHANGED << oq, oop, omode >>
+                           /\ /\ jj' = [jj EXCEPT ![self] = oj'[self]]
+                              /\ jq' = [jq EXCEPT ![self] = oq[self]]
+                              /\ jwk' = [jwk EXCEPT ![self] = WT(oq[self], self)]
+                              /\ stack' = [stack EXCEPT ![self] = << [ procedure |->  "RunJob",
+                                                                       pc        |->  "z_ro_after",
+                                                                       jq        |->  jq[self],
+                                                                       jj        |->  jj[self],
+                                                                       jwk       |->  jwk[self] ] >>
+                                                                   \o stack[self]]
+                           /\ pc' = [pc EXCEPT ![self] = "z_rj"]
+                           /\ UNCHANGED << rv, oq, oop, omode >>
                 /\ UNCHANGED << qstate, qpoll, wakeBlocked, schedule, pthreads, 
                                 nspawned, palive, busy, busyLocked, inbox, 
                                 chanOpen, pfin, thrHeld, maxThreads, jkind, 
-                                jaw, fres, fwaker, gfired, gthreads, dwSt, dwW, 
-                                dblTaken, dblW1, dblW2, nextDW, ready, cwait, 
-                                cnotif, sdres, parkTok, rwb, rneed, dead, sti, 
-                                rq, sq, sj, ww, fj, dq, dj, yq, yop, tq, top, 
-                                af, pf, pctx, pq, pj, pd, nq >>
+                                jaw, fres, fwaker, gfired, gwaker, gthreads, 
+                                dwSt, dwW, dblTaken, dblW1, dblW2, nextDW, 
+                                ready, cwait, cnotif, cvHeld, sdres, jpanic, 
+                                parkTok, rwb, rneed, dsl, h, dead, sti, rq, sq, 
+                                sj, ww, rsq, bown, bwk, bi, bcur, bw, fj, dq, 
+                                dj, yq, yop, tq, top, af, wf, wop, pf, pctx, 
+                                pq, pj, pd, nq >>
 
 z_ro_after(self) == /\ pc[self] = "z_ro_after"
                     /\ IF rv[self] = 5
                           THEN /\ pc' = [pc EXCEPT ![self] = "ro_park"]
                                /\ UNCHANGED << stack, fj >>
-                          ELSE /\ IF NeedsFinish(oj[self])
-                                     THEN /\ /\ fj' = [fj EXCEPT ![self] = oj[self]]
-                                             /\ stack' = [stack EXCEPT ![self] = << [ procedure |->  "FinishJob",
-                                                                                      pc        |->  "z_ro_done",
-                                                                                      fj        |->  fj[self] ] >>
-                                                                                  \o stack[self]]
-                                          /\ pc' = [pc EXCEPT ![self] = "fj_lock"]
-                                     ELSE /\ pc' = [pc EXCEPT ![self] = "z_ro_done"]
-                                          /\ UNCHANGED << stack, fj >>
+                          ELSE /\ IF rv[self] = 9
+                                     THEN /\ IF NeedsFinish(oj[self])
+                                                THEN /\ /\ fj' = [fj EXCEPT ![self] = oj[self]]
+                                                        /\ stack' = [stack EXCEPT ![self] = << [ procedure |->  "FinishJob",
+                                                                                                 pc        |->  "z_ro_panic",
+                                                                                                 fj        |->  fj[self] ] >>
+                                                                                             \o stack[self]]
+                                                     /\ pc' = [pc EXCEPT ![self] = "fj_lock"]
+                                                ELSE /\ pc' = [pc EXCEPT ![self] = "z_ro_panic"]
+                                                     /\ UNCHANGED << stack, fj >>
+                                     ELSE /\ IF NeedsFinish(oj[self])
+                                                THEN /\ /\ fj' = [fj EXCEPT ![self] = oj[self]]
+                                                        /\ stack' = [stack EXCEPT ![self] = << [ procedure |->  "FinishJob",
+                                                                                                 pc        |->  "z_ro_done",
+                                                                                                 fj        |->  fj[self] ] >>
+                                                                                             \o stack[self]]
+                                                     /\ pc' = [pc EXCEPT ![self] = "fj_lock"]
+                                                ELSE /\ pc' = [pc EXCEPT ![self] = "z_ro_done"]
+                                                     /\ UNCHANGED << stack, fj >>
                     /\ UNCHANGED << qstate, qpoll, jobs, wakeBlocked, schedule, 
                                     pthreads, nspawned, palive, busy, 
                                     busyLocked, inbox, chanOpen, pfin, thrHeld, 
                                     maxThreads, jkind, jaw, fres, fwaker, 
                                     gfired, gwaker, gthreads, dwSt, dwW, 
                                     dblTaken, dblW1, dblW2, nextDW, ready, 
-                                    cwait, cnotif, sdres, parkTok, rv, rwb, 
-                                    rneed, h, dead, sti, rq, sq, sj, ww, rsq, 
-                                    bown, bwk, bi, bcur, bw, dq, dj, oq, oop, 
-                                    omode, oj, yq, yop, tq, top, af, pf, pctx, 
-                                    pq, pj, pd, nq >>
+                                    cwait, cnotif, cvHeld, sdres, jpanic, 
+                                    parkTok, rv, rwb, rneed, dsl, h, dead, sti, 
+                                    rq, sq, sj, ww, rsq, bown, bwk, bi, bcur, 
+                                    bw, jq, jj, jwk, dq, dj, oq, oop, omode, 
+                                    oj, yq, yop, tq, top, af, wf, wop, pf, 
+                                    pctx, pq, pj, pd, nq >>
 
 z_ro_done(self) == /\ pc[self] = "z_ro_done"
                    /\ IF omode[self] = "sd" /\ ~sdres[oop[self]]
                          THEN /\ pc' = [pc EXCEPT ![self] = "ro_deq"]
-                              /\ UNCHANGED << stack, oq, oop, omode, oj >>
-                         ELSE /\ pc' = [pc EXCEPT ![self] = Head(stack[self]).pc]
+                              /\ UNCHANGED << rv, stack, oq, oop, omode, oj >>
+                         ELSE /\ rv' = [rv EXCEPT ![self] = 0]
+                              /\ pc' = [pc EXCEPT ![self] = Head(stack[self]).pc]
                               /\ oj' = [oj EXCEPT ![self] = Head(stack[self]).oj]
                               /\ oq' = [oq EXCEPT ![self] = Head(stack[self]).oq]
                               /\ oop' = [oop EXCEPT ![self] = Head(stack[self]).oop]
@@ -1593,104 +2241,88 @@ z_ro_done(self) == /\ pc[self] = "z_ro_done"
                                    maxThreads, jkind, jaw, fres, fwaker, 
                                    gfired, gwaker, gthreads, dwSt, dwW, 
                                    dblTaken, dblW1, dblW2, nextDW, ready, 
-                                   cwait, cnotif, sdres, parkTok, rv, rwb, 
-                                   rneed, h, dead, sti, rq, sq, sj, ww, rsq, 
-                                   bown, bwk, bi, bcur, bw, fj, dq, dj, yq, 
-                                   yop, tq, top, af, pf, pctx, pq, pj, pd, nq >>
+                                   cwait, cnotif, cvHeld, sdres, jpanic, 
+                                   parkTok, rwb, rneed, dsl, h, dead, sti, rq, 
+                                   sq, sj, ww, rsq, bown, bwk, bi, bcur, bw, 
+                                   jq, jj, jwk, fj, dq, dj, yq, yop, tq, top, 
+                                   af, wf, wop, pf, pctx, pq, pj, pd, nq >>
+
+z_ro_panic(self) == /\ pc[self] = "z_ro_panic"
+                    /\ rv' = [rv EXCEPT ![self] = 9]
+                    /\ pc' = [pc EXCEPT ![self] = Head(stack[self]).pc]
+                    /\ oj' = [oj EXCEPT ![self] = Head(stack[self]).oj]
+                    /\ oq' = [oq EXCEPT ![self] = Head(stack[self]).oq]
+                    /\ oop' = [oop EXCEPT ![self] = Head(stack[self]).oop]
+                    /\ omode' = [omode EXCEPT ![self] = Head(stack[self]).omode]
+                    /\ stack' = [stack EXCEPT ![self] = Tail(stack[self])]
+                    /\ UNCHANGED << qstate, qpoll, jobs, wakeBlocked, schedule, 
+                                    pthreads, nspawned, palive, busy, 
+                                    busyLocked, inbox, chanOpen, pfin, thrHeld, 
+                                    maxThreads, jkind, jaw, fres, fwaker, 
+                                    gfired, gwaker, gthreads, dwSt, dwW, 
+                                    dblTaken, dblW1, dblW2, nextDW, ready, 
+                                    cwait, cnotif, cvHeld, sdres, jpanic, 
+                                    parkTok, rwb, rneed, dsl, h, dead, sti, rq, 
+                                    sq, sj, ww, rsq, bown, bwk, bi, bcur, bw, 
+                                    jq, jj, jwk, fj, dq, dj, yq, yop, tq, top, 
+                                    af, wf, wop, pf, pctx, pq, pj, pd, nq >>
 
 ro_park(self) == /\ pc[self] = "ro_park"
                  /\ IF qstate[oq[self]] = "AwokenWhileRunning"
                        THEN /\ qstate' = [qstate EXCEPT ![oq[self]] = "Running"]
-                            /\ IF jkind[oj[self]] = "fut" /\ jaw[oj[self]] > 0
-                                  THEN /\ IF Aw(oj[self])[jaw[oj[self]]] \notin gfired
-                                             THEN /\ gwaker' = [gwaker EXCEPT ![Aw(oj[self])[jaw[oj[self]]]] = WT(oq[self], self)]
-                                                  /\ rv' = [rv EXCEPT ![self] = 5]
-                                             ELSE /\ TRUE
-                                                  /\ UNCHANGED << gwaker, rv >>
-                                       /\ h' = h
-                                  ELSE /\ h' = ObsStart(h, self, oj[self])
-                                       /\ UNCHANGED << gwaker, rv >>
-                            /\ IF ImmPending(oj[self])
-                                  THEN /\ pc' = [pc EXCEPT ![self] = "ro_park"]
-                                       /\ UNCHANGED << stack, rsq, bown, bwk, 
-                                                       bi, bcur, bw >>
-                                  ELSE /\ /\ bown' = [bown EXCEPT ![self] = oj[self]]
-                                          /\ bwk' = [bwk EXCEPT ![self] = WT(oq[self], self)]
-                                          /\ rsq' = [rsq EXCEPT ![self] = Body(oj[self])]
-                                          /\ stack' = [stack EXCEPT ![self] = << [ procedure |->  "RunOps",
-                                                                                   pc        |->  "z_ro_after",
-                                                                                   bi        |->  bi[self],
-                                                                                   bcur      |->  bcur[self],
-                                                                                   bw        |->  bw[self],
-                                                                                   rsq       |->  rsq[self],
-                                                                                   bown      |->  bown[self],
-                                                                                   bwk       |->  bwk[self] ] >>
-                                                                               \o stack[self]]
-                                       /\ bi' = [bi EXCEPT ![self] = 0]
-                                       /\ bcur' = [bcur EXCEPT ![self] = 0]
-                                       /\ bw' = [bw EXCEPT ![self] = NoW]
-                                       /\ pc' = [pc EXCEPT ![self] = "rb_step"]
+                            /\ /\ jj' = [jj EXCEPT ![self] = oj[self]]
+                               /\ jq' = [jq EXCEPT ![self] = oq[self]]
+                               /\ jwk' = [jwk EXCEPT ![self] = WT(oq[self], self)]
+                               /\ stack' = [stack EXCEPT ![self] = << [ procedure |->  "RunJob",
+                                                                        pc        |->  "z_ro_after",
+                                                                        jq        |->  jq[self],
+                                                                        jj        |->  jj[self],
+                                                                        jwk       |->  jwk[self] ] >>
+                                                                    \o stack[self]]
+                            /\ pc' = [pc EXCEPT ![self] = "z_rj"]
                        ELSE /\ Assert(qstate[oq[self]] = "Running", 
-                                      "Failure of assertion at line 350, column 5.")
+                                      "Failure of assertion at line 420, column 5.")
                             /\ qstate' = [qstate EXCEPT ![oq[self]] = "WaitingForUnpark"]
                             /\ pc' = [pc EXCEPT ![self] = "ro_check"]
-                            /\ UNCHANGED << gwaker, rv, h, stack, rsq, bown, 
-                                            bwk, bi, bcur, bw >>
+                            /\ UNCHANGED << stack, jq, jj, jwk >>
                  /\ UNCHANGED << qpoll, jobs, wakeBlocked, schedule, pthreads, 
                                  nspawned, palive, busy, busyLocked, inbox, 
                                  chanOpen, pfin, thrHeld, maxThreads, jkind, 
-                                 jaw, fres, fwaker, gfired, gthreads, dwSt, 
-                                 dwW, dblTaken, dblW1, dblW2, nextDW, ready, 
-                                 cwait, cnotif, sdres, parkTok, rwb, rneed, 
-                                 dead, sti, rq, sq, sj, ww, fj, dq, dj, oq, 
-                                 oop, omode, oj, yq, yop, tq, top, af, pf, 
-                                 pctx, pq, pj, pd, nq >>
+                                 jaw, fres, fwaker, gfired, gwaker, gthreads, 
+                                 dwSt, dwW, dblTaken, dblW1, dblW2, nextDW, 
+                                 ready, cwait, cnotif, cvHeld, sdres, jpanic, 
+                                 parkTok, rv, rwb, rneed, dsl, h, dead, sti, 
+                                 rq, sq, sj, ww, rsq, bown, bwk, bi, bcur, bw, 
+                                 fj, dq, dj, oq, oop, omode, oj, yq, yop, tq, 
+                                 top, af, wf, wop, pf, pctx, pq, pj, pd, nq >>
 
 ro_check(self) == /\ pc[self] = "ro_check"
                   /\ IF qstate[oq[self]] \in {"Running", "AwokenWhileRunning"}
-                        THEN /\ IF jkind[oj[self]] = "fut" /\ jaw[oj[self]] > 0
-                                   THEN /\ IF Aw(oj[self])[jaw[oj[self]]] \notin gfired
-                                              THEN /\ gwaker' = [gwaker EXCEPT ![Aw(oj[self])[jaw[oj[self]]]] = WT(oq[self], self)]
-                                                   /\ rv' = [rv EXCEPT ![self] = 5]
-                                              ELSE /\ TRUE
-                                                   /\ UNCHANGED << gwaker, rv >>
-                                        /\ h' = h
-                                   ELSE /\ h' = ObsStart(h, self, oj[self])
-                                        /\ UNCHANGED << gwaker, rv >>
-                             /\ IF ImmPending(oj[self])
-                                   THEN /\ pc' = [pc EXCEPT ![self] = "ro_park"]
-                                        /\ UNCHANGED << stack, rsq, bown, bwk, 
-                                                        bi, bcur, bw >>
-                                   ELSE /\ /\ bown' = [bown EXCEPT ![self] = oj[self]]
-                                           /\ bwk' = [bwk EXCEPT ![self] = WT(oq[self], self)]
-                                           /\ rsq' = [rsq EXCEPT ![self] = Body(oj[self])]
-                                           /\ stack' = [stack EXCEPT ![self] = << [ procedure |->  "RunOps",
-                                                                                    pc        |->  "z_ro_after",
-                                                                                    bi        |->  bi[self],
-                                                                                    bcur      |->  bcur[self],
-                                                                                    bw        |->  bw[self],
-                                                                                    rsq       |->  rsq[self],
-                                                                                    bown      |->  bown[self],
-                                                                                    bwk       |->  bwk[self] ] >>
-                                                                                \o stack[self]]
-                                        /\ bi' = [bi EXCEPT ![self] = 0]
-                                        /\ bcur' = [bcur EXCEPT ![self] = 0]
-                                        /\ bw' = [bw EXCEPT ![self] = NoW]
-                                        /\ pc' = [pc EXCEPT ![self] = "rb_step"]
+                        THEN /\ /\ jj' = [jj EXCEPT ![self] = oj[self]]
+                                /\ jq' = [jq EXCEPT ![self] = oq[self]]
+                                /\ jwk' = [jwk EXCEPT ![self] = WT(oq[self], self)]
+                                /\ stack' = [stack EXCEPT ![self] = << [ procedure |->  "RunJob",
+                                                                         pc        |->  "z_ro_after",
+                                                                         jq        |->  jq[self],
+                                                                         jj        |->  jj[self],
+                                                                         jwk       |->  jwk[self] ] >>
+                                                                     \o stack[self]]
+                             /\ pc' = [pc EXCEPT ![self] = "z_rj"]
                         ELSE /\ Assert(qstate[oq[self]] = "WaitingForUnpark", 
-                                       "Failure of assertion at line 358, column 12.")
+                                       "Failure of assertion at line 427, column 12.")
                              /\ pc' = [pc EXCEPT ![self] = "ro_parked"]
-                             /\ UNCHANGED << gwaker, rv, h, stack, rsq, bown, 
-                                             bwk, bi, bcur, bw >>
+                             /\ UNCHANGED << stack, jq, jj, jwk >>
                   /\ UNCHANGED << qstate, qpoll, jobs, wakeBlocked, schedule, 
                                   pthreads, nspawned, palive, busy, busyLocked, 
                                   inbox, chanOpen, pfin, thrHeld, maxThreads, 
-                                  jkind, jaw, fres, fwaker, gfired, gthreads, 
-                                  dwSt, dwW, dblTaken, dblW1, dblW2, nextDW, 
-                                  ready, cwait, cnotif, sdres, parkTok, rwb, 
-                                  rneed, dead, sti, rq, sq, sj, ww, fj, dq, dj, 
-                                  oq, oop, omode, oj, yq, yop, tq, top, af, pf, 
-                                  pctx, pq, pj, pd, nq >>
+                                  jkind, jaw, fres, fwaker, gfired, gwaker, 
+                                  gthreads, dwSt, dwW, dblTaken, dblW1, dblW2, 
+                                  nextDW, ready, cwait, cnotif, cvHeld, sdres, 
+                                  jpanic, parkTok, rv, rwb, rneed, dsl, h, 
+                                  dead, sti, rq, sq, sj, ww, rsq, bown, bwk, 
+                                  bi, bcur, bw, fj, dq, dj, oq, oop, omode, oj, 
+                                  yq, yop, tq, top, af, wf, wop, pf, pctx, pq, 
+                                  pj, pd, nq >>
 
 ro_parked(self) == /\ pc[self] = "ro_parked"
                    /\ parkTok[self]
@@ -1703,67 +2335,55 @@ ro_parked(self) == /\ pc[self] = "ro_parked"
                                    maxThreads, jkind, jaw, fres, fwaker, 
                                    gfired, gwaker, gthreads, dwSt, dwW, 
                                    dblTaken, dblW1, dblW2, nextDW, ready, 
-                                   cwait, cnotif, sdres, rv, rwb, rneed, stack, 
-                                   dead, sti, rq, sq, sj, ww, rsq, bown, bwk, 
-                                   bi, bcur, bw, fj, dq, dj, oq, oop, omode, 
-                                   oj, yq, yop, tq, top, af, pf, pctx, pq, pj, 
+                                   cwait, cnotif, cvHeld, sdres, jpanic, rv, 
+                                   rwb, rneed, dsl, stack, dead, sti, rq, sq, 
+                                   sj, ww, rsq, bown, bwk, bi, bcur, bw, jq, 
+                                   jj, jwk, fj, dq, dj, oq, oop, omode, oj, yq, 
+                                   yop, tq, top, af, wf, wop, pf, pctx, pq, pj, 
                                    pd, nq >>
 
 RunOne(self) == ro_deq(self) \/ z_ro_after(self) \/ z_ro_done(self)
-                   \/ ro_park(self) \/ ro_check(self) \/ ro_parked(self)
+                   \/ z_ro_panic(self) \/ ro_park(self) \/ ro_check(self)
+                   \/ ro_parked(self)
 
 sy_decide(self) == /\ pc[self] = "sy_decide"
                    /\ IF qstate[yq[self]] \in {"Running", "WaitingForWake", "WaitingForUnpark", "WaitingForPoll", "AwokenWhileRunning"}
                          THEN /\ pc' = [pc EXCEPT ![self] = "sb_reg"]
-                              /\ UNCHANGED << qstate, jkind, rv, h, stack, rsq, 
-                                              bown, bwk, bi, bcur, bw, yq, yop >>
+                              /\ UNCHANGED << qstate, jkind, rv, stack, jq, jj, 
+                                              jwk, yq, yop >>
                          ELSE /\ IF qstate[yq[self]] = "Panicked"
                                     THEN /\ rv' = [rv EXCEPT ![self] = 2]
                                          /\ pc' = [pc EXCEPT ![self] = Head(stack[self]).pc]
                                          /\ yq' = [yq EXCEPT ![self] = Head(stack[self]).yq]
                                          /\ yop' = [yop EXCEPT ![self] = Head(stack[self]).yop]
                                          /\ stack' = [stack EXCEPT ![self] = Tail(stack[self])]
-                                         /\ UNCHANGED << qstate, jkind, h, rsq, 
-                                                         bown, bwk, bi, bcur, 
-                                                         bw >>
+                                         /\ UNCHANGED << qstate, jkind, jq, jj, 
+                                                         jwk >>
                                     ELSE /\ IF qstate[yq[self]] = "Pending"
                                                THEN /\ qstate' = [qstate EXCEPT ![yq[self]] = "Running"]
                                                     /\ pc' = [pc EXCEPT ![self] = "sd_push"]
-                                                    /\ UNCHANGED << jkind, h, 
-                                                                    stack, rsq, 
-                                                                    bown, bwk, 
-                                                                    bi, bcur, 
-                                                                    bw >>
+                                                    /\ UNCHANGED << jkind, 
+                                                                    stack, jq, 
+                                                                    jj, jwk >>
                                                ELSE /\ qstate' = [qstate EXCEPT ![yq[self]] = "Running"]
                                                     /\ IF jobs[yq[self]] = << >>
                                                           THEN /\ jkind' = [jkind EXCEPT ![yop[self]] = "imm"]
-                                                               /\ h' = ObsStart(h, self, yop[self])
-                                                               /\ /\ bown' = [bown EXCEPT ![self] = yop[self]]
-                                                                  /\ bwk' = [bwk EXCEPT ![self] = NoW]
-                                                                  /\ rsq' = [rsq EXCEPT ![self] = Body(yop[self])]
-                                                                  /\ stack' = [stack EXCEPT ![self] = << [ procedure |->  "RunOps",
-                                                                                                           pc        |->  "si_idle",
-                                                                                                           bi        |->  bi[self],
-                                                                                                           bcur      |->  bcur[self],
-                                                                                                           bw        |->  bw[self],
-                                                                                                           rsq       |->  rsq[self],
-                                                                                                           bown      |->  bown[self],
-                                                                                                           bwk       |->  bwk[self] ] >>
+                                                               /\ /\ jj' = [jj EXCEPT ![self] = yop[self]]
+                                                                  /\ jq' = [jq EXCEPT ![self] = yq[self]]
+                                                                  /\ jwk' = [jwk EXCEPT ![self] = NoW]
+                                                                  /\ stack' = [stack EXCEPT ![self] = << [ procedure |->  "RunJob",
+                                                                                                           pc        |->  "z_si_chk",
+                                                                                                           jq        |->  jq[self],
+                                                                                                           jj        |->  jj[self],
+                                                                                                           jwk       |->  jwk[self] ] >>
                                                                                                        \o stack[self]]
-                                                               /\ bi' = [bi EXCEPT ![self] = 0]
-                                                               /\ bcur' = [bcur EXCEPT ![self] = 0]
-                                                               /\ bw' = [bw EXCEPT ![self] = NoW]
-                                                               /\ pc' = [pc EXCEPT ![self] = "rb_step"]
+                                                               /\ pc' = [pc EXCEPT ![self] = "z_rj"]
                                                           ELSE /\ pc' = [pc EXCEPT ![self] = "sd_push"]
                                                                /\ UNCHANGED << jkind, 
-                                                                               h, 
                                                                                stack, 
-                                                                               rsq, 
-                                                                               bown, 
-                                                                               bwk, 
-                                                                               bi, 
-                                                                               bcur, 
-                                                                               bw >>
+                                                                               jq, 
+                                                                               jj, 
+                                                                               jwk >>
                                          /\ UNCHANGED << rv, yq, yop >>
                    /\ UNCHANGED << qpoll, jobs, wakeBlocked, schedule, 
                                    pthreads, nspawned, palive, busy, 
@@ -1771,9 +2391,27 @@ sy_decide(self) == /\ pc[self] = "sy_decide"
                                    maxThreads, jaw, fres, fwaker, gfired, 
                                    gwaker, gthreads, dwSt, dwW, dblTaken, 
                                    dblW1, dblW2, nextDW, ready, cwait, cnotif, 
-                                   sdres, parkTok, rwb, rneed, dead, sti, rq, 
-                                   sq, sj, ww, fj, dq, dj, oq, oop, omode, oj, 
-                                   tq, top, af, pf, pctx, pq, pj, pd, nq >>
+                                   cvHeld, sdres, jpanic, parkTok, rwb, rneed, 
+                                   dsl, h, dead, sti, rq, sq, sj, ww, rsq, 
+                                   bown, bwk, bi, bcur, bw, fj, dq, dj, oq, 
+                                   oop, omode, oj, tq, top, af, wf, wop, pf, 
+                                   pctx, pq, pj, pd, nq >>
+
+z_si_chk(self) == /\ pc[self] = "z_si_chk"
+                  /\ IF rv[self] = 9
+                        THEN /\ pc' = [pc EXCEPT ![self] = "sy_panic"]
+                        ELSE /\ pc' = [pc EXCEPT ![self] = "si_idle"]
+                  /\ UNCHANGED << qstate, qpoll, jobs, wakeBlocked, schedule, 
+                                  pthreads, nspawned, palive, busy, busyLocked, 
+                                  inbox, chanOpen, pfin, thrHeld, maxThreads, 
+                                  jkind, jaw, fres, fwaker, gfired, gwaker, 
+                                  gthreads, dwSt, dwW, dblTaken, dblW1, dblW2, 
+                                  nextDW, ready, cwait, cnotif, cvHeld, sdres, 
+                                  jpanic, parkTok, rv, rwb, rneed, dsl, h, 
+                                  stack, dead, sti, rq, sq, sj, ww, rsq, bown, 
+                                  bwk, bi, bcur, bw, jq, jj, jwk, fj, dq, dj, 
+                                  oq, oop, omode, oj, yq, yop, tq, top, af, wf, 
+                                  wop, pf, pctx, pq, pj, pd, nq >>
 
 si_idle(self) == /\ pc[self] = "si_idle"
                  /\ qstate' = [qstate EXCEPT ![yq[self]] = "Idle"]
@@ -1788,10 +2426,11 @@ si_idle(self) == /\ pc[self] = "si_idle"
                                  chanOpen, pfin, thrHeld, maxThreads, jkind, 
                                  jaw, fres, fwaker, gfired, gwaker, gthreads, 
                                  dwSt, dwW, dblTaken, dblW1, dblW2, nextDW, 
-                                 ready, cwait, cnotif, sdres, parkTok, rv, rwb, 
-                                 rneed, h, dead, sti, sq, sj, ww, rsq, bown, 
-                                 bwk, bi, bcur, bw, fj, dq, dj, oq, oop, omode, 
-                                 oj, yq, yop, tq, top, af, pf, pctx, pq, pj, 
+                                 ready, cwait, cnotif, cvHeld, sdres, jpanic, 
+                                 parkTok, rv, rwb, rneed, dsl, h, dead, sti, 
+                                 sq, sj, ww, rsq, bown, bwk, bi, bcur, bw, jq, 
+                                 jj, jwk, fj, dq, dj, oq, oop, omode, oj, yq, 
+                                 yop, tq, top, af, wf, wop, pf, pctx, pq, pj, 
                                  pd, nq >>
 
 z_si_ret(self) == /\ pc[self] = "z_si_ret"
@@ -1805,11 +2444,12 @@ z_si_ret(self) == /\ pc[self] = "z_si_ret"
                                   inbox, chanOpen, pfin, thrHeld, maxThreads, 
                                   jkind, jaw, fres, fwaker, gfired, gwaker, 
                                   gthreads, dwSt, dwW, dblTaken, dblW1, dblW2, 
-                                  nextDW, ready, cwait, cnotif, sdres, parkTok, 
-                                  rwb, rneed, h, dead, sti, rq, sq, sj, ww, 
-                                  rsq, bown, bwk, bi, bcur, bw, fj, dq, dj, oq, 
-                                  oop, omode, oj, tq, top, af, pf, pctx, pq, 
-                                  pj, pd, nq >>
+                                  nextDW, ready, cwait, cnotif, cvHeld, sdres, 
+                                  jpanic, parkTok, rwb, rneed, dsl, h, dead, 
+                                  sti, rq, sq, sj, ww, rsq, bown, bwk, bi, 
+                                  bcur, bw, jq, jj, jwk, fj, dq, dj, oq, oop, 
+                                  omode, oj, tq, top, af, wf, wop, pf, pctx, 
+                                  pq, pj, pd, nq >>
 
 sd_push(self) == /\ pc[self] = "sd_push"
                  /\ jkind' = [jkind EXCEPT ![yop[self]] = "syncdrain"]
@@ -1818,7 +2458,7 @@ sd_push(self) == /\ pc[self] = "sd_push"
                     /\ oop' = [oop EXCEPT ![self] = yop[self]]
                     /\ oq' = [oq EXCEPT ![self] = yq[self]]
                     /\ stack' = [stack EXCEPT ![self] = << [ procedure |->  "RunOne",
-                                                             pc        |->  "sd_idle",
+                                                             pc        |->  "z_sd_chk",
                                                              oj        |->  oj[self],
                                                              oq        |->  oq[self],
                                                              oop       |->  oop[self],
@@ -1831,10 +2471,27 @@ sd_push(self) == /\ pc[self] = "sd_push"
                                  inbox, chanOpen, pfin, thrHeld, maxThreads, 
                                  jaw, fres, fwaker, gfired, gwaker, gthreads, 
                                  dwSt, dwW, dblTaken, dblW1, dblW2, nextDW, 
-                                 ready, cwait, cnotif, sdres, parkTok, rv, rwb, 
-                                 rneed, h, dead, sti, rq, sq, sj, ww, rsq, 
-                                 bown, bwk, bi, bcur, bw, fj, dq, dj, yq, yop, 
-                                 tq, top, af, pf, pctx, pq, pj, pd, nq >>
+                                 ready, cwait, cnotif, cvHeld, sdres, jpanic, 
+                                 parkTok, rv, rwb, rneed, dsl, h, dead, sti, 
+                                 rq, sq, sj, ww, rsq, bown, bwk, bi, bcur, bw, 
+                                 jq, jj, jwk, fj, dq, dj, yq, yop, tq, top, af, 
+                                 wf, wop, pf, pctx, pq, pj, pd, nq >>
+
+z_sd_chk(self) == /\ pc[self] = "z_sd_chk"
+                  /\ IF rv[self] = 9
+                        THEN /\ pc' = [pc EXCEPT ![self] = "sy_panic"]
+                        ELSE /\ pc' = [pc EXCEPT ![self] = "sd_idle"]
+                  /\ UNCHANGED << qstate, qpoll, jobs, wakeBlocked, schedule, 
+                                  pthreads, nspawned, palive, busy, busyLocked, 
+                                  inbox, chanOpen, pfin, thrHeld, maxThreads, 
+                                  jkind, jaw, fres, fwaker, gfired, gwaker, 
+                                  gthreads, dwSt, dwW, dblTaken, dblW1, dblW2, 
+                                  nextDW, ready, cwait, cnotif, cvHeld, sdres, 
+                                  jpanic, parkTok, rv, rwb, rneed, dsl, h, 
+                                  stack, dead, sti, rq, sq, sj, ww, rsq, bown, 
+                                  bwk, bi, bcur, bw, jq, jj, jwk, fj, dq, dj, 
+                                  oq, oop, omode, oj, yq, yop, tq, top, af, wf, 
+                                  wop, pf, pctx, pq, pj, pd, nq >>
 
 sd_idle(self) == /\ pc[self] = "sd_idle"
                  /\ qstate' = [qstate EXCEPT ![yq[self]] = "Idle"]
@@ -1849,25 +2506,28 @@ sd_idle(self) == /\ pc[self] = "sd_idle"
                                  chanOpen, pfin, thrHeld, maxThreads, jkind, 
                                  jaw, fres, fwaker, gfired, gwaker, gthreads, 
                                  dwSt, dwW, dblTaken, dblW1, dblW2, nextDW, 
-                                 ready, cwait, cnotif, sdres, parkTok, rv, rwb, 
-                                 rneed, h, dead, sti, sq, sj, ww, rsq, bown, 
-                                 bwk, bi, bcur, bw, fj, dq, dj, oq, oop, omode, 
-                                 oj, yq, yop, tq, top, af, pf, pctx, pq, pj, 
+                                 ready, cwait, cnotif, cvHeld, sdres, jpanic, 
+                                 parkTok, rv, rwb, rneed, dsl, h, dead, sti, 
+                                 sq, sj, ww, rsq, bown, bwk, bi, bcur, bw, jq, 
+                                 jj, jwk, fj, dq, dj, oq, oop, omode, oj, yq, 
+                                 yop, tq, top, af, wf, wop, pf, pctx, pq, pj, 
                                  pd, nq >>
 
 sb_reg(self) == /\ pc[self] = "sb_reg"
                 /\ wakeBlocked' = [wakeBlocked EXCEPT ![yq[self]] = Append(wakeBlocked[yq[self]], yop[self])]
+                /\ cvHeld' = [cvHeld EXCEPT ![yop[self]] = TRUE]
                 /\ pc' = [pc EXCEPT ![self] = "sb_push"]
                 /\ UNCHANGED << qstate, qpoll, jobs, schedule, pthreads, 
                                 nspawned, palive, busy, busyLocked, inbox, 
                                 chanOpen, pfin, thrHeld, maxThreads, jkind, 
                                 jaw, fres, fwaker, gfired, gwaker, gthreads, 
                                 dwSt, dwW, dblTaken, dblW1, dblW2, nextDW, 
-                                ready, cwait, cnotif, sdres, parkTok, rv, rwb, 
-                                rneed, h, stack, dead, sti, rq, sq, sj, ww, 
-                                rsq, bown, bwk, bi, bcur, bw, fj, dq, dj, oq, 
-                                oop, omode, oj, yq, yop, tq, top, af, pf, pctx, 
-                                pq, pj, pd, nq >>
+                                ready, cwait, cnotif, sdres, jpanic, parkTok, 
+                                rv, rwb, rneed, dsl, h, stack, dead, sti, rq, 
+                                sq, sj, ww, rsq, bown, bwk, bi, bcur, bw, jq, 
+                                jj, jwk, fj, dq, dj, oq, oop, omode, oj, yq, 
+                                yop, tq, top, af, wf, wop, pf, pctx, pq, pj, 
+                                pd, nq >>
 
 sb_push(self) == /\ pc[self] = "sb_push"
                  /\ jkind' = [jkind EXCEPT ![yop[self]] = "syncbg"]
@@ -1886,10 +2546,11 @@ sb_push(self) == /\ pc[self] = "sb_push"
                                  inbox, chanOpen, pfin, thrHeld, maxThreads, 
                                  jaw, fres, fwaker, gfired, gwaker, gthreads, 
                                  dwSt, dwW, dblTaken, dblW1, dblW2, nextDW, 
-                                 ready, cwait, cnotif, sdres, parkTok, rv, rwb, 
-                                 rneed, h, dead, sti, sq, sj, ww, rsq, bown, 
-                                 bwk, bi, bcur, bw, fj, dq, dj, oq, oop, omode, 
-                                 oj, yq, yop, tq, top, af, pf, pctx, pq, pj, 
+                                 ready, cwait, cnotif, cvHeld, sdres, jpanic, 
+                                 parkTok, rv, rwb, rneed, dsl, h, dead, sti, 
+                                 sq, sj, ww, rsq, bown, bwk, bi, bcur, bw, jq, 
+                                 jj, jwk, fj, dq, dj, oq, oop, omode, oj, yq, 
+                                 yop, tq, top, af, wf, wop, pf, pctx, pq, pj, 
                                  pd, nq >>
 
 sb_lock(self) == /\ pc[self] = "sb_lock"
@@ -1909,11 +2570,12 @@ sb_lock(self) == /\ pc[self] = "sb_lock"
                                  palive, busy, busyLocked, inbox, chanOpen, 
                                  pfin, thrHeld, maxThreads, jkind, jaw, fres, 
                                  fwaker, gfired, gwaker, gthreads, dwSt, dwW, 
-                                 dblTaken, dblW1, dblW2, nextDW, ready, sdres, 
-                                 parkTok, rv, rwb, rneed, h, stack, dead, sti, 
-                                 rq, sq, sj, ww, rsq, bown, bwk, bi, bcur, bw, 
-                                 fj, dq, dj, oq, oop, omode, oj, yq, yop, tq, 
-                                 top, af, pf, pctx, pq, pj, pd, nq >>
+                                 dblTaken, dblW1, dblW2, nextDW, ready, cvHeld, 
+                                 sdres, jpanic, parkTok, rv, rwb, rneed, dsl, 
+                                 h, stack, dead, sti, rq, sq, sj, ww, rsq, 
+                                 bown, bwk, bi, bcur, bw, jq, jj, jwk, fj, dq, 
+                                 dj, oq, oop, omode, oj, yq, yop, tq, top, af, 
+                                 wf, wop, pf, pctx, pq, pj, pd, nq >>
 
 sb_claim(self) == /\ pc[self] = "sb_claim"
                   /\ IF qstate[yq[self]] \in {"Pending", "Idle"}
@@ -1927,11 +2589,12 @@ sb_claim(self) == /\ pc[self] = "sb_claim"
                                   pfin, thrHeld, maxThreads, jkind, jaw, fres, 
                                   fwaker, gfired, gwaker, gthreads, dwSt, dwW, 
                                   dblTaken, dblW1, dblW2, nextDW, ready, cwait, 
-                                  cnotif, sdres, parkTok, rv, rwb, rneed, h, 
-                                  stack, dead, sti, rq, sq, sj, ww, rsq, bown, 
-                                  bwk, bi, bcur, bw, fj, dq, dj, oq, oop, 
-                                  omode, oj, yq, yop, tq, top, af, pf, pctx, 
-                                  pq, pj, pd, nq >>
+                                  cnotif, cvHeld, sdres, jpanic, parkTok, rv, 
+                                  rwb, rneed, dsl, h, stack, dead, sti, rq, sq, 
+                                  sj, ww, rsq, bown, bwk, bi, bcur, bw, jq, jj, 
+                                  jwk, fj, dq, dj, oq, oop, omode, oj, yq, yop, 
+                                  tq, top, af, wf, wop, pf, pctx, pq, pj, pd, 
+                                  nq >>
 
 sb_chk(self) == /\ pc[self] = "sb_chk"
                 /\ IF ~ready[yop[self]]
@@ -1939,7 +2602,7 @@ sb_chk(self) == /\ pc[self] = "sb_chk"
                               /\ oop' = [oop EXCEPT ![self] = yop[self]]
                               /\ oq' = [oq EXCEPT ![self] = yq[self]]
                               /\ stack' = [stack EXCEPT ![self] = << [ procedure |->  "RunOne",
-                                                                       pc        |->  "sb_chk",
+                                                                       pc        |->  "z_sb_chk",
                                                                        oj        |->  oj[self],
                                                                        oq        |->  oq[self],
                                                                        oop       |->  oop[self],
@@ -1954,10 +2617,11 @@ sb_chk(self) == /\ pc[self] = "sb_chk"
                                 inbox, chanOpen, pfin, thrHeld, maxThreads, 
                                 jkind, jaw, fres, fwaker, gfired, gwaker, 
                                 gthreads, dwSt, dwW, dblTaken, dblW1, dblW2, 
-                                nextDW, ready, cwait, cnotif, sdres, parkTok, 
-                                rv, rwb, rneed, h, dead, sti, rq, sq, sj, ww, 
-                                rsq, bown, bwk, bi, bcur, bw, fj, dq, dj, yq, 
-                                yop, tq, top, af, pf, pctx, pq, pj, pd, nq >>
+                                nextDW, ready, cwait, cnotif, cvHeld, sdres, 
+                                jpanic, parkTok, rv, rwb, rneed, dsl, h, dead, 
+                                sti, rq, sq, sj, ww, rsq, bown, bwk, bi, bcur, 
+                                bw, jq, jj, jwk, fj, dq, dj, yq, yop, tq, top, 
+                                af, wf, wop, pf, pctx, pq, pj, pd, nq >>
 
 sb_idle(self) == /\ pc[self] = "sb_idle"
                  /\ qstate' = [qstate EXCEPT ![yq[self]] = "Idle"]
@@ -1972,11 +2636,36 @@ sb_idle(self) == /\ pc[self] = "sb_idle"
                                  chanOpen, pfin, thrHeld, maxThreads, jkind, 
                                  jaw, fres, fwaker, gfired, gwaker, gthreads, 
                                  dwSt, dwW, dblTaken, dblW1, dblW2, nextDW, 
-                                 ready, cwait, cnotif, sdres, parkTok, rv, rwb, 
-                                 rneed, h, dead, sti, sq, sj, ww, rsq, bown, 
-                                 bwk, bi, bcur, bw, fj, dq, dj, oq, oop, omode, 
-                                 oj, yq, yop, tq, top, af, pf, pctx, pq, pj, 
+                                 ready, cwait, cnotif, cvHeld, sdres, jpanic, 
+                                 parkTok, rv, rwb, rneed, dsl, h, dead, sti, 
+                                 sq, sj, ww, rsq, bown, bwk, bi, bcur, bw, jq, 
+                                 jj, jwk, fj, dq, dj, oq, oop, omode, oj, yq, 
+                                 yop, tq, top, af, wf, wop, pf, pctx, pq, pj, 
                                  pd, nq >>
+
+z_sb_chk(self) == /\ pc[self] = "z_sb_chk"
+                  /\ IF rv[self] = 9
+                        THEN /\ cvHeld' = [cvHeld EXCEPT ![yop[self]] = (yop[self] \in SeqSet(jobs[yq[self]]))]
+                             /\ IF FixD6
+                                   THEN /\ pc' = [pc EXCEPT ![self] = "sy_panic"]
+                                        /\ UNCHANGED << rv, stack, yq, yop >>
+                                   ELSE /\ rv' = [rv EXCEPT ![self] = 2]
+                                        /\ pc' = [pc EXCEPT ![self] = Head(stack[self]).pc]
+                                        /\ yq' = [yq EXCEPT ![self] = Head(stack[self]).yq]
+                                        /\ yop' = [yop EXCEPT ![self] = Head(stack[self]).yop]
+                                        /\ stack' = [stack EXCEPT ![self] = Tail(stack[self])]
+                        ELSE /\ pc' = [pc EXCEPT ![self] = "sb_chk"]
+                             /\ UNCHANGED << cvHeld, rv, stack, yq, yop >>
+                  /\ UNCHANGED << qstate, qpoll, jobs, wakeBlocked, schedule, 
+                                  pthreads, nspawned, palive, busy, busyLocked, 
+                                  inbox, chanOpen, pfin, thrHeld, maxThreads, 
+                                  jkind, jaw, fres, fwaker, gfired, gwaker, 
+                                  gthreads, dwSt, dwW, dblTaken, dblW1, dblW2, 
+                                  nextDW, ready, cwait, cnotif, sdres, jpanic, 
+                                  parkTok, rwb, rneed, dsl, h, dead, sti, rq, 
+                                  sq, sj, ww, rsq, bown, bwk, bi, bcur, bw, jq, 
+                                  jj, jwk, fj, dq, dj, oq, oop, omode, oj, tq, 
+                                  top, af, wf, wop, pf, pctx, pq, pj, pd, nq >>
 
 sb_wait(self) == /\ pc[self] = "sb_wait"
                  /\ cnotif[yop[self]]
@@ -2006,14 +2695,16 @@ sb_wait(self) == /\ pc[self] = "sb_wait"
                                  palive, busy, busyLocked, inbox, chanOpen, 
                                  pfin, thrHeld, maxThreads, jkind, jaw, fres, 
                                  fwaker, gfired, gwaker, gthreads, dwSt, dwW, 
-                                 dblTaken, dblW1, dblW2, nextDW, ready, sdres, 
-                                 parkTok, rv, rwb, rneed, stack, dead, sti, rq, 
-                                 sq, sj, ww, rsq, bown, bwk, bi, bcur, bw, fj, 
-                                 dq, dj, oq, oop, omode, oj, yq, yop, tq, top, 
-                                 af, pf, pctx, pq, pj, pd, nq >>
+                                 dblTaken, dblW1, dblW2, nextDW, ready, cvHeld, 
+                                 sdres, jpanic, parkTok, rv, rwb, rneed, dsl, 
+                                 stack, dead, sti, rq, sq, sj, ww, rsq, bown, 
+                                 bwk, bi, bcur, bw, jq, jj, jwk, fj, dq, dj, 
+                                 oq, oop, omode, oj, yq, yop, tq, top, af, wf, 
+                                 wop, pf, pctx, pq, pj, pd, nq >>
 
 sb_fin(self) == /\ pc[self] = "sb_fin"
-                /\ wakeBlocked' = [wakeBlocked EXCEPT ![yq[self]] = SelectSeq(wakeBlocked[yq[self]], LAMBDA x : x # yop[self])]
+                /\ cvHeld' = [cvHeld EXCEPT ![yop[self]] = FALSE]
+                /\ wakeBlocked' = [wakeBlocked EXCEPT ![yq[self]] = SelectSeq(wakeBlocked[yq[self]], LAMBDA x : (x # yop[self] /\ CvAlive(x)) \/ (x = yop[self] /\ \E t \in Procs : yop[self] \in SeqSet(rwb[t])))]
                 /\ rv' = [rv EXCEPT ![self] = 0]
                 /\ pc' = [pc EXCEPT ![self] = Head(stack[self]).pc]
                 /\ yq' = [yq EXCEPT ![self] = Head(stack[self]).yq]
@@ -2024,16 +2715,36 @@ sb_fin(self) == /\ pc[self] = "sb_fin"
                                 chanOpen, pfin, thrHeld, maxThreads, jkind, 
                                 jaw, fres, fwaker, gfired, gwaker, gthreads, 
                                 dwSt, dwW, dblTaken, dblW1, dblW2, nextDW, 
-                                ready, cwait, cnotif, sdres, parkTok, rwb, 
-                                rneed, h, dead, sti, rq, sq, sj, ww, rsq, bown, 
-                                bwk, bi, bcur, bw, fj, dq, dj, oq, oop, omode, 
-                                oj, tq, top, af, pf, pctx, pq, pj, pd, nq >>
+                                ready, cwait, cnotif, sdres, jpanic, parkTok, 
+                                rwb, rneed, dsl, h, dead, sti, rq, sq, sj, ww, 
+                                rsq, bown, bwk, bi, bcur, bw, jq, jj, jwk, fj, 
+                                dq, dj, oq, oop, omode, oj, tq, top, af, wf, 
+                                wop, pf, pctx, pq, pj, pd, nq >>
 
-Sync(self) == sy_decide(self) \/ si_idle(self) \/ z_si_ret(self)
-                 \/ sd_push(self) \/ sd_idle(self) \/ sb_reg(self)
-                 \/ sb_push(self) \/ sb_lock(self) \/ sb_claim(self)
-                 \/ sb_chk(self) \/ sb_idle(self) \/ sb_wait(self)
-                 \/ sb_fin(self)
+sy_panic(self) == /\ pc[self] = "sy_panic"
+                  /\ qstate' = [qstate EXCEPT ![yq[self]] = "Panicked"]
+                  /\ rv' = [rv EXCEPT ![self] = 2]
+                  /\ pc' = [pc EXCEPT ![self] = Head(stack[self]).pc]
+                  /\ yq' = [yq EXCEPT ![self] = Head(stack[self]).yq]
+                  /\ yop' = [yop EXCEPT ![self] = Head(stack[self]).yop]
+                  /\ stack' = [stack EXCEPT ![self] = Tail(stack[self])]
+                  /\ UNCHANGED << qpoll, jobs, wakeBlocked, schedule, pthreads, 
+                                  nspawned, palive, busy, busyLocked, inbox, 
+                                  chanOpen, pfin, thrHeld, maxThreads, jkind, 
+                                  jaw, fres, fwaker, gfired, gwaker, gthreads, 
+                                  dwSt, dwW, dblTaken, dblW1, dblW2, nextDW, 
+                                  ready, cwait, cnotif, cvHeld, sdres, jpanic, 
+                                  parkTok, rwb, rneed, dsl, h, dead, sti, rq, 
+                                  sq, sj, ww, rsq, bown, bwk, bi, bcur, bw, jq, 
+                                  jj, jwk, fj, dq, dj, oq, oop, omode, oj, tq, 
+                                  top, af, wf, wop, pf, pctx, pq, pj, pd, nq >>
+
+Sync(self) == sy_decide(self) \/ z_si_chk(self) \/ si_idle(self)
+                 \/ z_si_ret(self) \/ sd_push(self) \/ z_sd_chk(self)
+                 \/ sd_idle(self) \/ sb_reg(self) \/ sb_push(self)
+                 \/ sb_lock(self) \/ sb_claim(self) \/ sb_chk(self)
+                 \/ sb_idle(self) \/ z_sb_chk(self) \/ sb_wait(self)
+                 \/ sb_fin(self) \/ sy_panic(self)
 
 ts_decide(self) == /\ pc[self] = "ts_decide"
                    /\ IF qstate[tq[self]] = "Idle"
@@ -2047,27 +2758,19 @@ ts_decide(self) == /\ pc[self] = "ts_decide"
                                          /\ tq' = [tq EXCEPT ![self] = Head(stack[self]).tq]
                                          /\ top' = [top EXCEPT ![self] = Head(stack[self]).top]
                                          /\ stack' = [stack EXCEPT ![self] = Tail(stack[self])]
-                                         /\ UNCHANGED << jkind, h, rsq, bown, 
-                                                         bwk, bi, bcur, bw >>
+                                         /\ UNCHANGED << jkind, jq, jj, jwk >>
                                     ELSE /\ qstate' = [qstate EXCEPT ![tq[self]] = "Running"]
                                          /\ jkind' = [jkind EXCEPT ![top[self]] = "imm"]
-                                         /\ h' = ObsStart(h, self, top[self])
-                                         /\ /\ bown' = [bown EXCEPT ![self] = top[self]]
-                                            /\ bwk' = [bwk EXCEPT ![self] = NoW]
-                                            /\ rsq' = [rsq EXCEPT ![self] = Body(top[self])]
-                                            /\ stack' = [stack EXCEPT ![self] = << [ procedure |->  "RunOps",
-                                                                                     pc        |->  "ts_idle",
-                                                                                     bi        |->  bi[self],
-                                                                                     bcur      |->  bcur[self],
-                                                                                     bw        |->  bw[self],
-                                                                                     rsq       |->  rsq[self],
-                                                                                     bown      |->  bown[self],
-                                                                                     bwk       |->  bwk[self] ] >>
+                                         /\ /\ jj' = [jj EXCEPT ![self] = top[self]]
+                                            /\ jq' = [jq EXCEPT ![self] = tq[self]]
+                                            /\ jwk' = [jwk EXCEPT ![self] = NoW]
+                                            /\ stack' = [stack EXCEPT ![self] = << [ procedure |->  "RunJob",
+                                                                                     pc        |->  "z_ts_chk",
+                                                                                     jq        |->  jq[self],
+                                                                                     jj        |->  jj[self],
+                                                                                     jwk       |->  jwk[self] ] >>
                                                                                  \o stack[self]]
-                                         /\ bi' = [bi EXCEPT ![self] = 0]
-                                         /\ bcur' = [bcur EXCEPT ![self] = 0]
-                                         /\ bw' = [bw EXCEPT ![self] = NoW]
-                                         /\ pc' = [pc EXCEPT ![self] = "rb_step"]
+                                         /\ pc' = [pc EXCEPT ![self] = "z_rj"]
                                          /\ UNCHANGED << rv, tq, top >>
                          ELSE /\ IF qstate[tq[self]] = "Panicked"
                                     THEN /\ rv' = [rv EXCEPT ![self] = 2]
@@ -2080,17 +2783,34 @@ ts_decide(self) == /\ pc[self] = "ts_decide"
                                          /\ tq' = [tq EXCEPT ![self] = Head(stack[self]).tq]
                                          /\ top' = [top EXCEPT ![self] = Head(stack[self]).top]
                                          /\ stack' = [stack EXCEPT ![self] = Tail(stack[self])]
-                              /\ UNCHANGED << qstate, jkind, h, rsq, bown, bwk, 
-                                              bi, bcur, bw >>
+                              /\ UNCHANGED << qstate, jkind, jq, jj, jwk >>
                    /\ UNCHANGED << qpoll, jobs, wakeBlocked, schedule, 
                                    pthreads, nspawned, palive, busy, 
                                    busyLocked, inbox, chanOpen, pfin, thrHeld, 
                                    maxThreads, jaw, fres, fwaker, gfired, 
                                    gwaker, gthreads, dwSt, dwW, dblTaken, 
                                    dblW1, dblW2, nextDW, ready, cwait, cnotif, 
-                                   sdres, parkTok, rwb, rneed, dead, sti, rq, 
-                                   sq, sj, ww, fj, dq, dj, oq, oop, omode, oj, 
-                                   yq, yop, af, pf, pctx, pq, pj, pd, nq >>
+                                   cvHeld, sdres, jpanic, parkTok, rwb, rneed, 
+                                   dsl, h, dead, sti, rq, sq, sj, ww, rsq, 
+                                   bown, bwk, bi, bcur, bw, fj, dq, dj, oq, 
+                                   oop, omode, oj, yq, yop, af, wf, wop, pf, 
+                                   pctx, pq, pj, pd, nq >>
+
+z_ts_chk(self) == /\ pc[self] = "z_ts_chk"
+                  /\ IF rv[self] = 9
+                        THEN /\ pc' = [pc EXCEPT ![self] = "ts_panic"]
+                        ELSE /\ pc' = [pc EXCEPT ![self] = "ts_idle"]
+                  /\ UNCHANGED << qstate, qpoll, jobs, wakeBlocked, schedule, 
+                                  pthreads, nspawned, palive, busy, busyLocked, 
+                                  inbox, chanOpen, pfin, thrHeld, maxThreads, 
+                                  jkind, jaw, fres, fwaker, gfired, gwaker, 
+                                  gthreads, dwSt, dwW, dblTaken, dblW1, dblW2, 
+                                  nextDW, ready, cwait, cnotif, cvHeld, sdres, 
+                                  jpanic, parkTok, rv, rwb, rneed, dsl, h, 
+                                  stack, dead, sti, rq, sq, sj, ww, rsq, bown, 
+                                  bwk, bi, bcur, bw, jq, jj, jwk, fj, dq, dj, 
+                                  oq, oop, omode, oj, yq, yop, tq, top, af, wf, 
+                                  wop, pf, pctx, pq, pj, pd, nq >>
 
 ts_idle(self) == /\ pc[self] = "ts_idle"
                  /\ qstate' = [qstate EXCEPT ![tq[self]] = "Idle"]
@@ -2105,10 +2825,11 @@ ts_idle(self) == /\ pc[self] = "ts_idle"
                                  chanOpen, pfin, thrHeld, maxThreads, jkind, 
                                  jaw, fres, fwaker, gfired, gwaker, gthreads, 
                                  dwSt, dwW, dblTaken, dblW1, dblW2, nextDW, 
-                                 ready, cwait, cnotif, sdres, parkTok, rv, rwb, 
-                                 rneed, h, dead, sti, sq, sj, ww, rsq, bown, 
-                                 bwk, bi, bcur, bw, fj, dq, dj, oq, oop, omode, 
-                                 oj, yq, yop, tq, top, af, pf, pctx, pq, pj, 
+                                 ready, cwait, cnotif, cvHeld, sdres, jpanic, 
+                                 parkTok, rv, rwb, rneed, dsl, h, dead, sti, 
+                                 sq, sj, ww, rsq, bown, bwk, bi, bcur, bw, jq, 
+                                 jj, jwk, fj, dq, dj, oq, oop, omode, oj, yq, 
+                                 yop, tq, top, af, wf, wop, pf, pctx, pq, pj, 
                                  pd, nq >>
 
 z_ts_ret(self) == /\ pc[self] = "z_ts_ret"
@@ -2122,13 +2843,33 @@ z_ts_ret(self) == /\ pc[self] = "z_ts_ret"
                                   inbox, chanOpen, pfin, thrHeld, maxThreads, 
                                   jkind, jaw, fres, fwaker, gfired, gwaker, 
                                   gthreads, dwSt, dwW, dblTaken, dblW1, dblW2, 
-                                  nextDW, ready, cwait, cnotif, sdres, parkTok, 
-                                  rwb, rneed, h, dead, sti, rq, sq, sj, ww, 
-                                  rsq, bown, bwk, bi, bcur, bw, fj, dq, dj, oq, 
-                                  oop, omode, oj, yq, yop, af, pf, pctx, pq, 
-                                  pj, pd, nq >>
+                                  nextDW, ready, cwait, cnotif, cvHeld, sdres, 
+                                  jpanic, parkTok, rwb, rneed, dsl, h, dead, 
+                                  sti, rq, sq, sj, ww, rsq, bown, bwk, bi, 
+                                  bcur, bw, jq, jj, jwk, fj, dq, dj, oq, oop, 
+                                  omode, oj, yq, yop, af, wf, wop, pf, pctx, 
+                                  pq, pj, pd, nq >>
 
-TrySync(self) == ts_decide(self) \/ ts_idle(self) \/ z_ts_ret(self)
+ts_panic(self) == /\ pc[self] = "ts_panic"
+                  /\ qstate' = [qstate EXCEPT ![tq[self]] = "Panicked"]
+                  /\ rv' = [rv EXCEPT ![self] = 2]
+                  /\ pc' = [pc EXCEPT ![self] = Head(stack[self]).pc]
+                  /\ tq' = [tq EXCEPT ![self] = Head(stack[self]).tq]
+                  /\ top' = [top EXCEPT ![self] = Head(stack[self]).top]
+                  /\ stack' = [stack EXCEPT ![self] = Tail(stack[self])]
+                  /\ UNCHANGED << qpoll, jobs, wakeBlocked, schedule, pthreads, 
+                                  nspawned, palive, busy, busyLocked, inbox, 
+                                  chanOpen, pfin, thrHeld, maxThreads, jkind, 
+                                  jaw, fres, fwaker, gfired, gwaker, gthreads, 
+                                  dwSt, dwW, dblTaken, dblW1, dblW2, nextDW, 
+                                  ready, cwait, cnotif, cvHeld, sdres, jpanic, 
+                                  parkTok, rwb, rneed, dsl, h, dead, sti, rq, 
+                                  sq, sj, ww, rsq, bown, bwk, bi, bcur, bw, jq, 
+                                  jj, jwk, fj, dq, dj, oq, oop, omode, oj, yq, 
+                                  yop, af, wf, wop, pf, pctx, pq, pj, pd, nq >>
+
+TrySync(self) == ts_decide(self) \/ z_ts_chk(self) \/ ts_idle(self)
+                    \/ z_ts_ret(self) \/ ts_panic(self)
 
 z_aw_poll(self) == /\ pc[self] = "z_aw_poll"
                    /\ /\ pctx' = [pctx EXCEPT ![self] = TASK(self)]
@@ -2151,10 +2892,11 @@ z_aw_poll(self) == /\ pc[self] = "z_aw_poll"
                                    maxThreads, jkind, jaw, fres, fwaker, 
                                    gfired, gwaker, gthreads, dwSt, dwW, 
                                    dblTaken, dblW1, dblW2, nextDW, ready, 
-                                   cwait, cnotif, sdres, parkTok, rv, rwb, 
-                                   rneed, h, dead, sti, rq, sq, sj, ww, rsq, 
-                                   bown, bwk, bi, bcur, bw, fj, dq, dj, oq, 
-                                   oop, omode, oj, yq, yop, tq, top, af, nq >>
+                                   cwait, cnotif, cvHeld, sdres, jpanic, 
+                                   parkTok, rv, rwb, rneed, dsl, h, dead, sti, 
+                                   rq, sq, sj, ww, rsq, bown, bwk, bi, bcur, 
+                                   bw, jq, jj, jwk, fj, dq, dj, oq, oop, omode, 
+                                   oj, yq, yop, tq, top, af, wf, wop, nq >>
 
 z_aw_after(self) == /\ pc[self] = "z_aw_after"
                     /\ IF rv[self] = 5
@@ -2173,11 +2915,12 @@ z_aw_after(self) == /\ pc[self] = "z_aw_after"
                                     maxThreads, jkind, jaw, fres, fwaker, 
                                     gfired, gwaker, gthreads, dwSt, dwW, 
                                     dblTaken, dblW1, dblW2, nextDW, ready, 
-                                    cwait, cnotif, sdres, parkTok, rv, rwb, 
-                                    rneed, dead, sti, rq, sq, sj, ww, rsq, 
-                                    bown, bwk, bi, bcur, bw, fj, dq, dj, oq, 
-                                    oop, omode, oj, yq, yop, tq, top, pf, pctx, 
-                                    pq, pj, pd, nq >>
+                                    cwait, cnotif, cvHeld, sdres, jpanic, 
+                                    parkTok, rv, rwb, rneed, dsl, dead, sti, 
+                                    rq, sq, sj, ww, rsq, bown, bwk, bi, bcur, 
+                                    bw, jq, jj, jwk, fj, dq, dj, oq, oop, 
+                                    omode, oj, yq, yop, tq, top, wf, wop, pf, 
+                                    pctx, pq, pj, pd, nq >>
 
 aw_park(self) == /\ pc[self] = "aw_park"
                  /\ parkTok[self]
@@ -2188,13 +2931,138 @@ aw_park(self) == /\ pc[self] = "aw_park"
                                  inbox, chanOpen, pfin, thrHeld, maxThreads, 
                                  jkind, jaw, fres, fwaker, gfired, gwaker, 
                                  gthreads, dwSt, dwW, dblTaken, dblW1, dblW2, 
-                                 nextDW, ready, cwait, cnotif, sdres, rv, rwb, 
-                                 rneed, h, stack, dead, sti, rq, sq, sj, ww, 
-                                 rsq, bown, bwk, bi, bcur, bw, fj, dq, dj, oq, 
-                                 oop, omode, oj, yq, yop, tq, top, af, pf, 
-                                 pctx, pq, pj, pd, nq >>
+                                 nextDW, ready, cwait, cnotif, cvHeld, sdres, 
+                                 jpanic, rv, rwb, rneed, dsl, h, stack, dead, 
+                                 sti, rq, sq, sj, ww, rsq, bown, bwk, bi, bcur, 
+                                 bw, jq, jj, jwk, fj, dq, dj, oq, oop, omode, 
+                                 oj, yq, yop, tq, top, af, wf, wop, pf, pctx, 
+                                 pq, pj, pd, nq >>
 
 Await(self) == z_aw_poll(self) \/ z_aw_after(self) \/ aw_park(self)
+
+fs_take(self) == /\ pc[self] = "fs_take"
+                 /\ IF fres[wf[self]] = "some"
+                       THEN /\ fres' = [fres EXCEPT ![wf[self]] = "taken"]
+                            /\ h' = ObsResolved(h, self, wf[self], 0)
+                            /\ rv' = [rv EXCEPT ![self] = 0]
+                            /\ pc' = [pc EXCEPT ![self] = Head(stack[self]).pc]
+                            /\ wf' = [wf EXCEPT ![self] = Head(stack[self]).wf]
+                            /\ wop' = [wop EXCEPT ![self] = Head(stack[self]).wop]
+                            /\ stack' = [stack EXCEPT ![self] = Tail(stack[self])]
+                            /\ UNCHANGED << yq, yop >>
+                       ELSE /\ IF fres[wf[self]] = "cancelled"
+                                  THEN /\ fres' = [fres EXCEPT ![wf[self]] = "taken"]
+                                       /\ h' = ObsResolved(h, self, wf[self], 4)
+                                       /\ rv' = [rv EXCEPT ![self] = 4]
+                                       /\ pc' = [pc EXCEPT ![self] = Head(stack[self]).pc]
+                                       /\ wf' = [wf EXCEPT ![self] = Head(stack[self]).wf]
+                                       /\ wop' = [wop EXCEPT ![self] = Head(stack[self]).wop]
+                                       /\ stack' = [stack EXCEPT ![self] = Tail(stack[self])]
+                                       /\ UNCHANGED << yq, yop >>
+                                  ELSE /\ /\ stack' = [stack EXCEPT ![self] = << [ procedure |->  "Sync",
+                                                                                   pc        |->  "z_fs_after",
+                                                                                   yq        |->  yq[self],
+                                                                                   yop       |->  yop[self] ] >>
+                                                                               \o stack[self]]
+                                          /\ yop' = [yop EXCEPT ![self] = wop[self]]
+                                          /\ yq' = [yq EXCEPT ![self] = O(wf[self])]
+                                       /\ pc' = [pc EXCEPT ![self] = "sy_decide"]
+                                       /\ UNCHANGED << fres, rv, h, wf, wop >>
+                 /\ UNCHANGED << qstate, qpoll, jobs, wakeBlocked, schedule, 
+                                 pthreads, nspawned, palive, busy, busyLocked, 
+                                 inbox, chanOpen, pfin, thrHeld, maxThreads, 
+                                 jkind, jaw, fwaker, gfired, gwaker, gthreads, 
+                                 dwSt, dwW, dblTaken, dblW1, dblW2, nextDW, 
+                                 ready, cwait, cnotif, cvHeld, sdres, jpanic, 
+                                 parkTok, rwb, rneed, dsl, dead, sti, rq, sq, 
+                                 sj, ww, rsq, bown, bwk, bi, bcur, bw, jq, jj, 
+                                 jwk, fj, dq, dj, oq, oop, omode, oj, tq, top, 
+                                 af, pf, pctx, pq, pj, pd, nq >>
+
+z_fs_after(self) == /\ pc[self] = "z_fs_after"
+                    /\ IF rv[self] = 0
+                          THEN /\ h' = ObsResolved(h, self, wf[self], 0)
+                          ELSE /\ TRUE
+                               /\ h' = h
+                    /\ pc' = [pc EXCEPT ![self] = Head(stack[self]).pc]
+                    /\ wf' = [wf EXCEPT ![self] = Head(stack[self]).wf]
+                    /\ wop' = [wop EXCEPT ![self] = Head(stack[self]).wop]
+                    /\ stack' = [stack EXCEPT ![self] = Tail(stack[self])]
+                    /\ UNCHANGED << qstate, qpoll, jobs, wakeBlocked, schedule, 
+                                    pthreads, nspawned, palive, busy, 
+                                    busyLocked, inbox, chanOpen, pfin, thrHeld, 
+                                    maxThreads, jkind, jaw, fres, fwaker, 
+                                    gfired, gwaker, gthreads, dwSt, dwW, 
+                                    dblTaken, dblW1, dblW2, nextDW, ready, 
+                                    cwait, cnotif, cvHeld, sdres, jpanic, 
+                                    parkTok, rv, rwb, rneed, dsl, dead, sti, 
+                                    rq, sq, sj, ww, rsq, bown, bwk, bi, bcur, 
+                                    bw, jq, jj, jwk, fj, dq, dj, oq, oop, 
+                                    omode, oj, yq, yop, tq, top, af, pf, pctx, 
+                                    pq, pj, pd, nq >>
+
+WaitSync(self) == fs_take(self) \/ z_fs_after(self)
+
+ds_max(self) == /\ pc[self] = "ds_max"
+                /\ TRUE
+                /\ pc' = [pc EXCEPT ![self] = "ds_pop"]
+                /\ UNCHANGED << qstate, qpoll, jobs, wakeBlocked, schedule, 
+                                pthreads, nspawned, palive, busy, busyLocked, 
+                                inbox, chanOpen, pfin, thrHeld, maxThreads, 
+                                jkind, jaw, fres, fwaker, gfired, gwaker, 
+                                gthreads, dwSt, dwW, dblTaken, dblW1, dblW2, 
+                                nextDW, ready, cwait, cnotif, cvHeld, sdres, 
+                                jpanic, parkTok, rv, rwb, rneed, dsl, h, stack, 
+                                dead, sti, rq, sq, sj, ww, rsq, bown, bwk, bi, 
+                                bcur, bw, jq, jj, jwk, fj, dq, dj, oq, oop, 
+                                omode, oj, yq, yop, tq, top, af, wf, wop, pf, 
+                                pctx, pq, pj, pd, nq >>
+
+ds_pop(self) == /\ pc[self] = "ds_pop"
+                /\ thrHeld = ""
+                /\ dsl' = [dsl EXCEPT ![self] = [i \in 1..(IF Len(pthreads) > maxThreads THEN Len(pthreads) - maxThreads ELSE 0) |-> pthreads[Len(pthreads) + 1 - i]]]
+                /\ chanOpen' = [p \in PoolSet |-> chanOpen[p] /\ ~(\E i \in (maxThreads + 1)..Len(pthreads) : pthreads[i] = p)]
+                /\ pthreads' = SubSeq(pthreads, 1, IF Len(pthreads) > maxThreads THEN maxThreads ELSE Len(pthreads))
+                /\ IF dsl'[self] = << >>
+                      THEN /\ rv' = [rv EXCEPT ![self] = 0]
+                           /\ pc' = [pc EXCEPT ![self] = Head(stack[self]).pc]
+                           /\ stack' = [stack EXCEPT ![self] = Tail(stack[self])]
+                      ELSE /\ pc' = [pc EXCEPT ![self] = "ds_join"]
+                           /\ UNCHANGED << rv, stack >>
+                /\ UNCHANGED << qstate, qpoll, jobs, wakeBlocked, schedule, 
+                                nspawned, palive, busy, busyLocked, inbox, 
+                                pfin, thrHeld, maxThreads, jkind, jaw, fres, 
+                                fwaker, gfired, gwaker, gthreads, dwSt, dwW, 
+                                dblTaken, dblW1, dblW2, nextDW, ready, cwait, 
+                                cnotif, cvHeld, sdres, jpanic, parkTok, rwb, 
+                                rneed, h, dead, sti, rq, sq, sj, ww, rsq, bown, 
+                                bwk, bi, bcur, bw, jq, jj, jwk, fj, dq, dj, oq, 
+                                oop, omode, oj, yq, yop, tq, top, af, wf, wop, 
+                                pf, pctx, pq, pj, pd, nq >>
+
+ds_join(self) == /\ pc[self] = "ds_join"
+                 /\ pfin[Head(dsl[self])]
+                 /\ h' = ObsBlocked(h, self)
+                 /\ dsl' = [dsl EXCEPT ![self] = Tail(dsl[self])]
+                 /\ IF Len(dsl'[self]) > 0
+                       THEN /\ pc' = [pc EXCEPT ![self] = "ds_join"]
+                            /\ UNCHANGED << rv, stack >>
+                       ELSE /\ rv' = [rv EXCEPT ![self] = 0]
+                            /\ pc' = [pc EXCEPT ![self] = Head(stack[self]).pc]
+                            /\ stack' = [stack EXCEPT ![self] = Tail(stack[self])]
+                 /\ UNCHANGED << qstate, qpoll, jobs, wakeBlocked, schedule, 
+                                 pthreads, nspawned, palive, busy, busyLocked, 
+                                 inbox, chanOpen, pfin, thrHeld, maxThreads, 
+                                 jkind, jaw, fres, fwaker, gfired, gwaker, 
+                                 gthreads, dwSt, dwW, dblTaken, dblW1, dblW2, 
+                                 nextDW, ready, cwait, cnotif, cvHeld, sdres, 
+                                 jpanic, parkTok, rwb, rneed, dead, sti, rq, 
+                                 sq, sj, ww, rsq, bown, bwk, bi, bcur, bw, jq, 
+                                 jj, jwk, fj, dq, dj, oq, oop, omode, oj, yq, 
+                                 yop, tq, top, af, wf, wop, pf, pctx, pq, pj, 
+                                 pd, nq >>
+
+Despawn(self) == ds_max(self) \/ ds_pop(self) \/ ds_join(self)
 
 pf_decide(self) == /\ pc[self] = "pf_decide"
                    /\ IF fres[pf[self]] = "some"
@@ -2208,10 +3076,9 @@ pf_decide(self) == /\ pc[self] = "pf_decide"
                               /\ pctx' = [pctx EXCEPT ![self] = Head(stack[self]).pctx]
                               /\ stack' = [stack EXCEPT ![self] = Tail(stack[self])]
                               /\ UNCHANGED << qstate, qpoll, fwaker >>
-                         ELSE /\ IF qstate[O(pf[self])] \in {"Running", "WaitingForWake", "WaitingForUnpark", "AwokenWhileRunning"}
-                                    \/ (qstate[O(pf[self])] = "WaitingForPoll" /\ qpoll[O(pf[self])] # pf[self])
-                                    THEN /\ fwaker' = [fwaker EXCEPT ![pf[self]] = pctx[self]]
-                                         /\ rv' = [rv EXCEPT ![self] = 5]
+                         ELSE /\ IF fres[pf[self]] = "cancelled"
+                                    THEN /\ fres' = [fres EXCEPT ![pf[self]] = "taken"]
+                                         /\ rv' = [rv EXCEPT ![self] = 4]
                                          /\ pc' = [pc EXCEPT ![self] = Head(stack[self]).pc]
                                          /\ pq' = [pq EXCEPT ![self] = Head(stack[self]).pq]
                                          /\ pj' = [pj EXCEPT ![self] = Head(stack[self]).pj]
@@ -2219,10 +3086,11 @@ pf_decide(self) == /\ pc[self] = "pf_decide"
                                          /\ pf' = [pf EXCEPT ![self] = Head(stack[self]).pf]
                                          /\ pctx' = [pctx EXCEPT ![self] = Head(stack[self]).pctx]
                                          /\ stack' = [stack EXCEPT ![self] = Tail(stack[self])]
-                                         /\ UNCHANGED << qstate, qpoll >>
-                                    ELSE /\ IF qstate[O(pf[self])] = "Panicked"
+                                         /\ UNCHANGED << qstate, qpoll, fwaker >>
+                                    ELSE /\ IF qstate[O(pf[self])] \in {"Running", "WaitingForWake", "WaitingForUnpark", "AwokenWhileRunning"}
+                                               \/ (qstate[O(pf[self])] = "WaitingForPoll" /\ qpoll[O(pf[self])] # pf[self])
                                                THEN /\ fwaker' = [fwaker EXCEPT ![pf[self]] = pctx[self]]
-                                                    /\ rv' = [rv EXCEPT ![self] = 2]
+                                                    /\ rv' = [rv EXCEPT ![self] = 5]
                                                     /\ pc' = [pc EXCEPT ![self] = Head(stack[self]).pc]
                                                     /\ pq' = [pq EXCEPT ![self] = Head(stack[self]).pq]
                                                     /\ pj' = [pj EXCEPT ![self] = Head(stack[self]).pj]
@@ -2232,114 +3100,129 @@ pf_decide(self) == /\ pc[self] = "pf_decide"
                                                     /\ stack' = [stack EXCEPT ![self] = Tail(stack[self])]
                                                     /\ UNCHANGED << qstate, 
                                                                     qpoll >>
-                                               ELSE /\ pq' = [pq EXCEPT ![self] = O(pf[self])]
-                                                    /\ qstate' = [qstate EXCEPT ![O(pf[self])] = "Running"]
-                                                    /\ qpoll' = [qpoll EXCEPT ![O(pf[self])] = 0]
-                                                    /\ pc' = [pc EXCEPT ![self] = "dq_res"]
-                                                    /\ UNCHANGED << fwaker, rv, 
-                                                                    stack, pf, 
-                                                                    pctx, pj, 
-                                                                    pd >>
-                              /\ fres' = fres
+                                               ELSE /\ IF qstate[O(pf[self])] = "Panicked"
+                                                          THEN /\ fwaker' = [fwaker EXCEPT ![pf[self]] = pctx[self]]
+                                                               /\ rv' = [rv EXCEPT ![self] = 2]
+                                                               /\ pc' = [pc EXCEPT ![self] = Head(stack[self]).pc]
+                                                               /\ pq' = [pq EXCEPT ![self] = Head(stack[self]).pq]
+                                                               /\ pj' = [pj EXCEPT ![self] = Head(stack[self]).pj]
+                                                               /\ pd' = [pd EXCEPT ![self] = Head(stack[self]).pd]
+                                                               /\ pf' = [pf EXCEPT ![self] = Head(stack[self]).pf]
+                                                               /\ pctx' = [pctx EXCEPT ![self] = Head(stack[self]).pctx]
+                                                               /\ stack' = [stack EXCEPT ![self] = Tail(stack[self])]
+                                                               /\ UNCHANGED << qstate, 
+                                                                               qpoll >>
+                                                          ELSE /\ pq' = [pq EXCEPT ![self] = O(pf[self])]
+                                                               /\ qstate' = [qstate EXCEPT ![O(pf[self])] = "Running"]
+                                                               /\ qpoll' = [qpoll EXCEPT ![O(pf[self])] = 0]
+                                                               /\ pc' = [pc EXCEPT ![self] = "dq_res"]
+                                                               /\ UNCHANGED << fwaker, 
+                                                                               rv, 
+                                                                               stack, 
+                                                                               pf, 
+                                                                               pctx, 
+                                                                               pj, 
+                                                                               pd >>
+                                         /\ fres' = fres
                    /\ UNCHANGED << jobs, wakeBlocked, schedule, pthreads, 
                                    nspawned, palive, busy, busyLocked, inbox, 
                                    chanOpen, pfin, thrHeld, maxThreads, jkind, 
                                    jaw, gfired, gwaker, gthreads, dwSt, dwW, 
                                    dblTaken, dblW1, dblW2, nextDW, ready, 
-                                   cwait, cnotif, sdres, parkTok, rwb, rneed, 
-                                   h, dead, sti, rq, sq, sj, ww, rsq, bown, 
-                                   bwk, bi, bcur, bw, fj, dq, dj, oq, oop, 
-                                   omode, oj, yq, yop, tq, top, af, nq >>
+                                   cwait, cnotif, cvHeld, sdres, jpanic, 
+                                   parkTok, rwb, rneed, dsl, h, dead, sti, rq, 
+                                   sq, sj, ww, rsq, bown, bwk, bi, bcur, bw, 
+                                   jq, jj, jwk, fj, dq, dj, oq, oop, omode, oj, 
+                                   yq, yop, tq, top, af, wf, wop, nq >>
 
 dq_res(self) == /\ pc[self] = "dq_res"
                 /\ IF fres[pf[self]] = "some"
                       THEN /\ fres' = [fres EXCEPT ![pf[self]] = "taken"]
+                           /\ rv' = [rv EXCEPT ![self] = 0]
                            /\ pc' = [pc EXCEPT ![self] = "dq_idle"]
-                      ELSE /\ pc' = [pc EXCEPT ![self] = "dq_deq"]
-                           /\ fres' = fres
+                      ELSE /\ IF fres[pf[self]] = "cancelled"
+                                 THEN /\ fres' = [fres EXCEPT ![pf[self]] = "taken"]
+                                      /\ rv' = [rv EXCEPT ![self] = 4]
+                                      /\ pc' = [pc EXCEPT ![self] = "dq_idle"]
+                                 ELSE /\ pc' = [pc EXCEPT ![self] = "dq_deq"]
+                                      /\ UNCHANGED << fres, rv >>
                 /\ UNCHANGED << qstate, qpoll, jobs, wakeBlocked, schedule, 
                                 pthreads, nspawned, palive, busy, busyLocked, 
                                 inbox, chanOpen, pfin, thrHeld, maxThreads, 
                                 jkind, jaw, fwaker, gfired, gwaker, gthreads, 
                                 dwSt, dwW, dblTaken, dblW1, dblW2, nextDW, 
-                                ready, cwait, cnotif, sdres, parkTok, rv, rwb, 
-                                rneed, h, stack, dead, sti, rq, sq, sj, ww, 
-                                rsq, bown, bwk, bi, bcur, bw, fj, dq, dj, oq, 
-                                oop, omode, oj, yq, yop, tq, top, af, pf, pctx, 
-                                pq, pj, pd, nq >>
+                                ready, cwait, cnotif, cvHeld, sdres, jpanic, 
+                                parkTok, rwb, rneed, dsl, h, stack, dead, sti, 
+                                rq, sq, sj, ww, rsq, bown, bwk, bi, bcur, bw, 
+                                jq, jj, jwk, fj, dq, dj, oq, oop, omode, oj, 
+                                yq, yop, tq, top, af, wf, wop, pf, pctx, pq, 
+                                pj, pd, nq >>
 
 dq_deq(self) == /\ pc[self] = "dq_deq"
                 /\ IF qstate[pq[self]] \in Waiting \/ jobs[pq[self]] = << >>
                       THEN /\ pc' = [pc EXCEPT ![self] = "dq_empty_w"]
-                           /\ UNCHANGED << jobs, gwaker, nextDW, rv, h, stack, 
-                                           rsq, bown, bwk, bi, bcur, bw, pj, 
-                                           pd >>
+                           /\ UNCHANGED << jobs, nextDW, stack, jq, jj, jwk, 
+                                           pj, pd >>
                       ELSE /\ pj' = [pj EXCEPT ![self] = Head(jobs[pq[self]])]
                            /\ jobs' = [jobs EXCEPT ![pq[self]] = Tail(jobs[pq[self]])]
                            /\ pd' = [pd EXCEPT ![self] = nextDW]
                            /\ nextDW' = nextDW + 1
-                           /\ IF jkind[pj'[self]] = "fut" /\ jaw[pj'[self]] > 0
-                                 THEN /\ IF Aw(pj'[self])[jaw[pj'[self]]] \notin gfired
-                                            THEN /\ gwaker' = [gwaker EXCEPT ![Aw(pj'[self])[jaw[pj'[self]]]] = DW(pd'[self])]
-                                                 /\ rv' = [rv EXCEPT ![self] = 5]
-                                            ELSE /\ TRUE
-                                                 /\ UNCHANGED << gwaker, rv >>
-                                      /\ h' = h
-                                 ELSE /\ h' = ObsStart(h, self, pj'[self])
-                                      /\ UNCHANGED << gwaker, rv >>
-                           /\ IF ImmPending(pj'[self])
-                                 THEN /\ pc' = [pc EXCEPT ![self] = "dq_requeue"]
-                                      /\ UNCHANGED << stack, rsq, bown, bwk, 
-                                                      bi, bcur, bw >>
-                                 ELSE /\ /\ bown' = [bown EXCEPT ![self] = pj'[self]]
-                                         /\ bwk' = [bwk EXCEPT ![self] = DW(pd'[self])]
-                                         /\ rsq' = [rsq EXCEPT ![self] = Body(pj'[self])]
-                                         /\ stack' = [stack EXCEPT ![self] = << [ procedure |->  "RunOps",
-                                                                                  pc        |->  "z_dq_after",
-                                                                                  bi        |->  bi[self],
-                                                                                  bcur      |->  bcur[self],
-                                                                                  bw        |->  bw[self],
-                                                                                  rsq       |->  rsq[self],
-                                                                                  bown      |->  bown[self],
-                                                                                  bwk       |->  bwk[self] ] >>
-                                                                              \o stack[self]]
-                                      /\ bi' = [bi EXCEPT ![self] = 0]
-                                      /\ bcur' = [bcur EXCEPT ![self] = 0]
-                                      /\ bw' = [bw EXCEPT ![self] = NoW]
-                                      /\ pc' = [pc EXCEPT ![self] = "rb_step"]
+                           /\ /\ jj' = [jj EXCEPT ![self] = pj'[self]]
+                              /\ jq' = [jq EXCEPT ![self] = pq[self]]
+                              /\ jwk' = [jwk EXCEPT ![self] = DW(pd'[self])]
+                              /\ stack' = [stack EXCEPT ![self] = << [ procedure |->  "RunJob",
+                                                                       pc        |->  "z_dq_after",
+                                                                       jq        |->  jq[self],
+                                                                       jj        |->  jj[self],
+                                                                       jwk       |->  jwk[self] ] >>
+                                                                   \o stack[self]]
+                           /\ pc' = [pc EXCEPT ![self] = "z_rj"]
                 /\ UNCHANGED << qstate, qpoll, wakeBlocked, schedule, pthreads, 
                                 nspawned, palive, busy, busyLocked, inbox, 
                                 chanOpen, pfin, thrHeld, maxThreads, jkind, 
-                                jaw, fres, fwaker, gfired, gthreads, dwSt, dwW, 
-                                dblTaken, dblW1, dblW2, ready, cwait, cnotif, 
-                                sdres, parkTok, rwb, rneed, dead, sti, rq, sq, 
-                                sj, ww, fj, dq, dj, oq, oop, omode, oj, yq, 
-                                yop, tq, top, af, pf, pctx, pq, nq >>
+                                jaw, fres, fwaker, gfired, gwaker, gthreads, 
+                                dwSt, dwW, dblTaken, dblW1, dblW2, ready, 
+                                cwait, cnotif, cvHeld, sdres, jpanic, parkTok, 
+                                rv, rwb, rneed, dsl, h, dead, sti, rq, sq, sj, 
+                                ww, rsq, bown, bwk, bi, bcur, bw, fj, dq, dj, 
+                                oq, oop, omode, oj, yq, yop, tq, top, af, wf, 
+                                wop, pf, pctx, pq, nq >>
 
 z_dq_after(self) == /\ pc[self] = "z_dq_after"
                     /\ IF rv[self] = 5
                           THEN /\ pc' = [pc EXCEPT ![self] = "dq_requeue"]
                                /\ UNCHANGED << stack, fj >>
-                          ELSE /\ IF NeedsFinish(pj[self])
-                                     THEN /\ /\ fj' = [fj EXCEPT ![self] = pj[self]]
-                                             /\ stack' = [stack EXCEPT ![self] = << [ procedure |->  "FinishJob",
-                                                                                      pc        |->  "dq_res",
-                                                                                      fj        |->  fj[self] ] >>
-                                                                                  \o stack[self]]
-                                          /\ pc' = [pc EXCEPT ![self] = "fj_lock"]
-                                     ELSE /\ pc' = [pc EXCEPT ![self] = "dq_res"]
-                                          /\ UNCHANGED << stack, fj >>
+                          ELSE /\ IF rv[self] = 9
+                                     THEN /\ IF NeedsFinish(pj[self])
+                                                THEN /\ /\ fj' = [fj EXCEPT ![self] = pj[self]]
+                                                        /\ stack' = [stack EXCEPT ![self] = << [ procedure |->  "FinishJob",
+                                                                                                 pc        |->  "dq_panic",
+                                                                                                 fj        |->  fj[self] ] >>
+                                                                                             \o stack[self]]
+                                                     /\ pc' = [pc EXCEPT ![self] = "fj_lock"]
+                                                ELSE /\ pc' = [pc EXCEPT ![self] = "dq_panic"]
+                                                     /\ UNCHANGED << stack, fj >>
+                                     ELSE /\ IF NeedsFinish(pj[self])
+                                                THEN /\ /\ fj' = [fj EXCEPT ![self] = pj[self]]
+                                                        /\ stack' = [stack EXCEPT ![self] = << [ procedure |->  "FinishJob",
+                                                                                                 pc        |->  "dq_res",
+                                                                                                 fj        |->  fj[self] ] >>
+                                                                                             \o stack[self]]
+                                                     /\ pc' = [pc EXCEPT ![self] = "fj_lock"]
+                                                ELSE /\ pc' = [pc EXCEPT ![self] = "dq_res"]
+                                                     /\ UNCHANGED << stack, fj >>
                     /\ UNCHANGED << qstate, qpoll, jobs, wakeBlocked, schedule, 
                                     pthreads, nspawned, palive, busy, 
                                     busyLocked, inbox, chanOpen, pfin, thrHeld, 
                                     maxThreads, jkind, jaw, fres, fwaker, 
                                     gfired, gwaker, gthreads, dwSt, dwW, 
                                     dblTaken, dblW1, dblW2, nextDW, ready, 
-                                    cwait, cnotif, sdres, parkTok, rv, rwb, 
-                                    rneed, h, dead, sti, rq, sq, sj, ww, rsq, 
-                                    bown, bwk, bi, bcur, bw, dq, dj, oq, oop, 
-                                    omode, oj, yq, yop, tq, top, af, pf, pctx, 
-                                    pq, pj, pd, nq >>
+                                    cwait, cnotif, cvHeld, sdres, jpanic, 
+                                    parkTok, rv, rwb, rneed, dsl, h, dead, sti, 
+                                    rq, sq, sj, ww, rsq, bown, bwk, bi, bcur, 
+                                    bw, jq, jj, jwk, dq, dj, oq, oop, omode, 
+                                    oj, yq, yop, tq, top, af, wf, wop, pf, 
+                                    pctx, pq, pj, pd, nq >>
 
 dq_requeue(self) == /\ pc[self] = "dq_requeue"
                     /\ jobs' = [jobs EXCEPT ![pq[self]] = << pj[self] >> \o jobs[pq[self]]]
@@ -2350,28 +3233,35 @@ dq_requeue(self) == /\ pc[self] = "dq_requeue"
                                     maxThreads, jkind, jaw, fres, fwaker, 
                                     gfired, gwaker, gthreads, dwSt, dwW, 
                                     dblTaken, dblW1, dblW2, nextDW, ready, 
-                                    cwait, cnotif, sdres, parkTok, rv, rwb, 
-                                    rneed, h, stack, dead, sti, rq, sq, sj, ww, 
-                                    rsq, bown, bwk, bi, bcur, bw, fj, dq, dj, 
-                                    oq, oop, omode, oj, yq, yop, tq, top, af, 
-                                    pf, pctx, pq, pj, pd, nq >>
+                                    cwait, cnotif, cvHeld, sdres, jpanic, 
+                                    parkTok, rv, rwb, rneed, dsl, h, stack, 
+                                    dead, sti, rq, sq, sj, ww, rsq, bown, bwk, 
+                                    bi, bcur, bw, jq, jj, jwk, fj, dq, dj, oq, 
+                                    oop, omode, oj, yq, yop, tq, top, af, wf, 
+                                    wop, pf, pctx, pq, pj, pd, nq >>
 
 dq_res2(self) == /\ pc[self] = "dq_res2"
                  /\ IF fres[pf[self]] = "some"
                        THEN /\ fres' = [fres EXCEPT ![pf[self]] = "taken"]
+                            /\ rv' = [rv EXCEPT ![self] = 0]
                             /\ pc' = [pc EXCEPT ![self] = "dq_waitwake"]
-                       ELSE /\ pc' = [pc EXCEPT ![self] = "dq_setwaker"]
-                            /\ fres' = fres
+                       ELSE /\ IF fres[pf[self]] = "cancelled"
+                                  THEN /\ fres' = [fres EXCEPT ![pf[self]] = "taken"]
+                                       /\ rv' = [rv EXCEPT ![self] = 4]
+                                       /\ pc' = [pc EXCEPT ![self] = "dq_waitwake"]
+                                  ELSE /\ pc' = [pc EXCEPT ![self] = "dq_setwaker"]
+                                       /\ UNCHANGED << fres, rv >>
                  /\ UNCHANGED << qstate, qpoll, jobs, wakeBlocked, schedule, 
                                  pthreads, nspawned, palive, busy, busyLocked, 
                                  inbox, chanOpen, pfin, thrHeld, maxThreads, 
                                  jkind, jaw, fwaker, gfired, gwaker, gthreads, 
                                  dwSt, dwW, dblTaken, dblW1, dblW2, nextDW, 
-                                 ready, cwait, cnotif, sdres, parkTok, rv, rwb, 
-                                 rneed, h, stack, dead, sti, rq, sq, sj, ww, 
-                                 rsq, bown, bwk, bi, bcur, bw, fj, dq, dj, oq, 
-                                 oop, omode, oj, yq, yop, tq, top, af, pf, 
-                                 pctx, pq, pj, pd, nq >>
+                                 ready, cwait, cnotif, cvHeld, sdres, jpanic, 
+                                 parkTok, rwb, rneed, dsl, h, stack, dead, sti, 
+                                 rq, sq, sj, ww, rsq, bown, bwk, bi, bcur, bw, 
+                                 jq, jj, jwk, fj, dq, dj, oq, oop, omode, oj, 
+                                 yq, yop, tq, top, af, wf, wop, pf, pctx, pq, 
+                                 pj, pd, nq >>
 
 dq_waitwake(self) == /\ pc[self] = "dq_waitwake"
                      /\ qstate' = [qstate EXCEPT ![pq[self]] = "WaitingForWake"]
@@ -2382,11 +3272,13 @@ dq_waitwake(self) == /\ pc[self] = "dq_waitwake"
                                      thrHeld, maxThreads, jkind, jaw, fres, 
                                      fwaker, gfired, gwaker, gthreads, dwSt, 
                                      dwW, dblTaken, dblW1, dblW2, nextDW, 
-                                     ready, cwait, cnotif, sdres, parkTok, rv, 
-                                     rwb, rneed, h, stack, dead, sti, rq, sq, 
-                                     sj, ww, rsq, bown, bwk, bi, bcur, bw, fj, 
+                                     ready, cwait, cnotif, cvHeld, sdres, 
+                                     jpanic, parkTok, rv, rwb, rneed, dsl, h, 
+                                     stack, dead, sti, rq, sq, sj, ww, rsq, 
+                                     bown, bwk, bi, bcur, bw, jq, jj, jwk, fj, 
                                      dq, dj, oq, oop, omode, oj, yq, yop, tq, 
-                                     top, af, pf, pctx, pq, pj, pd, nq >>
+                                     top, af, wf, wop, pf, pctx, pq, pj, pd, 
+                                     nq >>
 
 dq_ww1(self) == /\ pc[self] = "dq_ww1"
                 /\ IF dwSt[pd[self]] = "Woken"
@@ -2406,14 +3298,13 @@ dq_ww1(self) == /\ pc[self] = "dq_ww1"
                                 inbox, chanOpen, pfin, thrHeld, maxThreads, 
                                 jkind, jaw, fres, fwaker, gfired, gwaker, 
                                 gthreads, dblTaken, dblW1, dblW2, nextDW, 
-                                ready, cwait, cnotif, sdres, parkTok, rv, rwb, 
-                                rneed, h, dead, sti, rq, sq, sj, rsq, bown, 
-                                bwk, bi, bcur, bw, fj, dq, dj, oq, oop, omode, 
-                                oj, yq, yop, tq, top, af, pf, pctx, pq, pj, pd, 
-                                nq >>
+                                ready, cwait, cnotif, cvHeld, sdres, jpanic, 
+                                parkTok, rv, rwb, rneed, dsl, h, dead, sti, rq, 
+                                sq, sj, rsq, bown, bwk, bi, bcur, bw, jq, jj, 
+                                jwk, fj, dq, dj, oq, oop, omode, oj, yq, yop, 
+                                tq, top, af, wf, wop, pf, pctx, pq, pj, pd, nq >>
 
 z_dq_ready(self) == /\ pc[self] = "z_dq_ready"
-                    /\ rv' = [rv EXCEPT ![self] = 0]
                     /\ pc' = [pc EXCEPT ![self] = Head(stack[self]).pc]
                     /\ pq' = [pq EXCEPT ![self] = Head(stack[self]).pq]
                     /\ pj' = [pj EXCEPT ![self] = Head(stack[self]).pj]
@@ -2427,10 +3318,12 @@ z_dq_ready(self) == /\ pc[self] = "z_dq_ready"
                                     maxThreads, jkind, jaw, fres, fwaker, 
                                     gfired, gwaker, gthreads, dwSt, dwW, 
                                     dblTaken, dblW1, dblW2, nextDW, ready, 
-                                    cwait, cnotif, sdres, parkTok, rwb, rneed, 
-                                    h, dead, sti, rq, sq, sj, ww, rsq, bown, 
-                                    bwk, bi, bcur, bw, fj, dq, dj, oq, oop, 
-                                    omode, oj, yq, yop, tq, top, af, nq >>
+                                    cwait, cnotif, cvHeld, sdres, jpanic, 
+                                    parkTok, rv, rwb, rneed, dsl, h, dead, sti, 
+                                    rq, sq, sj, ww, rsq, bown, bwk, bi, bcur, 
+                                    bw, jq, jj, jwk, fj, dq, dj, oq, oop, 
+                                    omode, oj, yq, yop, tq, top, af, wf, wop, 
+                                    nq >>
 
 dq_setwaker(self) == /\ pc[self] = "dq_setwaker"
                      /\ fwaker' = [fwaker EXCEPT ![pf[self]] = pctx[self]]
@@ -2441,11 +3334,12 @@ dq_setwaker(self) == /\ pc[self] = "dq_setwaker"
                                      thrHeld, maxThreads, jkind, jaw, fres, 
                                      gfired, gwaker, gthreads, dwSt, dwW, 
                                      dblTaken, dblW1, dblW2, nextDW, ready, 
-                                     cwait, cnotif, sdres, parkTok, rv, rwb, 
-                                     rneed, h, stack, dead, sti, rq, sq, sj, 
-                                     ww, rsq, bown, bwk, bi, bcur, bw, fj, dq, 
-                                     dj, oq, oop, omode, oj, yq, yop, tq, top, 
-                                     af, pf, pctx, pq, pj, pd, nq >>
+                                     cwait, cnotif, cvHeld, sdres, jpanic, 
+                                     parkTok, rv, rwb, rneed, dsl, h, stack, 
+                                     dead, sti, rq, sq, sj, ww, rsq, bown, bwk, 
+                                     bi, bcur, bw, jq, jj, jwk, fj, dq, dj, oq, 
+                                     oop, omode, oj, yq, yop, tq, top, af, wf, 
+                                     wop, pf, pctx, pq, pj, pd, nq >>
 
 dq_waitpoll(self) == /\ pc[self] = "dq_waitpoll"
                      /\ qstate' = [qstate EXCEPT ![pq[self]] = "WaitingForPoll"]
@@ -2457,11 +3351,12 @@ dq_waitpoll(self) == /\ pc[self] = "dq_waitpoll"
                                      jkind, jaw, fres, fwaker, gfired, gwaker, 
                                      gthreads, dwSt, dwW, dblTaken, dblW1, 
                                      dblW2, nextDW, ready, cwait, cnotif, 
-                                     sdres, parkTok, rv, rwb, rneed, h, stack, 
-                                     dead, sti, rq, sq, sj, ww, rsq, bown, bwk, 
-                                     bi, bcur, bw, fj, dq, dj, oq, oop, omode, 
-                                     oj, yq, yop, tq, top, af, pf, pctx, pq, 
-                                     pj, pd, nq >>
+                                     cvHeld, sdres, jpanic, parkTok, rv, rwb, 
+                                     rneed, dsl, h, stack, dead, sti, rq, sq, 
+                                     sj, ww, rsq, bown, bwk, bi, bcur, bw, jq, 
+                                     jj, jwk, fj, dq, dj, oq, oop, omode, oj, 
+                                     yq, yop, tq, top, af, wf, wop, pf, pctx, 
+                                     pq, pj, pd, nq >>
 
 dq_ww2(self) == /\ pc[self] = "dq_ww2"
                 /\ dblW1' = [dblW1 EXCEPT ![pd[self]] = WQ(pq[self])]
@@ -2483,10 +3378,11 @@ dq_ww2(self) == /\ pc[self] = "dq_ww2"
                                 inbox, chanOpen, pfin, thrHeld, maxThreads, 
                                 jkind, jaw, fres, fwaker, gfired, gwaker, 
                                 gthreads, dblTaken, nextDW, ready, cwait, 
-                                cnotif, sdres, parkTok, rv, rwb, rneed, h, 
-                                dead, sti, rq, sq, sj, rsq, bown, bwk, bi, 
-                                bcur, bw, fj, dq, dj, oq, oop, omode, oj, yq, 
-                                yop, tq, top, af, pf, pctx, pq, pj, pd, nq >>
+                                cnotif, cvHeld, sdres, jpanic, parkTok, rv, 
+                                rwb, rneed, dsl, h, dead, sti, rq, sq, sj, rsq, 
+                                bown, bwk, bi, bcur, bw, jq, jj, jwk, fj, dq, 
+                                dj, oq, oop, omode, oj, yq, yop, tq, top, af, 
+                                wf, wop, pf, pctx, pq, pj, pd, nq >>
 
 z_dq_pending(self) == /\ pc[self] = "z_dq_pending"
                       /\ rv' = [rv EXCEPT ![self] = 5]
@@ -2503,11 +3399,12 @@ z_dq_pending(self) == /\ pc[self] = "z_dq_pending"
                                       thrHeld, maxThreads, jkind, jaw, fres, 
                                       fwaker, gfired, gwaker, gthreads, dwSt, 
                                       dwW, dblTaken, dblW1, dblW2, nextDW, 
-                                      ready, cwait, cnotif, sdres, parkTok, 
-                                      rwb, rneed, h, dead, sti, rq, sq, sj, ww, 
-                                      rsq, bown, bwk, bi, bcur, bw, fj, dq, dj, 
-                                      oq, oop, omode, oj, yq, yop, tq, top, af, 
-                                      nq >>
+                                      ready, cwait, cnotif, cvHeld, sdres, 
+                                      jpanic, parkTok, rwb, rneed, dsl, h, 
+                                      dead, sti, rq, sq, sj, ww, rsq, bown, 
+                                      bwk, bi, bcur, bw, jq, jj, jwk, fj, dq, 
+                                      dj, oq, oop, omode, oj, yq, yop, tq, top, 
+                                      af, wf, wop, nq >>
 
 dq_empty_w(self) == /\ pc[self] = "dq_empty_w"
                     /\ fwaker' = [fwaker EXCEPT ![pf[self]] = pctx[self]]
@@ -2518,11 +3415,12 @@ dq_empty_w(self) == /\ pc[self] = "dq_empty_w"
                                     maxThreads, jkind, jaw, fres, gfired, 
                                     gwaker, gthreads, dwSt, dwW, dblTaken, 
                                     dblW1, dblW2, nextDW, ready, cwait, cnotif, 
-                                    sdres, parkTok, rv, rwb, rneed, h, stack, 
-                                    dead, sti, rq, sq, sj, ww, rsq, bown, bwk, 
-                                    bi, bcur, bw, fj, dq, dj, oq, oop, omode, 
-                                    oj, yq, yop, tq, top, af, pf, pctx, pq, pj, 
-                                    pd, nq >>
+                                    cvHeld, sdres, jpanic, parkTok, rv, rwb, 
+                                    rneed, dsl, h, stack, dead, sti, rq, sq, 
+                                    sj, ww, rsq, bown, bwk, bi, bcur, bw, jq, 
+                                    jj, jwk, fj, dq, dj, oq, oop, omode, oj, 
+                                    yq, yop, tq, top, af, wf, wop, pf, pctx, 
+                                    pq, pj, pd, nq >>
 
 dq_empty_idle(self) == /\ pc[self] = "dq_empty_idle"
                        /\ qstate' = [qstate EXCEPT ![pq[self]] = "Idle"]
@@ -2538,11 +3436,12 @@ dq_empty_idle(self) == /\ pc[self] = "dq_empty_idle"
                                        thrHeld, maxThreads, jkind, jaw, fres, 
                                        fwaker, gfired, gwaker, gthreads, dwSt, 
                                        dwW, dblTaken, dblW1, dblW2, nextDW, 
-                                       ready, cwait, cnotif, sdres, parkTok, 
-                                       rv, rwb, rneed, h, dead, sti, sq, sj, 
-                                       ww, rsq, bown, bwk, bi, bcur, bw, fj, 
-                                       dq, dj, oq, oop, omode, oj, yq, yop, tq, 
-                                       top, af, pf, pctx, pq, pj, pd, nq >>
+                                       ready, cwait, cnotif, cvHeld, sdres, 
+                                       jpanic, parkTok, rv, rwb, rneed, dsl, h, 
+                                       dead, sti, sq, sj, ww, rsq, bown, bwk, 
+                                       bi, bcur, bw, jq, jj, jwk, fj, dq, dj, 
+                                       oq, oop, omode, oj, yq, yop, tq, top, 
+                                       af, wf, wop, pf, pctx, pq, pj, pd, nq >>
 
 dq_idle(self) == /\ pc[self] = "dq_idle"
                  /\ qstate' = [qstate EXCEPT ![pq[self]] = "Idle"]
@@ -2557,11 +3456,33 @@ dq_idle(self) == /\ pc[self] = "dq_idle"
                                  chanOpen, pfin, thrHeld, maxThreads, jkind, 
                                  jaw, fres, fwaker, gfired, gwaker, gthreads, 
                                  dwSt, dwW, dblTaken, dblW1, dblW2, nextDW, 
-                                 ready, cwait, cnotif, sdres, parkTok, rv, rwb, 
-                                 rneed, h, dead, sti, sq, sj, ww, rsq, bown, 
-                                 bwk, bi, bcur, bw, fj, dq, dj, oq, oop, omode, 
-                                 oj, yq, yop, tq, top, af, pf, pctx, pq, pj, 
+                                 ready, cwait, cnotif, cvHeld, sdres, jpanic, 
+                                 parkTok, rv, rwb, rneed, dsl, h, dead, sti, 
+                                 sq, sj, ww, rsq, bown, bwk, bi, bcur, bw, jq, 
+                                 jj, jwk, fj, dq, dj, oq, oop, omode, oj, yq, 
+                                 yop, tq, top, af, wf, wop, pf, pctx, pq, pj, 
                                  pd, nq >>
+
+dq_panic(self) == /\ pc[self] = "dq_panic"
+                  /\ qstate' = [qstate EXCEPT ![pq[self]] = "Panicked"]
+                  /\ rv' = [rv EXCEPT ![self] = 2]
+                  /\ pc' = [pc EXCEPT ![self] = Head(stack[self]).pc]
+                  /\ pq' = [pq EXCEPT ![self] = Head(stack[self]).pq]
+                  /\ pj' = [pj EXCEPT ![self] = Head(stack[self]).pj]
+                  /\ pd' = [pd EXCEPT ![self] = Head(stack[self]).pd]
+                  /\ pf' = [pf EXCEPT ![self] = Head(stack[self]).pf]
+                  /\ pctx' = [pctx EXCEPT ![self] = Head(stack[self]).pctx]
+                  /\ stack' = [stack EXCEPT ![self] = Tail(stack[self])]
+                  /\ UNCHANGED << qpoll, jobs, wakeBlocked, schedule, pthreads, 
+                                  nspawned, palive, busy, busyLocked, inbox, 
+                                  chanOpen, pfin, thrHeld, maxThreads, jkind, 
+                                  jaw, fres, fwaker, gfired, gwaker, gthreads, 
+                                  dwSt, dwW, dblTaken, dblW1, dblW2, nextDW, 
+                                  ready, cwait, cnotif, cvHeld, sdres, jpanic, 
+                                  parkTok, rwb, rneed, dsl, h, dead, sti, rq, 
+                                  sq, sj, ww, rsq, bown, bwk, bi, bcur, bw, jq, 
+                                  jj, jwk, fj, dq, dj, oq, oop, omode, oj, yq, 
+                                  yop, tq, top, af, wf, wop, nq >>
 
 PollFuture(self) == pf_decide(self) \/ dq_res(self) \/ dq_deq(self)
                        \/ z_dq_after(self) \/ dq_requeue(self)
@@ -2570,7 +3491,7 @@ PollFuture(self) == pf_decide(self) \/ dq_res(self) \/ dq_deq(self)
                        \/ dq_setwaker(self) \/ dq_waitpoll(self)
                        \/ dq_ww2(self) \/ z_dq_pending(self)
                        \/ dq_empty_w(self) \/ dq_empty_idle(self)
-                       \/ dq_idle(self)
+                       \/ dq_idle(self) \/ dq_panic(self)
 
 c_start(self) == /\ pc[self] = "c_start"
                  /\ /\ bown' = [bown EXCEPT ![self] = 0]
@@ -2594,10 +3515,11 @@ c_start(self) == /\ pc[self] = "c_start"
                                  inbox, chanOpen, pfin, thrHeld, maxThreads, 
                                  jkind, jaw, fres, fwaker, gfired, gwaker, 
                                  gthreads, dwSt, dwW, dblTaken, dblW1, dblW2, 
-                                 nextDW, ready, cwait, cnotif, sdres, parkTok, 
-                                 rv, rwb, rneed, h, dead, sti, rq, sq, sj, ww, 
-                                 fj, dq, dj, oq, oop, omode, oj, yq, yop, tq, 
-                                 top, af, pf, pctx, pq, pj, pd, nq >>
+                                 nextDW, ready, cwait, cnotif, cvHeld, sdres, 
+                                 jpanic, parkTok, rv, rwb, rneed, dsl, h, dead, 
+                                 sti, rq, sq, sj, ww, jq, jj, jwk, fj, dq, dj, 
+                                 oq, oop, omode, oj, yq, yop, tq, top, af, wf, 
+                                 wop, pf, pctx, pq, pj, pd, nq >>
 
 z_c_exit(self) == /\ pc[self] = "z_c_exit"
                   /\ h' = ObsExit(h, self, 0, 0)
@@ -2607,11 +3529,12 @@ z_c_exit(self) == /\ pc[self] = "z_c_exit"
                                   inbox, chanOpen, pfin, thrHeld, maxThreads, 
                                   jkind, jaw, fres, fwaker, gfired, gwaker, 
                                   gthreads, dwSt, dwW, dblTaken, dblW1, dblW2, 
-                                  nextDW, ready, cwait, cnotif, sdres, parkTok, 
-                                  rv, rwb, rneed, stack, dead, sti, rq, sq, sj, 
-                                  ww, rsq, bown, bwk, bi, bcur, bw, fj, dq, dj, 
-                                  oq, oop, omode, oj, yq, yop, tq, top, af, pf, 
-                                  pctx, pq, pj, pd, nq >>
+                                  nextDW, ready, cwait, cnotif, cvHeld, sdres, 
+                                  jpanic, parkTok, rv, rwb, rneed, dsl, stack, 
+                                  dead, sti, rq, sq, sj, ww, rsq, bown, bwk, 
+                                  bi, bcur, bw, jq, jj, jwk, fj, dq, dj, oq, 
+                                  oop, omode, oj, yq, yop, tq, top, af, wf, 
+                                  wop, pf, pctx, pq, pj, pd, nq >>
 
 caller(self) == c_start(self) \/ z_c_exit(self)
 
@@ -2623,18 +3546,19 @@ pt_recv(self) == /\ pc[self] = "pt_recv"
                             /\ UNCHANGED << pfin, h >>
                        ELSE /\ pfin' = [pfin EXCEPT ![self] = TRUE]
                             /\ h' = ObsExit(h, self, 1, 0)
-                            /\ pc' = [pc EXCEPT ![self] = "pt_done"]
+                            /\ pc' = [pc EXCEPT ![self] = "z_pt_done"]
                             /\ inbox' = inbox
                  /\ UNCHANGED << qstate, qpoll, jobs, wakeBlocked, schedule, 
                                  pthreads, nspawned, palive, busy, busyLocked, 
                                  chanOpen, thrHeld, maxThreads, jkind, jaw, 
                                  fres, fwaker, gfired, gwaker, gthreads, dwSt, 
                                  dwW, dblTaken, dblW1, dblW2, nextDW, ready, 
-                                 cwait, cnotif, sdres, parkTok, rv, rwb, rneed, 
-                                 stack, dead, sti, rq, sq, sj, ww, rsq, bown, 
-                                 bwk, bi, bcur, bw, fj, dq, dj, oq, oop, omode, 
-                                 oj, yq, yop, tq, top, af, pf, pctx, pq, pj, 
-                                 pd, nq >>
+                                 cwait, cnotif, cvHeld, sdres, jpanic, parkTok, 
+                                 rv, rwb, rneed, dsl, stack, dead, sti, rq, sq, 
+                                 sj, ww, rsq, bown, bwk, bi, bcur, bw, jq, jj, 
+                                 jwk, fj, dq, dj, oq, oop, omode, oj, yq, yop, 
+                                 tq, top, af, wf, wop, pf, pctx, pq, pj, pd, 
+                                 nq >>
 
 pt_next(self) == /\ pc[self] = "pt_next"
                  /\ LET r == NTR(schedule) IN
@@ -2651,11 +3575,12 @@ pt_next(self) == /\ pc[self] = "pt_next"
                                  busy, inbox, chanOpen, pfin, thrHeld, 
                                  maxThreads, jkind, jaw, fres, fwaker, gfired, 
                                  gwaker, gthreads, dwSt, dwW, dblTaken, dblW1, 
-                                 dblW2, nextDW, ready, cwait, cnotif, sdres, 
-                                 parkTok, rv, rwb, rneed, h, stack, dead, sti, 
-                                 rq, sq, sj, ww, rsq, bown, bwk, bi, bcur, bw, 
-                                 fj, dq, dj, oq, oop, omode, oj, yq, yop, tq, 
-                                 top, af, pf, pctx, pq, pj, pd >>
+                                 dblW2, nextDW, ready, cwait, cnotif, cvHeld, 
+                                 sdres, jpanic, parkTok, rv, rwb, rneed, dsl, 
+                                 h, stack, dead, sti, rq, sq, sj, ww, rsq, 
+                                 bown, bwk, bi, bcur, bw, jq, jj, jwk, fj, dq, 
+                                 dj, oq, oop, omode, oj, yq, yop, tq, top, af, 
+                                 wf, wop, pf, pctx, pq, pj, pd >>
 
 pt_after(self) == /\ pc[self] = "pt_after"
                   /\ busyLocked' = [busyLocked EXCEPT ![self] = FALSE]
@@ -2665,7 +3590,7 @@ pt_after(self) == /\ pc[self] = "pt_after"
                              /\ UNCHANGED << stack, dq, dj >>
                         ELSE /\ /\ dq' = [dq EXCEPT ![self] = nq[self]]
                                 /\ stack' = [stack EXCEPT ![self] = << [ procedure |->  "PoolDrain",
-                                                                         pc        |->  "pt_next",
+                                                                         pc        |->  "z_pt_chk",
                                                                          dj        |->  dj[self],
                                                                          dq        |->  dq[self] ] >>
                                                                      \o stack[self]]
@@ -2677,27 +3602,49 @@ pt_after(self) == /\ pc[self] = "pt_after"
                                   pfin, thrHeld, maxThreads, jkind, jaw, fres, 
                                   fwaker, gfired, gwaker, gthreads, dwSt, dwW, 
                                   dblTaken, dblW1, dblW2, nextDW, ready, cwait, 
-                                  cnotif, sdres, parkTok, rv, rwb, rneed, h, 
-                                  dead, sti, rq, sq, sj, ww, rsq, bown, bwk, 
-                                  bi, bcur, bw, fj, oq, oop, omode, oj, yq, 
-                                  yop, tq, top, af, pf, pctx, pq, pj, pd, nq >>
+                                  cnotif, cvHeld, sdres, jpanic, parkTok, rv, 
+                                  rwb, rneed, dsl, h, dead, sti, rq, sq, sj, 
+                                  ww, rsq, bown, bwk, bi, bcur, bw, jq, jj, 
+                                  jwk, fj, oq, oop, omode, oj, yq, yop, tq, 
+                                  top, af, wf, wop, pf, pctx, pq, pj, pd, nq >>
 
-pt_done(self) == /\ pc[self] = "pt_done"
-                 /\ TRUE
-                 /\ pc' = [pc EXCEPT ![self] = "Done"]
-                 /\ UNCHANGED << qstate, qpoll, jobs, wakeBlocked, schedule, 
-                                 pthreads, nspawned, palive, busy, busyLocked, 
-                                 inbox, chanOpen, pfin, thrHeld, maxThreads, 
-                                 jkind, jaw, fres, fwaker, gfired, gwaker, 
-                                 gthreads, dwSt, dwW, dblTaken, dblW1, dblW2, 
-                                 nextDW, ready, cwait, cnotif, sdres, parkTok, 
-                                 rv, rwb, rneed, h, stack, dead, sti, rq, sq, 
-                                 sj, ww, rsq, bown, bwk, bi, bcur, bw, fj, dq, 
-                                 dj, oq, oop, omode, oj, yq, yop, tq, top, af, 
-                                 pf, pctx, pq, pj, pd, nq >>
+z_pt_chk(self) == /\ pc[self] = "z_pt_chk"
+                  /\ IF rv[self] = 9
+                        THEN /\ pfin' = [pfin EXCEPT ![self] = TRUE]
+                             /\ h' = ObsExit(h, self, 1, 1)
+                             /\ pc' = [pc EXCEPT ![self] = "z_pt_done"]
+                        ELSE /\ pc' = [pc EXCEPT ![self] = "pt_next"]
+                             /\ UNCHANGED << pfin, h >>
+                  /\ UNCHANGED << qstate, qpoll, jobs, wakeBlocked, schedule, 
+                                  pthreads, nspawned, palive, busy, busyLocked, 
+                                  inbox, chanOpen, thrHeld, maxThreads, jkind, 
+                                  jaw, fres, fwaker, gfired, gwaker, gthreads, 
+                                  dwSt, dwW, dblTaken, dblW1, dblW2, nextDW, 
+                                  ready, cwait, cnotif, cvHeld, sdres, jpanic, 
+                                  parkTok, rv, rwb, rneed, dsl, stack, dead, 
+                                  sti, rq, sq, sj, ww, rsq, bown, bwk, bi, 
+                                  bcur, bw, jq, jj, jwk, fj, dq, dj, oq, oop, 
+                                  omode, oj, yq, yop, tq, top, af, wf, wop, pf, 
+                                  pctx, pq, pj, pd, nq >>
+
+z_pt_done(self) == /\ pc[self] = "z_pt_done"
+                   /\ TRUE
+                   /\ pc' = [pc EXCEPT ![self] = "Done"]
+                   /\ UNCHANGED << qstate, qpoll, jobs, wakeBlocked, schedule, 
+                                   pthreads, nspawned, palive, busy, 
+                                   busyLocked, inbox, chanOpen, pfin, thrHeld, 
+                                   maxThreads, jkind, jaw, fres, fwaker, 
+                                   gfired, gwaker, gthreads, dwSt, dwW, 
+                                   dblTaken, dblW1, dblW2, nextDW, ready, 
+                                   cwait, cnotif, cvHeld, sdres, jpanic, 
+                                   parkTok, rv, rwb, rneed, dsl, h, stack, 
+                                   dead, sti, rq, sq, sj, ww, rsq, bown, bwk, 
+                                   bi, bcur, bw, jq, jj, jwk, fj, dq, dj, oq, 
+                                   oop, omode, oj, yq, yop, tq, top, af, wf, 
+                                   wop, pf, pctx, pq, pj, pd, nq >>
 
 pool(self) == pt_recv(self) \/ pt_next(self) \/ pt_after(self)
-                 \/ pt_done(self)
+                 \/ z_pt_chk(self) \/ z_pt_done(self)
 
 (* Allow infinite stuttering to prevent deadlock on termination. *)
 Terminating == /\ \A self \in ProcSet: pc[self] = "Done"
@@ -2705,9 +3652,11 @@ Terminating == /\ \A self \in ProcSet: pc[self] = "Done"
 
 Next == (\E self \in ProcSet:  \/ ScheduleThread(self) \/ Reschedule(self)
                                \/ ScheduleJob(self) \/ Wake(self)
-                               \/ RunOps(self) \/ FinishJob(self)
-                               \/ PoolDrain(self) \/ RunOne(self)
-                               \/ Sync(self) \/ TrySync(self) \/ Await(self)
+                               \/ RunOps(self) \/ RunJob(self)
+                               \/ FinishJob(self) \/ PoolDrain(self)
+                               \/ RunOne(self) \/ Sync(self)
+                               \/ TrySync(self) \/ Await(self)
+                               \/ WaitSync(self) \/ Despawn(self)
                                \/ PollFuture(self))
            \/ (\E self \in Threads: caller(self))
            \/ (\E self \in PoolSet: pool(self))
